@@ -350,24 +350,67 @@ theorem convert_code_block (ls : List Str) (sp : Spelling) (hwf : WF [Block.code
 
 /-! ### 4. top-level elements through the stages after the block parser, generically -/
 
-/-- one child of the root `<div>` at every stage, with what the inline stage adds to the stash and pushes on its
-    stack when the element is the `i`-th child -/
+/-- one child of the root `<div>` at every stage, with what the inline stage adds to the stash (when the stash has
+    `n` entries already: an element that is stashed with unresolved placeholders in its text depends on `n`) and pushes
+    on its stack when the element is the `i`-th child -/
 structure Elem where
   src : Node
   mid : Node
-  items : List StashItem
+  items : Nat → List StashItem
   pushes : Nat → List Path
   pretty : Node
   fin : Node
   out : Str
 
+/-- the inline processor leaves this element alone when it visits it as a child -/
+def Still (cfg : Inline.Cfg) (c : Node) : Prop :=
+  ∀ v : Visit, visitChild cfg c v =
+    some (c, [], { v with pushes := if c.children.isEmpty then v.pushes else [v.done.length] :: v.pushes })
+
+theorem still_of_calm (cfg : Inline.Cfg) (c : Node) (h : calmNode c = true) : Still cfg c :=
+  fun v => visitChild_calm cfg c v h
+
+/-- every element below `n` is left alone by the inline processor, and has at most `b` children -/
+def StillBelow (cfg : Inline.Cfg) (b : Nat) (n : Node) : Prop :=
+  ∀ p cur, getAt n p = some cur → cur.children.length ≤ b ∧ ∀ c ∈ cur.children, Still cfg c
+
+/-- the usual case: the children are left alone and have no children themselves -/
+theorem stillBelow_of_childless (cfg : Inline.Cfg) (b : Nat) (n : Node) (hlen : n.children.length ≤ b)
+    (h : ∀ c ∈ n.children, Still cfg c ∧ c.children = []) : StillBelow cfg b n := by
+  intro p cur hp
+  cases p with
+  | nil =>
+    simp only [getAt, Option.some.injEq] at hp; subst hp
+    exact ⟨hlen, fun c hc => (h c hc).1⟩
+  | cons j q =>
+    simp only [getAt] at hp
+    cases hc : n.children[j]? with
+    | none => rw [hc] at hp; cases hp
+    | some c =>
+      rw [hc] at hp
+      have hcc := (h c (List.mem_of_getElem? hc)).2
+      cases q with
+      | nil =>
+        simp only [getAt, Option.some.injEq] at hp; subst hp
+        rw [hcc]; exact ⟨by simp, fun x hx => by cases hx⟩
+      | cons j' q' =>
+        simp only [getAt, hcc] at hp
+        simp at hp
+
+theorem stillBelow_child (cfg : Inline.Cfg) (b : Nat) (n c : Node) (j : Nat) (h : StillBelow cfg b n)
+    (hc : n.children[j]? = some c) : StillBelow cfg b c := by
+  intro p cur hp
+  apply h (j :: p) cur
+  simp only [getAt, hc]; exact hp
+
 structure ElemOK (cfg : Inline.Cfg) (e : Elem) : Prop where
   visit : ∀ v : Visit, visitChild cfg e.src v =
     some (e.mid, [], { v with pushes := e.pushes v.done.length ++ v.pushes,
-                              st := { v.st with stash := v.st.stash ++ e.items } })
+                              st := { v.st with stash := v.st.stash ++ e.items v.st.stash.length } })
   pushBound : ∀ i, (e.pushes i).length ≤ Inline.size e.src
+  weight : ∀ i, mStack e.mid ((e.pushes i).map (fun q => q.drop 1)) ≤ Inline.size e.src
   pushOk : ∀ i q, q ∈ e.pushes i → ∃ rel cur, q = i :: rel ∧ getAt e.mid rel = some cur ∧
-    cur.children.length ≤ Inline.size e.src ∧ ∀ c ∈ cur.children, calmNode c = true ∧ c.children = []
+    StillBelow cfg (Inline.size e.src) cur
   block : TreeProc.isBlockLevel TreeProc.defaultBlockLevel e.mid.tag = true
   pretty : TreeProc.mapTree TreeProc.preRule (TreeProc.mapTree TreeProc.brRule
     (TreeProc.prettifyETree TreeProc.defaultBlockLevel e.mid)) = e.pretty
@@ -380,15 +423,15 @@ def allPushes : List Elem → Nat → List Path
   | [], _ => []
   | e :: r, i => allPushes r (i + 1) ++ e.pushes i
 
-def allItems : List Elem → List StashItem
-  | [] => []
-  | e :: r => e.items ++ allItems r
+def allItems : List Elem → Nat → List StashItem
+  | [], _ => []
+  | e :: r, n => e.items n ++ allItems r (n + (e.items n).length)
 
 theorem visitLoop_elems (cfg : Inline.Cfg) (L : List Elem) (hL : ∀ e ∈ L, ElemOK cfg e) :
     ∀ (i : Nat) (v : Visit) (g : Nat), v.done.length = i → L.length + 1 ≤ g →
       ∃ pm, visitLoop cfg g (withIdx (L.map (·.src)) i) v =
         some { done := (L.map (·.mid)).reverse ++ v.done, posmap := pm, pushes := allPushes L i ++ v.pushes,
-               st := { v.st with stash := v.st.stash ++ allItems L } } := by
+               st := { v.st with stash := v.st.stash ++ allItems L v.st.stash.length } } := by
   induction L with
   | nil =>
     intro i v g _ hg
@@ -402,7 +445,8 @@ theorem visitLoop_elems (cfg : Inline.Cfg) (L : List Elem) (hL : ∀ e ∈ L, El
     obtain ⟨pm, hpm⟩ := ih (fun x hx => hL x (List.mem_cons_of_mem _ hx)) (i + 1)
       { done := e.mid :: v.done, posmap := (i, v.done.length) :: v.posmap,
         pushes := e.pushes v.done.length ++ v.pushes,
-        st := { v.st with stash := v.st.stash ++ e.items } } g' (by simp [hv]) (by simp at hg ⊢; omega)
+        st := { v.st with stash := v.st.stash ++ e.items v.st.stash.length } } g' (by simp [hv])
+      (by simp at hg ⊢; omega)
     refine ⟨pm, ?_⟩
     rw [hpm]
     simp [allPushes, allItems, hv, List.append_assoc]
@@ -413,34 +457,91 @@ theorem pushesRev_childless (kids : List Node) (h : ∀ c ∈ kids, c.children =
   | cons c r ih =>
     simp [pushesRev, h c List.mem_cons_self, ih (fun x hx => h x (List.mem_cons_of_mem _ hx))]
 
-/-- the stack loop when every stacked path leads to an element whose children are calm and childless: nothing
-    changes -/
-theorem runLoop_childless (cfg : Inline.Cfg) (g2 : Nat) (root : Node) (st : St) :
-    ∀ (stack : List Path) (g : Nat), stack.length + 1 ≤ g →
-      (∀ q ∈ stack, ∃ cur, getAt root q = some cur ∧ cur.children.length + 1 ≤ g2 ∧
-        ∀ c ∈ cur.children, calmNode c = true ∧ c.children = []) →
-      runLoop cfg g2 g root stack st = some (root, st) := by
-  intro stack
-  induction stack with
+theorem visitLoop_still (cfg : Inline.Cfg) (kids : List Node) :
+    ∀ (i : Nat) (v : Visit) (g : Nat), (∀ c ∈ kids, Still cfg c) → v.done.length = i → kids.length + 1 ≤ g →
+      visitLoop cfg g (withIdx kids i) v = some (vl kids i v) := by
+  induction kids with
   | nil =>
-    intro g hg _
+    intro i v g _ _ hg
     obtain ⟨g', rfl⟩ : ∃ g', g = g' + 1 := ⟨g - 1, by simp at hg; omega⟩
     rfl
-  | cons p stack ih =>
-    intro g hg hs
+  | cons c r ih =>
+    intro i v g hc hv hg
     obtain ⟨g', rfl⟩ : ∃ g', g = g' + 1 := ⟨g - 1, by simp at hg; omega⟩
-    obtain ⟨cur, hcur, hlen, hk⟩ := hs p List.mem_cons_self
-    have hvl := visitLoop_calm cfg cur.children 0 { st := st } g2 (fun c hc => (hk c hc).1) rfl hlen
-    obtain ⟨v1, v2, v3, v4⟩ := vl_spec cur.children 0 { st := st }
-    simp only [runLoop, hcur, hvl, v1, v2, List.append_nil, List.reverse_reverse]
-    have e : (⟨cur.tag, cur.attrs, cur.text, cur.textAtomic, cur.children, cur.tail, cur.tailAtomic⟩ : Node) = cur := by
-      cases cur; rfl
-    rw [e, setAt_getAt root p cur hcur, v3, pushesRev_childless _ (fun c hc => (hk c hc).2)]
-    have hid := v4 (by simp)
-    rw [show remap p (vl cur.children 0 { st := st }).posmap = id from funext (remap_id p _ hid)]
-    simp only [List.nil_append, List.map_nil, List.map_id]
-    exact ih g' (by simp at hg ⊢; omega) (fun q hq => hs q (List.mem_cons_of_mem _ hq))
+    simp only [withIdx, visitLoop, hc c List.mem_cons_self v, List.map_nil, List.nil_append]
+    have := ih (i + 1) (vlStep c i v) g' (fun d hd => hc d (List.mem_cons_of_mem _ hd))
+      (by simp [vlStep, hv]) (by simp at hg ⊢; omega)
+    simp only [vl]
+    rw [← this]
+    simp [vlStep, hv]
 
+theorem mem_pushesRev (kids : List Node) : ∀ (i : Nat) (x : Path), x ∈ pushesRev kids i →
+    ∃ j c, x = [i + j] ∧ kids[j]? = some c := by
+  induction kids with
+  | nil => intro i x h; simp [pushesRev] at h
+  | cons c r ih =>
+    intro i x h
+    simp only [pushesRev, List.mem_append] at h
+    rcases h with h | h
+    · obtain ⟨j, d, hx, hd⟩ := ih (i + 1) x h
+      exact ⟨j + 1, d, by rw [hx]; congr 1; omega, by simpa using hd⟩
+    · split at h
+      · cases h
+      · have : x = [i] := by simpa using h
+        exact ⟨0, c, by simpa using this, rfl⟩
+
+/-- the stack loop when every element below the stacked paths is left alone by the processor: nothing changes -/
+theorem runLoop_still (cfg : Inline.Cfg) (g2 : Nat) (root : Node) (st : St) :
+    ∀ (g : Nat) (stack : List Path), mStack root stack + 1 ≤ g →
+      (∀ q ∈ stack, ∀ cur, getAt root q = some cur → ∃ b, b + 1 ≤ g2 ∧ StillBelow cfg b cur) →
+      runLoop cfg g2 g root stack st = some (root, st) := by
+  intro g
+  induction g with
+  | zero => intro stack h; omega
+  | succ g ih =>
+    intro stack h hs
+    cases stack with
+    | nil => rfl
+    | cons p stack =>
+      rw [mStack_cons] at h
+      have hs' : ∀ q ∈ stack, ∀ cur, getAt root q = some cur → ∃ b, b + 1 ≤ g2 ∧ StillBelow cfg b cur :=
+        fun q hq => hs q (List.mem_cons_of_mem _ hq)
+      cases hcur : getAt root p with
+      | none =>
+        simp only [runLoop, hcur]
+        apply ih _ _ hs'
+        simp only [wPath, hcur] at h
+        omega
+      | some cur =>
+        obtain ⟨b, hb, hsb⟩ := hs p List.mem_cons_self cur hcur
+        obtain ⟨hlen, hkids⟩ := hsb [] cur rfl
+        have hvl := visitLoop_still cfg cur.children 0 { st := st } g2 hkids rfl (by omega)
+        obtain ⟨v1, v2, v3, v4⟩ := vl_spec cur.children 0 { st := st }
+        simp only [runLoop, hcur, hvl, v1, v2, List.append_nil, List.reverse_reverse]
+        have hroot : setAt root p cur = root := setAt_getAt root p cur hcur
+        have e : (⟨cur.tag, cur.attrs, cur.text, cur.textAtomic, cur.children, cur.tail, cur.tailAtomic⟩ : Node) = cur := by
+          cases cur; rfl
+        rw [e]
+        rw [hroot, v3]
+        have hmap : stack.map (remap p (vl cur.children 0 { st := st }).posmap) = stack := by
+          have hid := v4 (by simp)
+          rw [show remap p (vl cur.children 0 { st := st }).posmap = id from funext (remap_id p _ hid)]
+          simp
+        rw [hmap]
+        apply ih
+        · simp only [List.append_nil, mStack_append]
+          have := mStack_pushes root p cur hcur cur.children 0 (fun j c hj => by simpa using hj)
+          simp only [wPath, hcur, below_eq cur] at h
+          omega
+        · intro q hq cur' hq'
+          simp only [List.append_nil, List.mem_append, List.mem_map] at hq
+          rcases hq with ⟨x, hx, rfl⟩ | hq
+          · obtain ⟨j, c, hxe, hc⟩ := mem_pushesRev cur.children 0 x hx
+            rw [hxe, Nat.zero_add, getAt_append root p cur j hcur, hc] at hq'
+            have : c = cur' := by simpa using hq'
+            subst this
+            exact ⟨b, hb, stillBelow_child cfg b cur c j hsb hc⟩
+          · exact hs' q hq cur' hq'
 
 theorem mem_allPushes (L : List Elem) : ∀ (i : Nat) (q : Path), q ∈ allPushes L i →
     ∃ (k : Nat) (e : Elem), L[k]? = some e ∧ q ∈ e.pushes (i + k) := by
@@ -464,10 +565,39 @@ theorem length_allPushes (cfg : Inline.Cfg) (L : List Elem) (hL : ∀ e ∈ L, E
     simp only [allPushes, List.length_append, List.map_cons, Inline.sizeList]
     omega
 
+theorem wPath_div (mids : List Node) (k : Nat) (m : Node) (hk : mids[k]? = some m) (rel : Path) :
+    wPath (divOf mids) (k :: rel) = wPath m rel := by
+  simp [wPath, getAt, divOf, hk]
+
+/-- the stack after the children loop weighs at most the size of the sources -/
+theorem weight_allPushes (cfg : Inline.Cfg) (All : List Elem) (hAll : ∀ e ∈ All, ElemOK cfg e) (L : List Elem) :
+    ∀ (i : Nat), (∀ k e, L[k]? = some e → All[i + k]? = some e) →
+      mStack (divOf (All.map (·.mid))) (allPushes L i) ≤ Inline.sizeList (L.map (·.src)) := by
+  induction L with
+  | nil => intro i _; simp [allPushes, mStack, Inline.sizeList]
+  | cons e r ih =>
+    intro i hk
+    have he : All[i]? = some e := by simpa using hk 0 e rfl
+    have heA : e ∈ All := List.mem_of_getElem? he
+    have h2 := ih (i + 1) (fun k e' hk' => by
+      have := hk (k + 1) e' (by simpa using hk')
+      rwa [show i + (k + 1) = i + 1 + k by omega] at this)
+    have h1 := (hAll e heA).weight i
+    have hw : mStack (divOf (All.map (·.mid))) (e.pushes i) = mStack e.mid ((e.pushes i).map (fun q => q.drop 1)) := by
+      simp only [mStack, List.map_map]
+      congr 1
+      apply List.map_congr_left
+      intro q hq
+      obtain ⟨rel, cur, rfl, _, _⟩ := (hAll e heA).pushOk i q hq
+      simp only [Function.comp, List.drop_succ_cons, List.drop_zero]
+      exact wPath_div _ i e.mid (by simp [he]) rel
+    simp only [allPushes, mStack_append, List.map_cons, Inline.sizeList, hw]
+    omega
+
 /-- **`InlineProcessor.run`** on a `<div>` of elements -/
 theorem run_elems (cfg : Inline.Cfg) (L : List Elem) (hL : ∀ e ∈ L, ElemOK cfg e) (html : List Str) :
     Inline.run cfg (divOf (L.map (·.src))) html =
-      some (divOf (L.map (·.mid)), { stash := allItems L, html := html }) := by
+      some (divOf (L.map (·.mid)), { stash := allItems L 0, html := html }) := by
   have hsl := CodeLaw.length_le_sizeList (L.map (·.src))
   have hsz : Inline.size (divOf (L.map (·.src))) = 1 + Inline.sizeList (L.map (·.src)) := by
     simp [divOf, Inline.size]
@@ -483,19 +613,25 @@ theorem run_elems (cfg : Inline.Cfg) (L : List Elem) (hL : ∀ e ∈ L, ElemOK c
   simp only [List.map_id']
   have hroot : ({ divOf (L.map (·.src)) with children := L.map (·.mid) } : Node) = divOf (L.map (·.mid)) := rfl
   rw [hroot]
-  have := runLoop_childless cfg (g + 1) (divOf (L.map (·.mid))) { stash := allItems L, html := html } (allPushes L 0) g
-    (by have := length_allPushes cfg L hL 0; omega)
+  have := runLoop_still cfg (g + 1) (divOf (L.map (·.mid))) { stash := allItems L 0, html := html } g (allPushes L 0)
     (by
-      intro q hq
+      have h2 := weight_allPushes cfg L hL L 0 (fun k e hk => by simpa using hk)
+      omega)
+    (by
+      intro q hq cur hcur
       obtain ⟨k, e, hk, hqe⟩ := mem_allPushes L 0 q hq
       rw [Nat.zero_add] at hqe
       have heL : e ∈ L := List.mem_of_getElem? hk
-      obtain ⟨rel, cur, rfl, hget, hlen, hkids⟩ := (hL e heL).pushOk k q hqe
-      refine ⟨cur, ?_, ?_, hkids⟩
-      · simp only [getAt, divOf, List.getElem?_map, hk, Option.map_some]
+      obtain ⟨rel, cur', rfl, hget, hsb⟩ := (hL e heL).pushOk k q hqe
+      have hc' : getAt (divOf (L.map (·.mid))) (k :: rel) = some cur' := by
+        simp only [getAt, divOf, List.getElem?_map, hk, Option.map_some]
         exact hget
-      · have := CodeLaw.size_mem_le (L.map (·.src)) e.src (List.mem_map.2 ⟨e, heL, rfl⟩)
-        omega)
+      rw [hc'] at hcur
+      have : cur' = cur := by simpa using hcur
+      subst this
+      refine ⟨Inline.size e.src, ?_, hsb⟩
+      have := CodeLaw.size_mem_le (L.map (·.src)) e.src (List.mem_map.2 ⟨e, heL, rfl⟩)
+      omega)
   simpa using this
 
 
@@ -631,16 +767,63 @@ theorem render_elems (cfg : Pipeline.Cfg) (hbl : cfg.blockLevel = TreeProc.defau
   simp only [h5]
 
 
+/-- the weight of the paths pushed for the children of `mid` -/
+theorem mStack_range (mid : Node) (i : Nat) :
+    ∀ n, n ≤ mid.children.length →
+      mStack mid ((((List.range n).map (fun k => [i, k])).reverse).map (fun q => q.drop 1)) =
+        ((mid.children.take n).map (fun c => 1 + below c)).sum := by
+  intro n
+  induction n with
+  | zero => intro _; simp [mStack]
+  | succ n ih =>
+    intro hn
+    have ihn := ih (by omega)
+    obtain ⟨c, hc⟩ : ∃ c, mid.children[n]? = some c := by
+      cases hx : mid.children[n]? with
+      | none => rw [List.getElem?_eq_none_iff] at hx; omega
+      | some c => exact ⟨c, rfl⟩
+    have htake : mid.children.take (n + 1) = mid.children.take n ++ [c] := by
+      rw [List.take_succ, hc]; rfl
+    have hw : wPath mid [n] = 1 + below c := by simp [wPath, getAt, hc]
+    simp only [List.range_succ, List.map_append, List.map_cons, List.map_nil, List.reverse_append,
+      List.reverse_cons, List.reverse_nil, List.nil_append, List.drop_succ_cons, List.drop_zero,
+      List.singleton_append] at ihn ⊢
+    rw [mStack_cons, ihn, htake, hw]
+    simp only [List.map_append, List.map_cons, List.map_nil, List.sum_append, List.sum_cons, List.sum_nil]
+    omega
+
+theorem mStack_range_all (mid : Node) (i : Nat) :
+    mStack mid ((((List.range mid.children.length).map (fun k => [i, k])).reverse).map (fun q => q.drop 1)) =
+      (mid.children.map (fun c => 1 + below c)).sum := by
+  rw [mStack_range mid i _ (Nat.le_refl _), List.take_length]
+
+theorem sum_childless (kids : List Node) (h : ∀ c ∈ kids, c.children = []) :
+    (kids.map (fun c => 1 + below c)).sum = kids.length := by
+  induction kids with
+  | nil => rfl
+  | cons c r ih =>
+    have hc : below c = 0 := by rw [below_eq, h c List.mem_cons_self]; rfl
+    simp only [List.map_cons, List.sum_cons, hc, List.length_cons,
+      ih (fun x hx => h x (List.mem_cons_of_mem _ hx))]
+    omega
+
+theorem weight_childless (mid : Node) (n i : Nat) (hn : mid.children.length = n)
+    (hc : ∀ c ∈ mid.children, c.children = []) :
+    mStack mid ((((List.range n).map (fun k => [i, k])).reverse).map (fun q => q.drop 1)) = n := by
+  subst hn
+  rw [mStack_range_all, sum_childless _ hc]
+
 /-! #### the elements of flat documents, and code blocks, as `Elem`s -/
 
 /-- a leaf of `Lemmas/DocParse.lean` (`hr`, or `p`/`h1`–`h6` with escaped text) -/
 def leafElem (esc : List Char) (l : Leaf) : Elem :=
-  ⟨l.src esc, l.mid esc, l.stash esc, fun _ => [], l.pretty esc, l.fin, l.out⟩
+  ⟨l.src esc, l.mid esc, fun _ => l.stash esc, fun _ => [], l.pretty esc, l.fin, l.out⟩
 
 theorem leafElem_ok (cfg : Inline.Cfg) (hE : EscOK cfg.esc) (l : Leaf) (hl : l.ok = true) :
     ElemOK cfg (leafElem cfg.esc l) where
   visit := fun v => by simpa [leafElem] using visitChild_leaf cfg hE l hl v
   pushBound := fun _ => by simp [leafElem]
+  weight := fun _ => by simp [leafElem, mStack]
   pushOk := fun _ q hq => by simp [leafElem] at hq
   block := by
     have hf := tagFacts _ (leaf_tag_mem hl)
@@ -655,7 +838,7 @@ theorem leafElem_ok (cfg : Inline.Cfg) (hE : EscOK cfg.esc) (l : Leaf) (hl : l.o
 
 /-- a code block whose accumulated text is `t` -/
 def codeElem (t : Str) : Elem :=
-  ⟨codePre t, codePre t, [], fun i => [[i]], { codePre (rstrip t ++ ['\n']) with tail := some ['\n'] },
+  ⟨codePre t, codePre t, fun _ => [], fun i => [[i]], { codePre (rstrip t ++ ['\n']) with tail := some ['\n'] },
    { codePre (rstrip t ++ ['\n']) with tail := some ['\n'] },
    "<pre><code>".toList ++ Ser.escCdata (rstrip t ++ ['\n']) ++ "</code></pre>".toList⟩
 
@@ -666,15 +849,18 @@ theorem codeElem_ok (cfg : Inline.Cfg) (t : Str) (hstx : Post.STX ∉ t) : ElemO
     have := visitChild_inert cfg (codePre t) v rfl
     simpa [codeElem, codePre] using this
   pushBound := fun _ => by simp [codeElem, codePre, Inline.size, Inline.sizeList, Node.el]
+  weight := fun _ => by
+    simp [codeElem, codePre, mStack, wPath, getAt, below, belowKids, codeSpan, Inline.size, Inline.sizeList, Node.el]
+    omega
   pushOk := fun i q hq => by
     have : q = [i] := by simpa [codeElem] using hq
     subst this
-    refine ⟨[], codePre t, rfl, rfl, ?_, ?_⟩
+    refine ⟨[], codePre t, rfl, rfl, stillBelow_of_childless cfg _ _ ?_ ?_⟩
     · simp [codeElem, codePre, Inline.size, Inline.sizeList, Node.el]
     · intro c hc
       have : c = codeSpan t := by simpa [codePre, codeSpan] using hc
       subst this
-      exact ⟨by simp [calmNode, codeSpan, Node.el], rfl⟩
+      exact ⟨still_of_calm cfg _ (by simp [calmNode, codeSpan, Node.el]), rfl⟩
   block := bl_pre'
   pretty := rfl
   unesc := by
@@ -2281,7 +2467,7 @@ theorem stx_not_mem_outSegs (segs : List SpanSeg)
 /-- a `p`/`h1`–`h6` element of escaped text and code spans, through the stages -/
 def spanTxtElem (esc : List Char) (tag t0 : Str) (segs : List SpanSeg) : Elem :=
   ⟨spanTxtSrc esc tag t0 segs, spanTxtMid esc tag t0 segs,
-   spanNodes segs ++ (stashOf esc t0 ++ stashOfSegs esc segs),
+   fun _ => spanNodes segs ++ (stashOf esc t0 ++ stashOfSegs esc segs),
    fun i => ((List.range segs.length).map (fun k => [i, k])).reverse,
    spanTxtPretty esc tag t0 segs, spanTxtFin tag t0 segs, spanTxtOut tag t0 segs⟩
 
@@ -2308,6 +2494,17 @@ theorem spanTxtElem_ok (cfg : Inline.Cfg) (hE : EscOK cfg.esc) (hph : ∀ c ∈ 
     simp only [spanTxtElem, List.length_reverse, List.length_map, List.length_range, spanTxtSrc, Inline.size,
       Option.getD_some, List.length_append, Inline.sizeList]
     omega
+  weight := fun i => by
+    have h1 := escCountSegs_le cfg.esc segs h.hsegs
+    have hw := weight_childless (spanTxtMid cfg.esc tag t0 segs) segs.length i (by simp [spanTxtMid])
+      (fun c hc => by
+        simp only [spanTxtMid, List.mem_map] at hc
+        obtain ⟨s, _, rfl⟩ := hc; rfl)
+    show mStack (spanTxtMid cfg.esc tag t0 segs) _ ≤ _
+    simp only [spanTxtElem]
+    rw [hw]
+    simp only [spanTxtSrc, Inline.size, Option.getD_some, List.length_append, Inline.sizeList]
+    omega
   pushOk := fun i q hq => by
     simp only [spanTxtElem, List.mem_reverse, List.mem_map, List.mem_range] at hq
     obtain ⟨k, hk, rfl⟩ := hq
@@ -2315,7 +2512,8 @@ theorem spanTxtElem_ok (cfg : Inline.Cfg) (hE : EscOK cfg.esc) (hph : ∀ c ∈ 
       cases hx : segs[k]? with
       | none => rw [List.getElem?_eq_none_iff] at hx; omega
       | some s => exact ⟨s, rfl⟩
-    refine ⟨[k], tailed cfg.esc s, rfl, ?_, by simp [tailed, codeSpan, Node.el], ?_⟩
+    refine ⟨[k], tailed cfg.esc s, rfl, ?_,
+      stillBelow_of_childless cfg _ _ (by simp [tailed, codeSpan, Node.el]) ?_⟩
     · simp [spanTxtElem, spanTxtMid, getAt, hs]
     · intro c hc; simp [tailed, codeSpan, Node.el] at hc
   block := (tagFacts tag (List.mem_cons_of_mem _ (List.contains_iff_mem.1 h.htag))).1
@@ -2344,9 +2542,9 @@ theorem spanTxtElem_ok (cfg : Inline.Cfg) (hE : EscOK cfg.esc) (hph : ∀ c ∈ 
 
 /-! ### 11. the block parser on a line of escaped text and code spans -/
 
-/-- a line may start with the delimiters of an emphasis when a letter or a digit follows them -/
+/-- a line may start with the delimiters of an emphasis when something else that is not a space follows them -/
 def EmStart (X : Str) : Prop :=
-  ∃ d m x tail, X = List.replicate m d ++ x :: tail ∧ (d = '*' ∨ d = '_') ∧ 1 ≤ m ∧ m ≤ 2 ∧ isAsciiAlnum x = true
+  ∃ d m x tail, X = List.replicate m d ++ x :: tail ∧ (d = '*' ∨ d = '_') ∧ 1 ≤ m ∧ m ≤ 2 ∧ x ≠ d ∧ x ≠ ' '
 
 /-- what the block processors need of the content `X` of a one-line paragraph or heading -/
 structure RawOK (X : Str) : Prop where
@@ -2392,10 +2590,8 @@ theorem emStart_searches (tab i : Nat) (hi : i < tab) (hi3 : i ≤ 3) (X : Str) 
     (hem : EmStart X) :
     hashSearch (spaces i ++ X) = none ∧ hrSearch (spaces i ++ X) = none ∧ quoteSearch (spaces i ++ X) = none ∧
       refSearch (spaces i ++ X) = none ∧ ∀ ol ul, listItemMatch tab ol ul (spaces i ++ X) = none := by
-  obtain ⟨d, m, x, tail, rfl, hd, hm1, hm2, hx⟩ := hem
-  obtain ⟨hxsp, hxs, hxu, _, _, _⟩ := alnum_facts hx
+  obtain ⟨d, m, x, tail, rfl, hd, hm1, hm2, hxd, hxsp⟩ := hem
   obtain ⟨m', rfl⟩ : ∃ m', m = m' + 1 := ⟨m - 1, by omega⟩
-  have hxd : x ≠ d := by rcases hd with e | e <;> rw [e] <;> assumption
   have hdsp : d ≠ ' ' := by rcases hd with e | e <;> rw [e] <;> decide
   have hX : List.replicate (m' + 1) d ++ x :: tail = d :: (List.replicate m' d ++ x :: tail) := by
     simp [List.replicate_succ]
@@ -6185,7 +6381,7 @@ theorem stx_not_mem_outEm (segs : List EmSeg)
 /-- a `p`/`h1`–`h6` element of escaped text and emphasised words, through the stages -/
 def emTxtElem (esc : List Char) (tag t0 : Str) (segs : List EmSeg) : Elem :=
   ⟨emTxtSrc esc tag t0 segs, emTxtMid esc tag t0 segs,
-   stashOf esc t0 ++ stashOfEm esc segs ++ starNodes segs ++ underNodes segs,
+   fun _ => stashOf esc t0 ++ stashOfEm esc segs ++ starNodes segs ++ underNodes segs,
    fun i => ((List.range segs.length).map (fun k => [i, k])).reverse,
    emTxtPretty esc tag t0 segs, emTxtFin tag t0 segs, emTxtOut tag t0 segs⟩
 
@@ -6210,6 +6406,17 @@ theorem emTxtElem_ok (cfg : Inline.Cfg) (hE : EscOK cfg.esc) (tag t0 : Str) (seg
     simp only [emTxtElem, List.length_reverse, List.length_map, List.length_range, emTxtSrc, Inline.size,
       Option.getD_some, List.length_append, Inline.sizeList]
     omega
+  weight := fun i => by
+    have h1 := rawEm_length cfg.esc segs
+    have hw := weight_childless (emTxtMid cfg.esc tag t0 segs) segs.length i (by simp [emTxtMid])
+      (fun c hc => by
+        simp only [emTxtMid, List.mem_map] at hc
+        obtain ⟨s, _, rfl⟩ := hc; rfl)
+    show mStack (emTxtMid cfg.esc tag t0 segs) _ ≤ _
+    simp only [emTxtElem]
+    rw [hw]
+    simp only [emTxtSrc, Inline.size, Option.getD_some, List.length_append, Inline.sizeList]
+    omega
   pushOk := fun i q hq => by
     simp only [emTxtElem, List.mem_reverse, List.mem_map, List.mem_range] at hq
     obtain ⟨k, hk, rfl⟩ := hq
@@ -6217,7 +6424,8 @@ theorem emTxtElem_ok (cfg : Inline.Cfg) (hE : EscOK cfg.esc) (tag t0 : Str) (seg
       cases hx : segs[k]? with
       | none => rw [List.getElem?_eq_none_iff] at hx; omega
       | some s => exact ⟨s, rfl⟩
-    refine ⟨[k], tailedEm cfg.esc s, rfl, ?_, by simp [tailedEm, emEl, mkEl], ?_⟩
+    refine ⟨[k], tailedEm cfg.esc s, rfl, ?_,
+      stillBelow_of_childless cfg _ _ (by simp [tailedEm, emEl, mkEl]) ?_⟩
     · simp [emTxtElem, emTxtMid, getAt, hs]
     · intro c hc; simp [tailedEm, emEl, mkEl] at hc
   block := (tagFacts tag (List.mem_cons_of_mem _ (List.contains_iff_mem.1 h.htag))).1
@@ -6674,7 +6882,11 @@ theorem emStart_raw (esc : List Char) (s : EmSeg) (r : List EmSeg) (hd : s.d = '
     have hxa : isAsciiAlnum x = true := by
       have hne : x ≠ ' ' := fun e => hh.1 (by rw [hwc, e]; rfl)
       simpa [isAlnumSp, hne] using hx
-    refine ⟨s.d, if s.strong then 2 else 1, x, w' ++ (s.delim ++ (escAll esc s.t ++ rawEm esc r)), ?_, hd, ?_, ?_, hxa⟩
+    have hxf := alnum_facts hxa
+    refine ⟨s.d, if s.strong then 2 else 1, x, w' ++ (s.delim ++ (escAll esc s.t ++ rawEm esc r)), ?_, hd, ?_, ?_,
+      by rcases hd with e | e
+         · rw [e]; exact hxf.2.1
+         · rw [e]; exact hxf.2.2.1, hxf.1⟩
     · simp [rawEm, emSrc, EmSeg.delim, hwc, List.append_assoc]
     · cases s.strong <;> simp
     · cases s.strong <;> simp
@@ -8765,7 +8977,7 @@ theorem stx_not_mem_outM (segs : List MSeg) (h : ∀ s ∈ segs, Post.STX ∉ s.
 /-- a `p`/`h1`–`h6` element of escaped text, code spans and emphasised words, through the stages -/
 def mixTxtElem (esc : List Char) (tag t0 : Str) (segs : List MSeg) : Elem :=
   ⟨mixTxtSrc esc tag t0 segs, mixTxtMid esc tag t0 segs,
-   nodesOf 0 segs ++ (stashOf esc t0 ++ stashOfM esc segs) ++ nodesOf 1 segs ++ nodesOf 2 segs,
+   fun _ => nodesOf 0 segs ++ (stashOf esc t0 ++ stashOfM esc segs) ++ nodesOf 1 segs ++ nodesOf 2 segs,
    fun i => ((List.range segs.length).map (fun k => [i, k])).reverse,
    mixTxtPretty esc tag t0 segs, mixTxtFin tag t0 segs, mixTxtOut tag t0 segs⟩
 
@@ -8796,6 +9008,17 @@ theorem mixTxtElem_ok (cfg : Inline.Cfg) (hE : EscOK cfg.esc) (tag t0 : Str) (se
     simp only [mixTxtElem, List.length_reverse, List.length_map, List.length_range, mixTxtSrc, Inline.size,
       Option.getD_some, List.length_append, Inline.sizeList]
     omega
+  weight := fun i => by
+    have h1 := rawM_length cfg.esc segs h.hsegs
+    have hw := weight_childless (mixTxtMid cfg.esc tag t0 segs) segs.length i (by simp [mixTxtMid])
+      (fun c hc => by
+        simp only [mixTxtMid, List.mem_map] at hc
+        obtain ⟨s, _, rfl⟩ := hc; exact tailedM_childless cfg.esc s)
+    show mStack (mixTxtMid cfg.esc tag t0 segs) _ ≤ _
+    simp only [mixTxtElem]
+    rw [hw]
+    simp only [mixTxtSrc, Inline.size, Option.getD_some, List.length_append, Inline.sizeList]
+    omega
   pushOk := fun i q hq => by
     simp only [mixTxtElem, List.mem_reverse, List.mem_map, List.mem_range] at hq
     obtain ⟨k, hk, rfl⟩ := hq
@@ -8803,7 +9026,8 @@ theorem mixTxtElem_ok (cfg : Inline.Cfg) (hE : EscOK cfg.esc) (tag t0 : Str) (se
       cases hx : segs[k]? with
       | none => rw [List.getElem?_eq_none_iff] at hx; omega
       | some s => exact ⟨s, rfl⟩
-    refine ⟨[k], tailedM cfg.esc s, rfl, ?_, by simp [tailedM_childless], ?_⟩
+    refine ⟨[k], tailedM cfg.esc s, rfl, ?_,
+      stillBelow_of_childless cfg _ _ (by simp [tailedM_childless]) ?_⟩
     · simp [mixTxtElem, mixTxtMid, getAt, hs]
     · intro c hc; rw [tailedM_childless] at hc; cases hc
   block := (tagFacts tag (List.mem_cons_of_mem _ (List.contains_iff_mem.1 h.htag))).1
@@ -8966,8 +9190,8 @@ theorem rawOK_mixLine {esc : List Char} (hE : EscOK esc) (t0 : Str) (segs : List
           · right
             rw [hk] at hs
             have := emStart_raw esc ⟨st, d, w, s.t⟩ [] hs.1 hs.2.1 hs.2.2
-            obtain ⟨d', m, x, tl, he, hd, h1, h2, hx⟩ := this
-            refine ⟨d', m, x, tl ++ rawM esc r, ?_, hd, h1, h2, hx⟩
+            obtain ⟨d', m, x, tl, he, hd, h1, h2, hx, hx2⟩ := this
+            refine ⟨d', m, x, tl ++ rawM esc r, ?_, hd, h1, h2, hx, hx2⟩
             simp only [rawEm, List.append_nil] at he
             simp only [escAll, List.nil_append, rawM, hk, MKind.src]
             have e2 : emSrc ⟨st, d, w, []⟩ = emSrc ⟨st, d, w, s.t⟩ := rfl
@@ -10211,6 +10435,4002 @@ theorem convert_mixDoc (d : Doc) (sp : Spelling) (hwf : WF d = true) (hs : DocSp
     simp [this, joinLines]
   rw [hprint, spec, ← houts]
   exact convert_pieces2 {} rfl rfl ps hpsne hoks hadj
+
+
+
+/-! ## emphasis around words, escapes and code spans; emphasis inside emphasis
+
+For the first two patterns (code spans, escapes) the nesting of a line does not matter: every emphasis delimiter is
+just a run of characters that are neither backticks nor backslashes.  Section 33 proves those two passes for a flat
+list of tokens; the structured lines of the later sections are flattened into it. -/
+
+/-! ### 33. patterns 0 and 1 on a flat line -/
+
+/-- a code span, or a run of other characters (emphasis delimiters) -/
+inductive FKind
+  | code (n : Nat) (b : Str)
+  | junk (x : Str)
+
+/-- a token and the plain text after it -/
+structure FSeg where
+  k : FKind
+  t : Str
+
+def FKind.isCode : FKind → Bool
+  | .code _ _ => true
+  | _ => false
+
+def FKindOK : FKind → Prop
+  | .code n b => (∃ k, n = k + 1) ∧ spanBodyOk n (padded b) = true ∧ strip (padded b) = b
+  | .junk x => noTickBs x ∧ x ≠ []
+
+def FSegsOK (segs : List FSeg) : Prop := ∀ s ∈ segs, FKindOK s.k
+
+/-- a token once the code spans are out (`pc`): a placeholder for a code span, the characters of a run -/
+def itemF (pc : Bool) (n0 : Nat) : FKind → Str
+  | .code n b => if pc then placeholder n0 else spanSrc n b
+  | .junk x => x
+
+def FKind.bump (k : FKind) (n0 : Nat) : Nat := if k.isCode then n0 + 1 else n0
+
+def stageF (esc : List Char) (pc pe : Bool) : Nat → Nat → List FSeg → Str
+  | _, _, [] => []
+  | m, n0, s :: r =>
+    itemF pc n0 s.k ++ ((if pe then resid esc m s.t else escAll esc s.t) ++
+      stageF esc pc pe (m + escCount esc s.t) (s.k.bump n0) r)
+
+def codesF : List FSeg → List StashItem
+  | [] => []
+  | s :: r => match s.k with
+    | .code _ b => .node (codeSpan (Code.codeEscape b)) :: codesF r
+    | .junk _ => codesF r
+
+def junctionsF : Str → Bool → List FSeg → Prop
+  | _, _, [] => True
+  | t, prevCode, s :: r =>
+    (s.k.isCode = true → t.getLast? ≠ some '\\' ∧ (prevCode = true → t ≠ [])) ∧ junctionsF s.t s.k.isCode r
+
+theorem head_stageF_raw (esc : List Char) (ht : '`' ∈ esc) (t : Str) (pc : Bool) (r : List FSeg) (hok : FSegsOK r)
+    (hj : junctionsF t pc r) (hpc : pc = true) (m n0 : Nat) :
+    (escAll esc t ++ stageF esc false false m n0 r).head? ≠ some '`' := by
+  by_cases htn : t = []
+  · subst htn
+    simp only [escAll, List.nil_append]
+    cases r with
+    | nil => simp [stageF]
+    | cons s r' =>
+      cases hk : s.k with
+      | code n b =>
+        have := (hj.1 (by rw [hk]; rfl)).2 hpc
+        exact absurd rfl this
+      | junk x =>
+        have hs := hok s List.mem_cons_self
+        rw [hk] at hs
+        obtain ⟨hx, hne⟩ := hs
+        cases x with
+        | nil => exact absurd rfl hne
+        | cons a x' =>
+          have := (hx a List.mem_cons_self).1
+          simp [stageF, itemF, hk, this]
+  · have := head_escAll_ne_tick (esc := esc) ht t
+    have hne := escAll_ne_nil (esc := esc) htn
+    cases hx : escAll esc t with
+    | nil => exact absurd hx hne
+    | cons a b => rw [hx] at this; simpa using this
+
+/-- **the backtick pass** on a flat line -/
+theorem code_passF (cfg : Inline.Cfg) (hi : HI) (hb : '\\' ∈ cfg.esc) (ht : '`' ∈ cfg.esc) (segs : List FSeg) :
+    ∀ (A t : Str) (pc : Bool) (m n0 : Nat) (st : St) (g : Nat), BtOK A → A.getLast? ≠ some '\\' →
+      FSegsOK segs → junctionsF t pc segs →
+      hiLoop (applyPattern cfg hi) (g + (codesF segs).length)
+        (A ++ (escAll cfg.esc t ++ stageF cfg.esc false false m n0 segs)) 0 0 st =
+      hiLoop (applyPattern cfg hi) g
+        (A ++ (escAll cfg.esc t ++ stageF cfg.esc true false m st.stash.length segs)) 0 0
+        { st with stash := st.stash ++ codesF segs } := by
+  induction segs with
+  | nil => intro A t pc m n0 st g _ _ _ _; simp [stageF, codesF]
+  | cons s r ih =>
+    intro A t pc m n0 st g hA hAl hok hj
+    have hokr : FSegsOK r := fun x hx => hok x (List.mem_cons_of_mem _ hx)
+    have hs := hok s List.mem_cons_self
+    have hP := btOK_text hb ht hA hAl t
+    cases hk : s.k with
+    | code n b =>
+      rw [hk] at hs
+      obtain ⟨⟨k, hkn⟩, hbody, hstrip⟩ := hs
+      have hjs := hj.1 (by rw [hk]; rfl)
+      have hPl : (A ++ escAll cfg.esc t).getLast? ≠ some '\\' := by
+        by_cases htn : t = []
+        · subst htn; simpa [escAll] using hAl
+        · rw [getLast_append_ne (escAll_ne_nil htn), getLast_escAll _ _ htn]; exact hjs.1
+      have hX := head_stageF_raw cfg.esc ht s.t true r hokr (by have := hj.2; rw [hk] at this; exact this) rfl
+        (m + escCount cfg.esc s.t) (n0 + 1)
+      have hstep := applyPattern_codeAt cfg hi _ hP hPl k (padded b) _ (hkn ▸ hbody) hX st
+      have hA' := btOK_item hP (noTickBs_placeholder st.stash.length)
+      have := ih ((A ++ escAll cfg.esc t) ++ placeholder st.stash.length) s.t true (m + escCount cfg.esc s.t)
+        (n0 + 1) { st with stash := st.stash ++ [.node (codeSpan (Code.codeEscape (strip (padded b))))] } g
+        hA'.1 (hA'.2 (placeholder_ne_nil _)) hokr (by have := hj.2; rw [hk] at this; exact this)
+      simp only [stageF, itemF, FKind.bump, FKind.isCode, codesF, hk, if_true, List.length_cons, spanSrc, hkn,
+        List.append_assoc, Bool.false_eq_true, if_false] at this ⊢
+      rw [show g + ((codesF r).length + 1) = (g + (codesF r).length) + 1 by omega]
+      have hstep' := hstep
+      simp only [List.append_assoc] at hstep'
+      rw [hiLoop_step _ _ _ 0 0 st (by omega) _ _ _ _ hstep']
+      simp only [if_true]
+      rw [this, hstrip]
+      simp only [List.length_append, List.length_cons, List.length_nil, List.append_assoc,
+        List.cons_append, List.nil_append, Nat.zero_add]
+    | junk x =>
+      rw [hk] at hs
+      have hA' := btOK_item hP hs.1
+      have := ih ((A ++ escAll cfg.esc t) ++ x) s.t false (m + escCount cfg.esc s.t) n0 st g hA'.1 (hA'.2 hs.2) hokr
+        (by have := hj.2; rw [hk] at this; exact this)
+      simp only [stageF, itemF, FKind.bump, FKind.isCode, codesF, hk, List.append_assoc, Bool.false_eq_true,
+        if_false] at this ⊢
+      exact this
+
+theorem itemF_plain (n0 : Nat) (k : FKind) (hk : FKindOK k) : noTickBs (itemF true n0 k) ∧ itemF true n0 k ≠ [] := by
+  cases k with
+  | code n b => exact ⟨noTickBs_placeholder n0, placeholder_ne_nil n0⟩
+  | junk x => exact hk
+
+theorem btScan_stageF {esc : List Char} (hb : '\\' ∈ esc) (ht : '`' ∈ esc) (segs : List FSeg) :
+    ∀ (A t : Str) (m n0 : Nat) (prev : Option Char) (i : Nat), BtOK A → A.getLast? ≠ some '\\' →
+      FSegsOK segs → btScan prev (A ++ (escAll esc t ++ stageF esc true false m n0 segs)) i = none := by
+  induction segs with
+  | nil =>
+    intro A t m n0 prev i hA hAl _
+    have hP := btOK_text hb ht hA hAl t
+    have := hP prev [] i (Or.inr (by simp))
+    simp only [stageF, List.append_nil] at this ⊢
+    rw [this]; simp [btScan, btAt_nil]
+  | cons s r ih =>
+    intro A t m n0 prev i hA hAl hok
+    have hP := btOK_text hb ht hA hAl t
+    obtain ⟨hpl, hne⟩ := itemF_plain n0 s.k (hok s List.mem_cons_self)
+    have hA' := btOK_item hP hpl
+    have := ih ((A ++ escAll esc t) ++ itemF true n0 s.k) s.t (m + escCount esc s.t) (s.k.bump n0)
+      prev i hA'.1 (hA'.2 hne) (fun x hx => hok x (List.mem_cons_of_mem _ hx))
+    simp only [stageF, List.append_assoc, Bool.false_eq_true, if_false] at this ⊢
+    exact this
+
+def escCountF (esc : List Char) : List FSeg → Nat
+  | [] => 0
+  | s :: r => escCount esc s.t + escCountF esc r
+
+def stashOfF (esc : List Char) : List FSeg → List StashItem
+  | [] => []
+  | s :: r => stashOf esc s.t ++ stashOfF esc r
+
+/-- **the escape pass** on a flat line -/
+theorem esc_passF (cfg : Inline.Cfg) (hi : HI) (hb : '\\' ∈ cfg.esc) (segs : List FSeg) :
+    ∀ (A : Str) (m n0 : Nat) (st : St) (g : Nat), '\\' ∉ A → FSegsOK segs →
+      hiLoop (applyPattern cfg hi) (g + escCountF cfg.esc segs) (A ++ stageF cfg.esc true false m n0 segs) 1 0 st =
+      hiLoop (applyPattern cfg hi) g (A ++ stageF cfg.esc true true st.stash.length n0 segs) 1 0
+        { st with stash := st.stash ++ stashOfF cfg.esc segs } := by
+  induction segs with
+  | nil => intro A m n0 st g _ _; simp [stageF, escCountF, stashOfF]
+  | cons s r ih =>
+    intro A m n0 st g hA hok
+    have hokr : FSegsOK r := fun x hx => hok x (List.mem_cons_of_mem _ hx)
+    have hA1 : '\\' ∉ A ++ itemF true n0 s.k := by
+      intro hh; rcases List.mem_append.1 hh with hh | hh
+      · exact hA hh
+      · exact ((itemF_plain n0 s.k (hok s List.mem_cons_self)).1 _ hh).2 rfl
+    have h1 := escape_chunk cfg hi hb
+      (stageF cfg.esc true false (m + escCount cfg.esc s.t) (s.k.bump n0) r) s.t
+      (A ++ itemF true n0 s.k) st (g + escCountF cfg.esc r) hA1
+    have hA2 : '\\' ∉ A ++ itemF true n0 s.k ++ resid cfg.esc st.stash.length s.t := by
+      intro hh; rcases List.mem_append.1 hh with hh | hh
+      · exact hA1 hh
+      · exact bs_not_mem_resid hb _ _ hh
+    have h2 := ih (A ++ itemF true n0 s.k ++ resid cfg.esc st.stash.length s.t) (m + escCount cfg.esc s.t)
+      (s.k.bump n0) { st with stash := st.stash ++ stashOf cfg.esc s.t } g hA2 hokr
+    simp only [stageF, escCountF, stashOfF, List.append_assoc, Bool.false_eq_true, if_false, if_true] at h1 h2 ⊢
+    rw [show g + (escCount cfg.esc s.t + escCountF cfg.esc r) = g + escCountF cfg.esc r + escCount cfg.esc s.t by omega,
+      h1, h2]
+    simp [escCount]
+
+theorem stashOfF_length (esc : List Char) (segs : List FSeg) : (stashOfF esc segs).length = escCountF esc segs := by
+  induction segs with
+  | nil => rfl
+  | cons s r ih => simp [stashOfF, escCountF, escCount, ih]
+
+
+/-! ### 34. lines whose emphases contain words, escapes and code spans -/
+
+/-- the content of an innermost emphasis: escaped text and code spans -/
+structure Body0 where
+  u0 : Str
+  spans : List SpanSeg
+
+inductive K1
+  | code (n : Nat) (b : Str)
+  | em (strong : Bool) (d : Char) (β : Body0)
+
+structure Seg1 where
+  k : K1
+  t : Str
+
+def dl (strong : Bool) (d : Char) : Str := List.replicate (if strong then 2 else 1) d
+
+/-- the content once code spans and escapes are placeholders (escapes from `m`, code spans from `n0`) -/
+def body0R (esc : List Char) (m n0 : Nat) (β : Body0) : Str :=
+  resid esc m β.u0 ++ residSegs esc (m + escCount esc β.u0) n0 β.spans
+
+def body0Esc (esc : List Char) (β : Body0) : Nat := escCount esc β.u0 + escCountSegs esc β.spans
+
+def K1.cls : K1 → Nat
+  | .code _ _ => 0
+  | .em _ d _ => if d = '*' then 1 else 2
+
+def K1.esc (esc : List Char) : K1 → Nat
+  | .code _ _ => 0
+  | .em _ _ β => body0Esc esc β
+
+def K1.codes : K1 → Nat
+  | .code _ _ => 1
+  | .em _ _ β => β.spans.length
+
+/-- an item once code spans and escapes are out and the emphasis classes below `lv` are collapsed -/
+def itemL1 (esc : List Char) (lv m n0 n1 n2 : Nat) : K1 → Str
+  | .code _ _ => placeholder n0
+  | .em st d β =>
+    if (K1.em st d β).cls < lv then placeholder (if d = '*' then n1 else n2)
+    else dl st d ++ (body0R esc m n0 β ++ dl st d)
+
+def K1.bump (c : Nat) (k : K1) (n : Nat) : Nat := if k.cls = c then n + 1 else n
+
+def stageL1 (esc : List Char) (lv : Nat) : Nat → Nat → Nat → Nat → List Seg1 → Str
+  | _, _, _, _, [] => []
+  | m, n0, n1, n2, s :: r =>
+    itemL1 esc lv m n0 n1 n2 s.k ++ (resid esc (m + s.k.esc esc) s.t ++
+      stageL1 esc lv (m + s.k.esc esc + escCount esc s.t) (n0 + s.k.codes) (s.k.bump 1 n1) (s.k.bump 2 n2) r)
+
+/-- the flat view: delimiters are runs of ordinary characters -/
+def spansF (x : Str) (t : Str) : List SpanSeg → List FSeg
+  | [] => [⟨.junk x, t⟩]
+  | s :: r => ⟨.code s.n s.b, s.t⟩ :: spansF x t r
+
+def flatten1 : List Seg1 → List FSeg
+  | [] => []
+  | ⟨.code n b, t⟩ :: r => ⟨.code n b, t⟩ :: flatten1 r
+  | ⟨.em st d β, t⟩ :: r => ⟨.junk (dl st d), β.u0⟩ :: (spansF (dl st d) t β.spans ++ flatten1 r)
+
+theorem stageF_append (esc : List Char) (pc pe : Bool) (L1 L2 : List FSeg) :
+    ∀ m n0, stageF esc pc pe m n0 (L1 ++ L2) =
+      stageF esc pc pe m n0 L1 ++ stageF esc pc pe (m + escCountF esc L1)
+        (n0 + (codesF L1).length) L2 := by
+  induction L1 with
+  | nil => intro m n0; simp [stageF, escCountF, codesF]
+  | cons s r ih =>
+    intro m n0
+    simp only [List.cons_append, stageF, ih, List.append_assoc, escCountF]
+    cases hk : s.k with
+    | code n b =>
+      simp only [codesF, hk, FKind.bump, FKind.isCode, if_true, List.length_cons]
+      congr 3
+      rw [show m + escCount esc s.t + escCountF esc r = m + (escCount esc s.t + escCountF esc r) by omega,
+        show n0 + 1 + (codesF r).length = n0 + ((codesF r).length + 1) by omega]
+    | junk x =>
+      simp only [codesF, hk, FKind.bump, FKind.isCode, Bool.false_eq_true, if_false]
+      congr 3
+      rw [show m + escCount esc s.t + escCountF esc r = m + (escCount esc s.t + escCountF esc r) by omega]
+
+theorem stageF_spansF (esc : List Char) (x t : Str) (spans : List SpanSeg) :
+    ∀ m n0, stageF esc true true m n0 (spansF x t spans) =
+      residSegs esc m n0 spans ++ (x ++ resid esc (m + escCountSegs esc spans) t) := by
+  induction spans with
+  | nil => intro m n0; simp [spansF, stageF, itemF, residSegs, escCountSegs]
+  | cons s r ih =>
+    intro m n0
+    simp only [spansF, stageF, itemF, if_true, FKind.bump, FKind.isCode, ih, residSegs, escCountSegs,
+      List.append_assoc]
+    rw [show m + escCount esc s.t + escCountSegs esc r = m + (escCount esc s.t + escCountSegs esc r) by omega]
+
+theorem counts_spansF (esc : List Char) (x t : Str) (spans : List SpanSeg) :
+    escCountF esc (spansF x t spans) = escCountSegs esc spans + escCount esc t ∧
+    (codesF (spansF x t spans)).length = spans.length := by
+  induction spans with
+  | nil => simp [spansF, escCountF, codesF, escCountSegs]
+  | cons s r ih =>
+    obtain ⟨i1, i2⟩ := ih
+    constructor
+    · simp only [spansF, escCountF, escCountSegs, i1]; omega
+    · simp only [spansF, codesF, List.length_cons, i2]
+
+/-- the flat line after patterns 0 and 1 is the structured line at level 1 -/
+theorem stageF_flatten1 (esc : List Char) (segs : List Seg1) :
+    ∀ m n0 n1 n2, stageF esc true true m n0 (flatten1 segs) = stageL1 esc 1 m n0 n1 n2 segs := by
+  induction segs with
+  | nil => intro _ _ _ _; rfl
+  | cons s r ih =>
+    intro m n0 n1 n2
+    obtain ⟨k, t⟩ := s
+    cases k with
+    | code n b =>
+      simp only [flatten1, stageF, stageL1, itemF, itemL1, if_true, FKind.bump, FKind.isCode, K1.esc, K1.codes,
+        Nat.add_zero, ih _ _ (K1.bump 1 (.code n b) n1) (K1.bump 2 (.code n b) n2)]
+    | em st d β =>
+      have hcl : ¬ ((K1.em st d β).cls < 1) := by simp only [K1.cls]; split <;> omega
+      obtain ⟨hc1, hc2⟩ := counts_spansF esc (dl st d) t β.spans
+      simp only [flatten1, stageF, stageF_append, stageF_spansF, itemF, stageL1, itemL1, hcl, if_false, if_true,
+        FKind.bump, FKind.isCode, Bool.false_eq_true, K1.esc, K1.codes, body0R, body0Esc, hc1, hc2,
+        ih _ _ (K1.bump 1 (.em st d β) n1) (K1.bump 2 (.em st d β) n2), List.append_assoc]
+      rw [show m + escCount esc β.u0 + escCountSegs esc β.spans = m + (escCount esc β.u0 + escCountSegs esc β.spans)
+          by omega,
+        show m + escCount esc β.u0 + (escCountSegs esc β.spans + escCount esc t) =
+          m + (escCount esc β.u0 + escCountSegs esc β.spans) + escCount esc t by omega]
+
+
+/-! ### 35. the emphasis engine on bodies that are not plain words -/
+
+/-- `handleMatch` at the first delimiter of an emphasis whose body `W` contains no delimiter character -/
+theorem emHandle_body (st : Bool) (d : Char) (W : Str) (hd : d = '*' ∨ d = '_') (hne : W ≠ [])
+    (hW : ∀ x ∈ W, x ≠ '*' ∧ x ≠ '_') (A Z : Str)
+    (hb : d = '_' → isW (lastOr none A) = false ∧ isW Z.head? = false ∧ NoTriple '_' Z) :
+    emHandle (A ++ (emSrc ⟨st, d, W, []⟩ ++ Z)) A.length d (emPatterns d) 0 =
+      some (some (emEl st W, A.length + (emSrc ⟨st, d, W, []⟩).length)) := by
+  have hws : ∀ x ∈ W, x ≠ '*' := fun x hx => (hW x hx).1
+  have hwu : ∀ x ∈ W, x ≠ '_' := fun x hx => (hW x hx).2
+  rcases hd with e | e
+  · subst e
+    cases st with
+    | false =>
+      have := emHandle_star_em A W Z hne hws
+      simp only [emSrc, EmSeg.delim, emPatterns, if_true, Bool.false_eq_true, if_false, List.replicate_one,
+        List.singleton_append, List.append_assoc, List.cons_append, List.nil_append, List.length_cons,
+        List.length_append, List.length_nil] at this ⊢
+      rw [this]; congr 3; omega
+    | true =>
+      have := emHandle_star_strong A W Z hne hws
+      simp only [emSrc, EmSeg.delim, emPatterns, if_true, List.replicate_succ, List.replicate_zero,
+        List.append_assoc, List.cons_append, List.nil_append, List.length_cons,
+        List.length_append, List.length_nil] at this ⊢
+      rw [this]; congr 3; omega
+  · subst e
+    obtain ⟨hb1, hb2, hb3⟩ := hb rfl
+    cases st with
+    | false =>
+      have := emHandle_under_em A W Z hne hwu hb1 hb2
+      simp only [emSrc, EmSeg.delim, emPatterns, show ¬ ('_' = '*') by decide, if_false, Bool.false_eq_true,
+        List.replicate_one,
+        List.singleton_append, List.append_assoc, List.cons_append, List.nil_append, List.length_cons,
+        List.length_append, List.length_nil] at this ⊢
+      rw [this]; congr 3; omega
+    | true =>
+      have h3 : NoTriple '_' (W ++ '_' :: '_' :: Z) :=
+        noTriple_of_no_c '_' W _ (fun h => hwu _ h rfl)
+          (noTriple_delim '_' Z (isW_under_head hb2) hb3 2 (by omega))
+      have := emHandle_under_strong A W Z hne hwu hb1 hb2 h3
+      simp only [emSrc, EmSeg.delim, emPatterns, show ¬ ('_' = '*') by decide, if_false, if_true,
+        List.replicate_succ, List.replicate_zero,
+        List.append_assoc, List.cons_append, List.nil_append, List.length_cons,
+        List.length_append, List.length_nil] at this ⊢
+      rw [this]; congr 3; omega
+
+/-- one turn of the pattern loop at an emphasis: the nested `__handleInline` turns the body `w` into `w'`; the element
+    with that text is stashed after whatever the nested call stashed -/
+theorem applyPattern_emG (cfg : Inline.Cfg) (f : Nat) (pi : Nat) (hpi : pi = 14 ∨ pi = 15) (c : Char)
+    (hc : c = if pi = 14 then '*' else '_') (A E Z : Str) (hA : c ∉ A) (E' : Str) (hE : E = c :: E')
+    (strong : Bool) (w : Str) (hne : w ≠ []) (w' : Str) (st st' : St)
+    (hin : handleInline cfg (f + 1) w (pi + 1) st = some (w', st'))
+    (hh : emHandle (A ++ (E ++ Z)) A.length c (emPatterns c) 0 = some (some (emEl strong w, A.length + E.length))) :
+    applyPattern cfg (fun d p s => handleInline cfg (f + 1) d p s) pi (A ++ (E ++ Z)) 0 st =
+      some (A ++ (placeholder st'.stash.length ++ Z), true, 0,
+        { st' with stash := st'.stash ++ [.node (emEl strong w')] }) := by
+  have hscan : emScan (A ++ (E ++ Z)) c (A ++ (E ++ Z)) 0 =
+      some (some (emEl strong w, A.length, A.length + E.length)) := by
+    rw [emScan_skip _ c A hA, hE]
+    simp only [List.cons_append, emScan, if_true, Nat.zero_add]
+    rw [hE] at hh
+    simp only [List.cons_append] at hh
+    rw [hh]
+  have hfm : findMatch cfg pi (A ++ (E ++ Z)) 0 st =
+      some (some ⟨.el (emEl strong w), A.length, ((A.length + E.length : Nat) : Int)⟩, st) := by
+    rcases hpi with e | e <;> subst e <;> simp only [findMatch, List.drop_zero] <;>
+      simp at hc <;> subst hc <;> simp [hscan]
+  have htr : Node.truthy (some w) = true := by
+    cases w with
+    | nil => exact absurd rfl hne
+    | cons a b => rfl
+  have hnode : hiNode (fun d p s => handleInline cfg (f + 1) d p s) pi { emEl strong w with children := [] } st =
+      some (emEl strong w', st') := by
+    simp only [hiNode, hiOpt, emEl, mkEl, htr, Bool.not_false, Bool.and_true, if_true, Option.getD_some, hin]
+    simp [Node.truthy]
+  have hd : pyDrop (A ++ (E ++ Z)) ((A.length + E.length : Nat) : Int) = Z := by
+    have := pyDrop_append (A ++ E) Z
+    simpa [List.append_assoc] using this
+  simp only [applyPattern, hfm]
+  have hta : ((emEl strong w).text.isSome && (emEl strong w).textAtomic) = false := by simp [emEl, mkEl]
+  simp only [hta, Bool.false_eq_true, if_false, hnode]
+  have hkids : (emEl strong w).children = [] := by simp [emEl, mkEl]
+  simp only [hkids, hiNodes, stashNode, Int.toNat_natCast, List.take_left', hd]
+  simp [emEl, mkEl]
+
+/-- pattern 13 walks over an emphasis whose body starts and ends with something visible -/
+theorem nsScan_emB (st : Bool) (d : Char) (W : Str) (hd : d = '*' ∨ d = '_') (hne : W ≠ [])
+    (hW : ∀ x ∈ W, x ≠ '*' ∧ x ≠ '_') (hhead : ∀ x, W.head? = some x → isSpace x = false)
+    (hlast : ∀ z, W.getLast? = some z → isSpace z = false) (X : Str) (prev : Option Char) (i : Nat) :
+    nsScan prev (emSrc ⟨st, d, W, []⟩ ++ X) i = nsScan (some d) X (i + (emSrc ⟨st, d, W, []⟩).length) := by
+  have hk : 0 < (if st then 2 else 1) ∧ (if st then 2 else 1) ≤ 3 := by cases st <;> simp
+  have hds : isSpace d = false := by rcases hd with e | e <;> rw [e] <;> decide
+  obtain ⟨x, w', hwc⟩ : ∃ x w', W = x :: w' := by
+    cases W with
+    | nil => exact absurd rfl hne
+    | cons x w' => exact ⟨x, w', rfl⟩
+  have hxf := hW x (by rw [hwc]; simp)
+  have hxs : isSpace x = false := hhead x (by rw [hwc]; rfl)
+  obtain ⟨z, hz⟩ : ∃ z, W.getLast? = some z := by
+    cases hg : W.getLast? with
+    | none => exact absurd (List.getLast?_eq_none_iff.1 hg) hne
+    | some z => exact ⟨z, rfl⟩
+  have hzs : isSpace z = false := hlast z hz
+  have hlast' : lastOr (some d) W = some z := by simp [lastOr, hz]
+  have e0 : emSrc ⟨st, d, W, []⟩ ++ X = List.replicate (if st then 2 else 1) d ++
+      (x :: (w' ++ (List.replicate (if st then 2 else 1) d ++ X))) := by
+    simp [emSrc, EmSeg.delim, hwc, List.append_assoc]
+  rw [e0, nsScan_open d hd x _ hxf.1 hxf.2 hxs _ prev i hk.2 hk.1]
+  have e1 : x :: (w' ++ (List.replicate (if st then 2 else 1) d ++ X)) =
+      W ++ (List.replicate (if st then 2 else 1) d ++ X) := by rw [hwc]; rfl
+  rw [e1, nsScan_text W hW, hlast', nsScan_close d hds X _ z _ hzs hk.1]
+  congr 1
+  simp [emSrc, EmSeg.delim]; omega
+
+
+/-! ### 36. what the engine needs of the content of an emphasis -/
+
+/-- the escapable characters of the converter include the ones the printer escapes -/
+def EscSup (esc : List Char) : Prop := ∀ c ∈ ESC, c ∈ esc
+
+/-- a character of a content once code spans and escapes are placeholders -/
+def BodyCh (x : Char) : Prop := isAlnumSp x = true ∨ phChar x = true
+
+theorem bodyCh_facts {x : Char} (h : BodyCh x) :
+    x ≠ '*' ∧ x ≠ '_' ∧ x ≠ '`' ∧ x ≠ '\\' ∧ x ≠ '[' ∧ x ≠ '!' ∧ x ≠ '&' ∧ x ≠ '\n' := by
+  rcases h with h | h
+  · have := wordCh_facts h
+    exact ⟨this.1, this.2.1, this.2.2.1, this.2.2.2.1, this.2.2.2.2.1, this.2.2.2.2.2.1, this.2.2.2.2.2.2.1,
+      this.2.2.2.2.2.2.2.1⟩
+  · have := phChar_facts h
+    refine ⟨this.2.2.2.1, this.2.2.2.2.1, ?_, this.2.2.2.2.2.1, this.1, this.2.1, this.2.2.1, this.2.2.2.2.2.2.2⟩
+    intro e; subst e; exact absurd h (by decide)
+
+theorem bodyCh_quiet {W : Str} (h : ∀ x ∈ W, BodyCh x) : Quiet W := by
+  intro c hc
+  have := bodyCh_facts (h c hc)
+  exact ⟨this.2.2.1, this.2.2.2.1, this.2.2.2.2.1, this.2.2.2.2.2.2.2, this.2.2.2.2.2.2.1, this.1, this.2.1⟩
+
+theorem bodyCh_resid {esc : List Char} (hs : EscSup esc) (t : Str) (ht : ∀ x ∈ t, plainCh x) (m : Nat) :
+    ∀ x ∈ resid esc m t, BodyCh x := by
+  intro x hx
+  rcases mem_resid hx with ⟨h1, h2⟩ | h
+  · rcases ht x h1 with h | h
+    · exact Or.inl h
+    · exact absurd (hs x h) h2
+  · exact Or.inr h
+
+theorem mem_residSegs {esc : List Char} {x : Char} (segs : List SpanSeg) :
+    ∀ m n, x ∈ residSegs esc m n segs → phChar x = true ∨ ∃ s ∈ segs, ∃ m', x ∈ resid esc m' s.t := by
+  induction segs with
+  | nil => intro m n h; simp [residSegs] at h
+  | cons s r ih =>
+    intro m n h
+    simp only [residSegs, List.mem_append] at h
+    rcases h with h | h | h
+    · exact Or.inl (phChar_of_mem_placeholder h)
+    · exact Or.inr ⟨s, List.mem_cons_self, m, h⟩
+    · rcases ih _ _ h with h | ⟨s', hs', h⟩
+      · exact Or.inl h
+      · exact Or.inr ⟨s', List.mem_cons_of_mem _ hs', h⟩
+
+/-- what the stages need of the content of an innermost emphasis -/
+structure Body0OK (β : Body0) : Prop where
+  plain : ∀ c, (c ∈ β.u0 ∨ ∃ s ∈ β.spans, c ∈ s.t) → plainCh c
+  ne : β.u0 ≠ [] ∨ β.spans ≠ []
+  first : β.u0 ≠ [] → startsVisible β.u0 = true
+  lastv : ∀ z, (lastText β.u0 β.spans).getLast? = some z → isSpace z = false
+
+theorem bodyCh_body0 {esc : List Char} (hs : EscSup esc) (β : Body0) (h : Body0OK β) (m n0 : Nat) :
+    ∀ x ∈ body0R esc m n0 β, BodyCh x := by
+  intro x hx
+  rcases List.mem_append.1 hx with hx | hx
+  · exact bodyCh_resid hs β.u0 (fun y hy => h.plain y (Or.inl hy)) m x hx
+  · rcases mem_residSegs β.spans _ _ hx with hx | ⟨s, hs', m', hx⟩
+    · exact Or.inr hx
+    · exact bodyCh_resid hs s.t (fun y hy => h.plain y (Or.inr ⟨s, hs', hy⟩)) m' x hx
+
+theorem isSpace_ph {x : Char} (h : phChar x = true) : isSpace x = false := by
+  have h1 := (phChar_facts h).2.2.2.2.2.2.1
+  have h2 := (phChar_facts h).2.2.2.2.2.2.2
+  cases hsx : isSpace x with
+  | false => rfl
+  | true =>
+    exfalso
+    have key : ∀ n, n < 128 → phChar (Char.ofNat n) = true → isSpace (Char.ofNat n) = false := by decide
+    have hlt : x.toNat < 128 := by
+      simp only [phChar, Bool.or_eq_true] at h
+      rcases h with (h | h) | h
+      · have : ∀ c ∈ phPrefix, c.toNat < 128 := by decide
+        exact this x (List.contains_iff_mem.1 h)
+      · simp only [isAsciiDigit, Bool.and_eq_true, decide_eq_true_eq, Char.le_def, UInt32.le_iff_toNat_le] at h
+        have e : x.val.toNat = x.toNat := rfl
+        rw [e] at h
+        have : ('9' : Char).val.toNat = 57 := rfl
+        omega
+      · have : x = Inline.ETX := by simpa using h
+        rw [this]; decide
+    have := RefDef.char_of_ascii (fun c => phChar c = true → isSpace c = false) key x hlt h
+    rw [this] at hsx; cases hsx
+
+theorem head_resid_visible {esc : List Char} (t : Str) (ht : t ≠ []) (hv : startsVisible t = true) (m : Nat) (X : Str) :
+    ∀ x, (resid esc m t ++ X).head? = some x → isSpace x = false := by
+  cases t with
+  | nil => exact absurd rfl ht
+  | cons c r =>
+    intro x hx
+    by_cases hc : c ∈ esc
+    · simp only [resid, List.contains_eq_mem, hc, decide_true, if_true, List.append_assoc] at hx
+      rw [head_placeholder] at hx
+      have : Inline.STX = x := by simpa using hx
+      subst this; decide
+    · simp only [resid, List.contains_eq_mem, hc, decide_false, Bool.false_eq_true, if_false, List.cons_append,
+        List.head?_cons, Option.some.injEq] at hx
+      subst hx
+      simpa [startsVisible] using hv
+
+theorem last_resid_visible {esc : List Char} (t : Str) (ht : t ≠ [])
+    (hl : ∀ z, t.getLast? = some z → isSpace z = false) :
+    ∀ (m : Nat) (z : Char), (resid esc m t).getLast? = some z → isSpace z = false := by
+  induction t with
+  | nil => exact absurd rfl ht
+  | cons c r ih =>
+    intro m z hz
+    by_cases hr : r = []
+    · subst hr
+      by_cases hc : c ∈ esc
+      · simp only [resid, List.contains_eq_mem, hc, decide_true, if_true, List.append_nil] at hz
+        exact isSpace_ph (phChar_of_mem_placeholder (List.mem_of_getLast? hz))
+      · simp only [resid, List.contains_eq_mem, hc, decide_false, Bool.false_eq_true, if_false,
+          List.getLast?_singleton, Option.some.injEq] at hz
+        subst hz; exact hl c (by simp)
+    · have hl' : ∀ z, r.getLast? = some z → isSpace z = false := by
+        intro z hz
+        apply hl z
+        cases r with
+        | nil => exact absurd rfl hr
+        | cons d r' => simpa [List.getLast?_cons_cons] using hz
+      have hne : ∀ m', resid esc m' r ≠ [] := by
+        intro m'
+        cases r with
+        | nil => exact absurd rfl hr
+        | cons d r' =>
+          by_cases hd : d ∈ esc
+          · simp only [resid, List.contains_eq_mem, hd, decide_true, if_true]
+            intro e
+            exact placeholder_ne_nil _ (List.append_eq_nil_iff.1 e).1
+          · simp [resid, hd]
+      by_cases hc : c ∈ esc
+      · simp only [resid, List.contains_eq_mem, hc, decide_true, if_true] at hz
+        rw [getLast_append_ne (hne _)] at hz
+        exact ih hr hl' _ z hz
+      · simp only [resid, List.contains_eq_mem, hc, decide_false, Bool.false_eq_true, if_false] at hz
+        have : (c :: resid esc m r).getLast? = (resid esc m r).getLast? := by
+          rw [show c :: resid esc m r = [c] ++ resid esc m r from rfl, getLast_append_ne (hne _)]
+        rw [this] at hz
+        exact ih hr hl' _ z hz
+
+theorem last_residSegs_visible {esc : List Char} (segs : List SpanSeg) (hne : segs ≠ []) :
+    ∀ (t0 : Str) (m n : Nat), (∀ z, (lastText t0 segs).getLast? = some z → isSpace z = false) →
+      ∀ z, (residSegs esc m n segs).getLast? = some z → isSpace z = false := by
+  induction segs with
+  | nil => exact absurd rfl hne
+  | cons s r ih =>
+    intro t0 m n hl z hz
+    simp only [residSegs] at hz
+    by_cases hr : r = []
+    · subst hr
+      simp only [residSegs, List.append_nil] at hz
+      by_cases ht : s.t = []
+      · rw [ht] at hz
+        simp only [resid, List.append_nil] at hz
+        exact isSpace_ph (phChar_of_mem_placeholder (List.mem_of_getLast? hz))
+      · have hne' : resid esc m s.t ≠ [] := by
+          cases hst : s.t with
+          | nil => exact absurd hst ht
+          | cons d r' =>
+            by_cases hd : d ∈ esc
+            · simp only [resid, List.contains_eq_mem, hd, decide_true, if_true]
+              intro e
+              exact placeholder_ne_nil _ (List.append_eq_nil_iff.1 e).1
+            · simp [resid, hd]
+        rw [getLast_append_ne hne'] at hz
+        exact last_resid_visible s.t ht (fun z hz => hl z (by simpa [lastText] using hz)) m z hz
+    · have hne2 : residSegs esc (m + escCount esc s.t) (n + 1) r ≠ [] := by
+        cases r with
+        | nil => exact absurd rfl hr
+        | cons q r' =>
+          simp only [residSegs]
+          intro e
+          exact placeholder_ne_nil _ (List.append_eq_nil_iff.1 e).1
+      rw [getLast_append_ne (by
+        intro e; exact hne2 (List.append_eq_nil_iff.1 e).2), getLast_append_ne hne2] at hz
+      exact ih hr s.t _ _ (fun z hz => hl z (by rw [lastText_cons]; exact hz)) z hz
+
+/-- the content between the delimiters, as the emphasis patterns see it -/
+theorem body0_facts {esc : List Char} (hs : EscSup esc) (β : Body0) (h : Body0OK β) (m n0 : Nat) :
+    body0R esc m n0 β ≠ [] ∧ (∀ x ∈ body0R esc m n0 β, BodyCh x) ∧
+    (∀ x, (body0R esc m n0 β).head? = some x → isSpace x = false) ∧
+    (∀ z, (body0R esc m n0 β).getLast? = some z → isSpace z = false) := by
+  have hch := bodyCh_body0 hs β h m n0
+  have hhead : ∀ x, (body0R esc m n0 β).head? = some x → isSpace x = false := by
+    by_cases hu : β.u0 = []
+    · have hsp : β.spans ≠ [] := by rcases h.ne with h' | h'; exact absurd hu h'; exact h'
+      intro x hx
+      cases hsp' : β.spans with
+      | nil => exact absurd hsp' hsp
+      | cons s r =>
+        simp only [body0R, hu, resid, List.nil_append, hsp', residSegs, List.append_assoc] at hx
+        rw [head_placeholder] at hx
+        have : Inline.STX = x := by simpa using hx
+        subst this; decide
+    · exact head_resid_visible β.u0 hu (h.first hu) m _
+  have hlast : ∀ z, (body0R esc m n0 β).getLast? = some z → isSpace z = false := by
+    intro z hz
+    by_cases hsp : β.spans = []
+    · have hu : β.u0 ≠ [] := by rcases h.ne with h' | h'; exact h'; exact absurd hsp h'
+      simp only [body0R, hsp, residSegs, List.append_nil] at hz
+      exact last_resid_visible β.u0 hu (fun z hz => h.lastv z (by simpa [lastText, hsp] using hz)) m z hz
+    · have hne2 : residSegs esc (m + escCount esc β.u0) n0 β.spans ≠ [] := by
+        cases hsp' : β.spans with
+        | nil => exact absurd hsp' hsp
+        | cons q r' =>
+          simp only [residSegs]
+          intro e
+          exact placeholder_ne_nil _ (List.append_eq_nil_iff.1 e).1
+      simp only [body0R] at hz
+      rw [getLast_append_ne hne2] at hz
+      exact last_residSegs_visible β.spans hsp β.u0 _ _ h.lastv z hz
+  refine ⟨?_, hch, hhead, hlast⟩
+  intro e
+  rcases h.ne with h' | h'
+  · have : resid esc m β.u0 = [] := (List.append_eq_nil_iff.1 e).1
+    cases hu : β.u0 with
+    | nil => exact h' hu
+    | cons c r =>
+      rw [hu] at this
+      by_cases hc : c ∈ esc
+      · simp only [resid, List.contains_eq_mem, hc, decide_true, if_true] at this
+        exact placeholder_ne_nil _ (List.append_eq_nil_iff.1 this).1
+      · simp [resid, hc] at this
+  · have : residSegs esc (m + escCount esc β.u0) n0 β.spans = [] := (List.append_eq_nil_iff.1 e).2
+    cases hsp : β.spans with
+    | nil => exact h' hsp
+    | cons s r =>
+      rw [hsp] at this
+      simp only [residSegs] at this
+      exact placeholder_ne_nil _ (List.append_eq_nil_iff.1 this).1
+
+
+/-! ### 37. patterns 13–15 on a line whose emphases contain words, escapes and code spans -/
+
+def K1OK : K1 → Prop
+  | .code _ _ => True
+  | .em _ d β => (d = '*' ∨ d = '_') ∧ Body0OK β
+
+def Segs1OK (segs : List Seg1) : Prop := ∀ s ∈ segs, K1OK s.k
+
+theorem dl_eq (st : Bool) (d : Char) (W : Str) : dl st d ++ (W ++ dl st d) = emSrc ⟨st, d, W, []⟩ := rfl
+
+theorem emSrc_body_last (st : Bool) (d : Char) (W : Str) (p : Option Char) : lastOr p (emSrc ⟨st, d, W, []⟩) = some d := by
+  simp [lastOr, emSrc_last]
+
+/-- pattern 13 walks over such a line -/
+theorem nsScan_stageL1 {esc : List Char} (hs : EscSup esc) (h1 : '*' ∈ esc) (h2 : '_' ∈ esc) (lv : Nat)
+    (segs : List Seg1) :
+    ∀ (m n0 n1 n2 : Nat) (prev : Option Char) (i : Nat) (X : Str), Segs1OK segs →
+      nsScan prev (stageL1 esc lv m n0 n1 n2 segs ++ X) i =
+        nsScan (lastOr prev (stageL1 esc lv m n0 n1 n2 segs)) X (i + (stageL1 esc lv m n0 n1 n2 segs).length) := by
+  induction segs with
+  | nil => intro _ _ _ _ prev i X _; simp [stageL1, lastOr]
+  | cons s r ih =>
+    intro m n0 n1 n2 prev i X hok
+    have hokr : Segs1OK r := fun x hx => hok x (List.mem_cons_of_mem _ hx)
+    have hph : ∀ n, ∀ c ∈ placeholder n, c ≠ '*' ∧ c ≠ '_' := fun n c hc =>
+      ⟨(phChar_facts (phChar_of_mem_placeholder hc)).2.2.2.1, (phChar_facts (phChar_of_mem_placeholder hc)).2.2.2.2.1⟩
+    simp only [stageL1, List.append_assoc]
+    have hitem : ∀ (Y : Str) (p : Option Char) (j : Nat),
+        nsScan p (itemL1 esc lv m n0 n1 n2 s.k ++ Y) j =
+          nsScan (lastOr p (itemL1 esc lv m n0 n1 n2 s.k)) Y (j + (itemL1 esc lv m n0 n1 n2 s.k).length) := by
+      intro Y p j
+      cases hk : s.k with
+      | code n b => simp only [itemL1]; exact nsScan_text _ (hph n0) Y p j
+      | em st d β =>
+        have hs' := hok s List.mem_cons_self
+        rw [hk] at hs'
+        simp only [itemL1]
+        split
+        · exact nsScan_text _ (hph _) Y p j
+        · obtain ⟨hne, hch, hh, hl⟩ := body0_facts hs β hs'.2 m n0
+          rw [dl_eq, nsScan_emB st d _ hs'.1 hne
+            (fun x hx => ⟨(bodyCh_facts (hch x hx)).1, (bodyCh_facts (hch x hx)).2.1⟩) hh hl, emSrc_body_last]
+    rw [hitem, nsScan_text _ (resid_no_delim h1 h2 s.t _), ih _ _ _ _ _ _ _ hokr]
+    simp only [lastOr_append, List.length_append]
+    congr 1; omega
+
+/-- the stash entries of the emphases of class `c`: the element whose text is the content as the pattern saw it -/
+def nodes1 (c : Nat) (esc : List Char) : Nat → Nat → List Seg1 → List StashItem
+  | _, _, [] => []
+  | m, n0, s :: r =>
+    (match s.k with
+      | .em st d β => if (K1.em st d β).cls = c then [.node (emEl st (body0R esc m n0 β))] else []
+      | .code _ _ => []) ++
+    nodes1 c esc (m + s.k.esc esc + escCount esc s.t) (n0 + s.k.codes) r
+
+theorem star_not_mem_body {esc : List Char} (hs : EscSup esc) (β : Body0) (h : Body0OK β) (m n0 : Nat) (c : Char)
+    (hc : c = '*' ∨ c = '_') : c ∉ body0R esc m n0 β := by
+  intro hm
+  have := bodyCh_facts (bodyCh_body0 hs β h m n0 c hm)
+  rcases hc with e | e
+  · exact this.1 e
+  · exact this.2.1 e
+
+theorem star_pass1 (cfg : Inline.Cfg) (f : Nat) (hs : EscSup cfg.esc) (h1 : '*' ∈ cfg.esc) (h2 : '_' ∈ cfg.esc)
+    (segs : List Seg1) :
+    ∀ (A Z : Str) (m n0 n1 n2 : Nat) (st : St) (g : Nat), '*' ∉ A → Segs1OK segs →
+      hiLoop (applyPattern cfg (fun d p s => handleInline cfg (f + 1) d p s)) (g + (nodes1 1 cfg.esc m n0 segs).length)
+        (A ++ (stageL1 cfg.esc 1 m n0 n1 n2 segs ++ Z)) 14 0 st =
+      hiLoop (applyPattern cfg (fun d p s => handleInline cfg (f + 1) d p s)) g
+        (A ++ (stageL1 cfg.esc 2 m n0 st.stash.length n2 segs ++ Z)) 14 0
+        { st with stash := st.stash ++ nodes1 1 cfg.esc m n0 segs } := by
+  induction segs with
+  | nil => intro A Z m n0 n1 n2 st g _ _; simp [stageL1, nodes1]
+  | cons s r ih =>
+    intro A Z m n0 n1 n2 st g hA hok
+    have hokr : Segs1OK r := fun x hx => hok x (List.mem_cons_of_mem _ hx)
+    have hs' := hok s List.mem_cons_self
+    have hres : ∀ m', '*' ∉ resid cfg.esc m' s.t := fun m' h => (resid_no_delim h1 h2 s.t m' _ h).1 rfl
+    cases hk : s.k with
+    | code n b =>
+      have := ih (A ++ (placeholder n0 ++ resid cfg.esc m s.t)) Z (m + escCount cfg.esc s.t) (n0 + 1) n1 n2 st g
+        (not_mem_of_append3 hA (not_mem_placeholder (by decide) _) (hres m)) hokr
+      simp only [stageL1, itemL1, nodes1, hk, K1.esc, K1.codes, K1.bump, K1.cls, Nat.add_zero,
+        show ¬ ((0 : Nat) = 1) by omega, show ¬ ((0 : Nat) = 2) by omega, if_false, List.nil_append,
+        List.append_assoc] at this ⊢
+      exact this
+    | em st' d β =>
+      rw [hk] at hs'
+      obtain ⟨hd, hβ⟩ := hs'
+      obtain ⟨hne, hch, _, _⟩ := body0_facts hs β hβ m n0
+      by_cases hds : d = '*'
+      · subst hds
+        have hc : (K1.em st' '*' β).cls = 1 := by simp [K1.cls]
+        obtain ⟨q, hq⟩ := delim_cons ⟨st', '*', body0R cfg.esc m n0 β, []⟩
+        have hE : emSrc ⟨st', '*', body0R cfg.esc m n0 β, []⟩ =
+            '*' :: (q ++ (body0R cfg.esc m n0 β ++ EmSeg.delim ⟨st', '*', body0R cfg.esc m n0 β, []⟩)) := by
+          rw [emSrc, hq]; rfl
+        generalize hZ' : resid cfg.esc (m + body0Esc cfg.esc β) s.t ++
+          (stageL1 cfg.esc 1 (m + body0Esc cfg.esc β + escCount cfg.esc s.t) (n0 + β.spans.length) (n1 + 1) n2 r ++ Z)
+          = Z'
+        have hhm := emHandle_body st' '*' (body0R cfg.esc m n0 β) (Or.inl rfl) hne
+          (fun x hx => ⟨(bodyCh_facts (hch x hx)).1, (bodyCh_facts (hch x hx)).2.1⟩) A Z'
+          (fun e => absurd e (by decide))
+        have hin := handleInline_word cfg f (body0R cfg.esc m n0 β) (bodyCh_quiet hch) 15 (Or.inl rfl) st
+        have hstep := applyPattern_emG cfg f 14 (Or.inl rfl) '*' rfl A _ Z' hA _ hE st' _ hne _ st st hin hhm
+        have := ih (A ++ (placeholder st.stash.length ++ resid cfg.esc (m + body0Esc cfg.esc β) s.t)) Z
+          (m + body0Esc cfg.esc β + escCount cfg.esc s.t) (n0 + β.spans.length) (n1 + 1) n2
+          { st with stash := st.stash ++ [.node (emEl st' (body0R cfg.esc m n0 β))] } g
+          (not_mem_of_append3 hA (not_mem_placeholder (by decide) _) (hres _)) hokr
+        simp only [stageL1, itemL1, nodes1, hk, hc, K1.esc, K1.codes, K1.bump, if_true, Nat.lt_irrefl, if_false,
+          show (1 : Nat) < 2 by omega, show ¬ ((1 : Nat) = 2) by omega, List.length_append, List.length_cons,
+          List.length_nil, dl_eq, List.append_assoc] at this ⊢
+        rw [hZ']
+        rw [show g + (0 + 1 + (nodes1 1 cfg.esc (m + body0Esc cfg.esc β + escCount cfg.esc s.t)
+            (n0 + β.spans.length) r).length) =
+          (g + (nodes1 1 cfg.esc (m + body0Esc cfg.esc β + escCount cfg.esc s.t) (n0 + β.spans.length) r).length) + 1
+          by omega, hiLoop_step _ _ _ 14 0 st (by omega) _ _ _ _ hstep]
+        simp only [if_true]
+        rw [← hZ', this]
+      · have hdu : d = '_' := by rcases hd with e | e; exact absurd e hds; exact e
+        subst hdu
+        have hc : (K1.em st' '_' β).cls = 2 := by simp [K1.cls]
+        have hsrc : '*' ∉ dl st' '_' ++ (body0R cfg.esc m n0 β ++ dl st' '_') := by
+          intro hx
+          rw [dl_eq] at hx
+          rcases mem_emSrc' hx with e | e
+          · exact absurd e (by decide)
+          · exact star_not_mem_body hs β hβ m n0 '*' (Or.inl rfl) e
+        have := ih (A ++ ((dl st' '_' ++ (body0R cfg.esc m n0 β ++ dl st' '_')) ++
+            resid cfg.esc (m + body0Esc cfg.esc β) s.t)) Z
+          (m + body0Esc cfg.esc β + escCount cfg.esc s.t) (n0 + β.spans.length) n1 (n2 + 1) st g
+          (not_mem_of_append3 hA hsrc (hres _)) hokr
+        simp only [stageL1, itemL1, nodes1, hk, hc, K1.esc, K1.codes, K1.bump, if_true,
+          show ¬ ((2 : Nat) < 1) by omega, show ¬ ((2 : Nat) < 2) by omega, show ¬ ((2 : Nat) = 1) by omega, if_false,
+          List.nil_append, List.append_assoc] at this ⊢
+        exact this
+
+
+/-- the character after an item is not a word character -/
+def nextNW1 (esc : List Char) (t : Str) (r : List Seg1) : Prop :=
+  match t, r with
+  | c :: _, _ => c ∈ esc ∨ isWord c = false
+  | [], [] => True
+  | [], s' :: _ => s'.k.cls ≠ 2
+
+/-- every `_` emphasis stands between characters that are not word characters -/
+def UnderOK1 (esc : List Char) : Bool → List Seg1 → Prop
+  | _, [] => True
+  | pw, s :: r => (s.k.cls = 2 → pw = false ∧ nextNW1 esc s.t r) ∧ UnderOK1 esc (lastW esc s.t) r
+
+theorem K1.cls_lt3 (k : K1) : k.cls < 3 := by
+  cases k with
+  | code _ _ => simp [K1.cls]
+  | em _ d _ => simp only [K1.cls]; split <;> omega
+
+theorem itemL1_ph (esc : List Char) (lv m n0 n1 n2 : Nat) (k : K1) (h : k.cls < lv) :
+    ∃ n, itemL1 esc lv m n0 n1 n2 k = placeholder n := by
+  cases k with
+  | code n b => exact ⟨n0, rfl⟩
+  | em st d β => simp only [itemL1, h, if_true]; exact ⟨_, rfl⟩
+
+theorem isW_head_next1 (esc : List Char) (t : Str) (m m' n0 n1 n2 : Nat) (r : List Seg1) (h : nextNW1 esc t r) :
+    isW (resid esc m t ++ stageL1 esc 2 m' n0 n1 n2 r).head? = false := by
+  cases t with
+  | cons c t' =>
+    by_cases hc : c ∈ esc
+    · simp only [resid, List.contains_eq_mem, hc, decide_true, if_true, List.append_assoc]
+      rw [head_placeholder]; decide
+    · have : isWord c = false := by
+        rcases h with h | h
+        · exact absurd h hc
+        · exact h
+      simp [resid, hc, isW, this]
+  | nil =>
+    cases r with
+    | nil => simp [resid, stageL1, isW]
+    | cons s' r' =>
+      have hs : s'.k.cls ≠ 2 := h
+      have hlt : s'.k.cls < 2 := by have := s'.k.cls_lt3; omega
+      obtain ⟨n, hn⟩ := itemL1_ph esc 2 m' n0 n1 n2 s'.k hlt
+      simp only [resid, List.nil_append, stageL1, hn, List.append_assoc]
+      rw [head_placeholder]; decide
+
+theorem noTriple_stageL1 {esc : List Char} (hs : EscSup esc) (h1 : '*' ∈ esc) (h2 : '_' ∈ esc) (segs : List Seg1) :
+    ∀ (m n0 n1 n2 : Nat) (pw : Bool), Segs1OK segs → UnderOK1 esc pw segs →
+      NoTriple '_' (stageL1 esc 2 m n0 n1 n2 segs) := by
+  induction segs with
+  | nil => intro _ _ _ _ _ _ _; exact noTriple_nil _
+  | cons s r ih =>
+    intro m n0 n1 n2 pw hok hu
+    have hokr : Segs1OK r := fun x hx => hok x (List.mem_cons_of_mem _ hx)
+    have hrest := ih (m + s.k.esc esc + escCount esc s.t) (n0 + s.k.codes) (s.k.bump 1 n1) (s.k.bump 2 n2) _ hokr hu.2
+    have hres : '_' ∉ resid esc (m + s.k.esc esc) s.t := fun h => (resid_no_delim h1 h2 s.t _ _ h).2 rfl
+    have hZ := noTriple_of_no_c '_' _ _ hres hrest
+    simp only [stageL1]
+    by_cases hc : s.k.cls < 2
+    · obtain ⟨n, hn⟩ := itemL1_ph esc 2 m n0 n1 n2 s.k hc
+      rw [hn]
+      exact noTriple_of_no_c '_' _ _ (not_mem_placeholder (by decide) _) hZ
+    · cases hk : s.k with
+      | code n b => rw [hk] at hc; simp [K1.cls] at hc
+      | em st d β =>
+        have hs' := hok s List.mem_cons_self
+        rw [hk] at hs' hc
+        obtain ⟨hd, hβ⟩ := hs'
+        have hdu : d = '_' := by
+          rcases hd with e | e
+          · rw [e] at hc; simp [K1.cls] at hc
+          · exact e
+        subst hdu
+        have hc2 : s.k.cls = 2 := by rw [hk]; simp [K1.cls]
+        have hnext := (hu.1 hc2).2
+        have hhead := isW_under_head (isW_head_next1 esc s.t (m + s.k.esc esc)
+          (m + s.k.esc esc + escCount esc s.t) (n0 + s.k.codes) (s.k.bump 1 n1) (s.k.bump 2 n2) r hnext)
+        simp only [itemL1, hc, if_false, dl, List.append_assoc]
+        have hm : (if st then 2 else 1) ≤ 2 := by cases st <;> simp
+        rw [hk] at hhead hZ
+        refine noTriple_delim '_' _ ?_ (noTriple_of_no_c '_' _ _ (star_not_mem_body hs β hβ m n0 '_' (Or.inr rfl))
+          (noTriple_delim '_' _ hhead hZ _ hm)) _ hm
+        obtain ⟨hne, hch, _, _⟩ := body0_facts hs β hβ m n0
+        cases hwc : body0R esc m n0 β with
+        | nil => exact absurd hwc hne
+        | cons x w' =>
+          have := (bodyCh_facts (hch x (by rw [hwc]; simp))).2.1
+          simpa using this
+
+theorem under_pass1 (cfg : Inline.Cfg) (f : Nat) (hs : EscSup cfg.esc) (h1 : '*' ∈ cfg.esc) (h2 : '_' ∈ cfg.esc)
+    (segs : List Seg1) :
+    ∀ (A : Str) (m n0 n1 n2 : Nat) (st : St) (g : Nat), '_' ∉ A → Segs1OK segs →
+      UnderOK1 cfg.esc (isW (lastOr none A)) segs →
+      hiLoop (applyPattern cfg (fun d p s => handleInline cfg (f + 1) d p s)) (g + (nodes1 2 cfg.esc m n0 segs).length)
+        (A ++ stageL1 cfg.esc 2 m n0 n1 n2 segs) 15 0 st =
+      hiLoop (applyPattern cfg (fun d p s => handleInline cfg (f + 1) d p s)) g
+        (A ++ stageL1 cfg.esc 3 m n0 n1 st.stash.length segs) 15 0
+        { st with stash := st.stash ++ nodes1 2 cfg.esc m n0 segs } := by
+  induction segs with
+  | nil => intro A m n0 n1 n2 st g _ _ _; simp [stageL1, nodes1]
+  | cons s r ih =>
+    intro A m n0 n1 n2 st g hA hok hu
+    have hokr : Segs1OK r := fun x hx => hok x (List.mem_cons_of_mem _ hx)
+    have hs' := hok s List.mem_cons_self
+    have hres : ∀ m', '_' ∉ resid cfg.esc m' s.t := fun m' h => (resid_no_delim h1 h2 s.t m' _ h).2 rfl
+    by_cases hc : s.k.cls < 2
+    · -- a placeholder already
+      have hne2 : ¬ s.k.cls = 2 := by omega
+      obtain ⟨n, hn⟩ := itemL1_ph cfg.esc 2 m n0 n1 n2 s.k hc
+      have hn3 : itemL1 cfg.esc 3 m n0 n1 st.stash.length s.k = placeholder n := by
+        rw [← hn]
+        cases hk : s.k with
+        | code _ _ => rfl
+        | em st' d β =>
+          rw [hk] at hc
+          have hd : d = '*' := Decidable.by_contra (fun hd => by simp [K1.cls, hd] at hc)
+          subst hd
+          have h3 : (K1.em st' '*' β).cls < 3 := K1.cls_lt3 _
+          simp only [itemL1, hc, h3, if_true]
+      have hnodes : (match s.k with
+          | .em st d β => if (K1.em st d β).cls = 2 then [StashItem.node (emEl st (body0R cfg.esc m n0 β))] else []
+          | .code _ _ => []) = [] := by
+        cases hk : s.k with
+        | code _ _ => rfl
+        | em st' d β => rw [hk] at hne2; simp [hne2]
+      have hu' : UnderOK1 cfg.esc (isW (lastOr none (A ++ (placeholder n ++ resid cfg.esc (m + s.k.esc cfg.esc) s.t)))) r := by
+        rw [isW_lastOr_seg]; exact hu.2
+      have := ih (A ++ (placeholder n ++ resid cfg.esc (m + s.k.esc cfg.esc) s.t))
+        (m + s.k.esc cfg.esc + escCount cfg.esc s.t) (n0 + s.k.codes) (s.k.bump 1 n1) n2 st g
+        (not_mem_of_append3 hA (not_mem_placeholder (by decide) _) (hres _)) hokr hu'
+      simp only [stageL1, nodes1, hn, hn3, hnodes, List.nil_append, List.append_assoc,
+        show s.k.bump 2 n2 = n2 by simp [K1.bump, hne2],
+        show s.k.bump 2 st.stash.length = st.stash.length by simp [K1.bump, hne2]] at this ⊢
+      exact this
+    · cases hk : s.k with
+      | code n b => rw [hk] at hc; simp [K1.cls] at hc
+      | em st' d β =>
+        rw [hk] at hs' hc
+        obtain ⟨hd, hβ⟩ := hs'
+        have hdu : d = '_' := by
+          rcases hd with e | e
+          · rw [e] at hc; simp [K1.cls] at hc
+          · exact e
+        subst hdu
+        have hcl : (K1.em st' '_' β).cls = 2 := by simp [K1.cls]
+        have hc2 : s.k.cls = 2 := by rw [hk]; exact hcl
+        obtain ⟨hpw, hnext⟩ := hu.1 hc2
+        obtain ⟨hne, hch, _, _⟩ := body0_facts hs β hβ m n0
+        obtain ⟨q, hq⟩ := delim_cons ⟨st', '_', body0R cfg.esc m n0 β, []⟩
+        have hE : emSrc ⟨st', '_', body0R cfg.esc m n0 β, []⟩ =
+            '_' :: (q ++ (body0R cfg.esc m n0 β ++ EmSeg.delim ⟨st', '_', body0R cfg.esc m n0 β, []⟩)) := by
+          rw [emSrc, hq]; rfl
+        generalize hZ' : resid cfg.esc (m + body0Esc cfg.esc β) s.t ++
+          stageL1 cfg.esc 2 (m + body0Esc cfg.esc β + escCount cfg.esc s.t) (n0 + β.spans.length) n1 (n2 + 1) r = Z'
+        have hhm := emHandle_body st' '_' (body0R cfg.esc m n0 β) (Or.inr rfl) hne
+          (fun x hx => ⟨(bodyCh_facts (hch x hx)).1, (bodyCh_facts (hch x hx)).2.1⟩) A Z'
+          (fun _ => ⟨hpw, by rw [← hZ']; exact isW_head_next1 cfg.esc s.t _ _ _ _ _ r hnext,
+            by rw [← hZ']; exact noTriple_of_no_c '_' _ _ (hres _) (noTriple_stageL1 hs h1 h2 r _ _ _ _ _ hokr hu.2)⟩)
+        have hin := handleInline_word cfg f (body0R cfg.esc m n0 β) (bodyCh_quiet hch) 16 (Or.inr rfl) st
+        have hstep := applyPattern_emG cfg f 15 (Or.inr rfl) '_' rfl A _ Z' hA _ hE st' _ hne _ st st hin hhm
+        have hu' : UnderOK1 cfg.esc (isW (lastOr none (A ++ (placeholder st.stash.length ++
+            resid cfg.esc (m + body0Esc cfg.esc β) s.t)))) r := by
+          rw [isW_lastOr_seg]; exact hu.2
+        have := ih (A ++ (placeholder st.stash.length ++ resid cfg.esc (m + body0Esc cfg.esc β) s.t))
+          (m + body0Esc cfg.esc β + escCount cfg.esc s.t) (n0 + β.spans.length) n1 (n2 + 1)
+          { st with stash := st.stash ++ [.node (emEl st' (body0R cfg.esc m n0 β))] } g
+          (not_mem_of_append3 hA (not_mem_placeholder (by decide) _) (hres _)) hokr hu'
+        simp only [stageL1, itemL1, nodes1, hk, hcl, K1.esc, K1.codes, K1.bump, if_true, Nat.lt_irrefl, if_false,
+          show (2 : Nat) < 3 by omega, show ¬ ((2 : Nat) = 1) by omega, show ¬ ('_' = '*') by decide,
+          List.length_append, List.length_cons, List.length_nil, dl_eq, List.append_assoc] at this ⊢
+        rw [hZ']
+        rw [show g + (0 + 1 + (nodes1 2 cfg.esc (m + body0Esc cfg.esc β + escCount cfg.esc s.t)
+            (n0 + β.spans.length) r).length) =
+          (g + (nodes1 2 cfg.esc (m + body0Esc cfg.esc β + escCount cfg.esc s.t) (n0 + β.spans.length) r).length) + 1
+          by omega, hiLoop_step _ _ _ 15 0 st (by omega) _ _ _ _ hstep]
+        simp only [if_true]
+        rw [← hZ', this]
+
+
+/-! ### 38. the whole pattern loop on such a line -/
+
+/-- where a character of such a line comes from, once code spans and escapes are out -/
+def From1 (esc : List Char) (lv : Nat) (segs : List Seg1) (c : Char) : Prop :=
+  BodyCh c ∨ (∃ s ∈ segs, c ∈ s.t ∧ c ∉ esc) ∨
+    (∃ s ∈ segs, lv ≤ s.k.cls ∧ ∃ st d β, s.k = .em st d β ∧ (d = '*' ∨ d = '_') ∧ c = d)
+
+theorem From1.cons {esc : List Char} {lv : Nat} {s : Seg1} {r : List Seg1} {c : Char} (h : From1 esc lv r c) :
+    From1 esc lv (s :: r) c := by
+  rcases h with h | ⟨x, hx, h⟩ | ⟨x, hx, h⟩
+  · exact Or.inl h
+  · exact Or.inr (Or.inl ⟨x, List.mem_cons_of_mem _ hx, h⟩)
+  · exact Or.inr (Or.inr ⟨x, List.mem_cons_of_mem _ hx, h⟩)
+
+theorem mem_stageL1 {esc : List Char} (hs : EscSup esc) {c : Char} (lv : Nat) (segs : List Seg1) :
+    ∀ m n0 n1 n2, Segs1OK segs → c ∈ stageL1 esc lv m n0 n1 n2 segs → From1 esc lv segs c := by
+  induction segs with
+  | nil => intro m n0 n1 n2 _ h; simp [stageL1] at h
+  | cons s r ih =>
+    intro m n0 n1 n2 hok h
+    simp only [stageL1, List.mem_append] at h
+    rcases h with h | h | h
+    · cases hk : s.k with
+      | code n b =>
+        rw [hk] at h
+        exact Or.inl (Or.inr (phChar_of_mem_placeholder h))
+      | em st d β =>
+        have hs' := hok s List.mem_cons_self
+        rw [hk] at h hs'
+        simp only [itemL1] at h
+        split at h
+        · exact Or.inl (Or.inr (phChar_of_mem_placeholder h))
+        · rename_i hlv
+          rw [dl_eq] at h
+          rcases mem_emSrc' h with e | e
+          · exact Or.inr (Or.inr ⟨s, List.mem_cons_self, by rw [hk]; omega, st, d, β, hk, hs'.1, e⟩)
+          · exact Or.inl (bodyCh_body0 hs β hs'.2 m n0 c e)
+    · rcases mem_resid h with h | h
+      · exact Or.inr (Or.inl ⟨s, List.mem_cons_self, h⟩)
+      · exact Or.inl (Or.inr h)
+    · exact (ih _ _ _ _ (fun x hx => hok x (List.mem_cons_of_mem _ hx)) h).cons
+
+theorem nodes1_length (esc : List Char) (segs : List Seg1) :
+    ∀ m n0, (nodes1 1 esc m n0 segs).length + (nodes1 2 esc m n0 segs).length ≤ segs.length := by
+  induction segs with
+  | nil => intro _ _; simp [nodes1]
+  | cons s r ih =>
+    intro m n0
+    obtain ⟨k, t⟩ := s
+    have := ih (m + k.esc esc + escCount esc t) (n0 + k.codes)
+    cases k with
+    | code n b => simp only [nodes1, List.nil_append, List.length_cons] at this ⊢; omega
+    | em st d β =>
+      by_cases hd : d = '*'
+      · simp only [nodes1, K1.cls, hd, if_true, show ¬ ((1 : Nat) = 2) by omega, if_false, List.length_append,
+          List.length_cons, List.length_nil, List.nil_append] at this ⊢
+        omega
+      · simp only [nodes1, K1.cls, hd, if_false, show ¬ ((2 : Nat) = 1) by omega, if_true, List.length_append,
+          List.length_cons, List.length_nil, List.nil_append] at this ⊢
+        omega
+
+/-- every token of the flat view takes at least one character -/
+theorem stageF_length (esc : List Char) (F : List FSeg) (hok : FSegsOK F) :
+    ∀ m n0, escCountF esc F + F.length ≤ (stageF esc false false m n0 F).length := by
+  induction F with
+  | nil => intro _ _; simp [escCountF, stageF]
+  | cons s r ih =>
+    intro m n0
+    have h1 := escCount_le esc s.t
+    have h3 := ih (fun x hx => hok x (List.mem_cons_of_mem _ hx)) (m + escCount esc s.t) (s.k.bump n0)
+    have h2 : 0 < (itemF false n0 s.k).length := by
+      have := hok s List.mem_cons_self
+      cases hk : s.k with
+      | code n b =>
+        rw [hk] at this
+        obtain ⟨⟨j, hj⟩, _⟩ := this
+        simp [itemF, spanSrc, ticks, hj]; omega
+      | junk x =>
+        rw [hk] at this
+        cases x with
+        | nil => exact absurd rfl this.2
+        | cons a b => simp [itemF]
+    simp only [escCountF, stageF, List.length_append, List.length_cons, Bool.false_eq_true, if_false] at h3 ⊢
+    omega
+
+theorem flatten1_length (segs : List Seg1) : segs.length ≤ (flatten1 segs).length := by
+  induction segs with
+  | nil => simp [flatten1]
+  | cons s r ih =>
+    obtain ⟨k, t⟩ := s
+    cases k with
+    | code n b => simp only [flatten1, List.length_cons]; omega
+    | em st d β => simp only [flatten1, List.length_cons, List.length_append]; omega
+
+theorem codesF_le (F : List FSeg) : (codesF F).length ≤ F.length := by
+  induction F with
+  | nil => simp [codesF]
+  | cons s r ih => cases hk : s.k <;> simp only [codesF, hk, List.length_cons] <;> omega
+
+/-- **the pattern loop** on a line whose emphases contain words, escapes and code spans -/
+theorem handleInlineTop_L1 (cfg : Inline.Cfg) (hE : EscOK cfg.esc) (hs : EscSup cfg.esc) (t0 : Str)
+    (segs : List Seg1) (st : St) (hok : Segs1OK segs) (hF : FSegsOK (flatten1 segs))
+    (hj : junctionsF t0 false (flatten1 segs)) (hu : UnderOK1 cfg.esc (lastW cfg.esc t0) segs)
+    (hplain : ∀ c, (c ∈ t0 ∨ ∃ s ∈ segs, c ∈ s.t) → c ≠ '&' ∧ c ≠ '\n') :
+    handleInlineTop cfg (escAll cfg.esc t0 ++ stageF cfg.esc false false 0 0 (flatten1 segs)) st =
+      some (resid cfg.esc (st.stash.length + (codesF (flatten1 segs)).length) t0 ++
+          stageL1 cfg.esc 3 (st.stash.length + (codesF (flatten1 segs)).length + escCount cfg.esc t0) st.stash.length
+            (st.stash.length + (codesF (flatten1 segs)).length + escCount cfg.esc t0 + escCountF cfg.esc (flatten1 segs))
+            (st.stash.length + (codesF (flatten1 segs)).length + escCount cfg.esc t0 + escCountF cfg.esc (flatten1 segs) +
+              (nodes1 1 cfg.esc (st.stash.length + (codesF (flatten1 segs)).length + escCount cfg.esc t0)
+                st.stash.length segs).length) segs,
+        { st with stash := st.stash ++ (codesF (flatten1 segs) ++ (stashOf cfg.esc t0 ++ stashOfF cfg.esc (flatten1 segs)) ++
+            nodes1 1 cfg.esc (st.stash.length + (codesF (flatten1 segs)).length + escCount cfg.esc t0) st.stash.length segs ++
+            nodes1 2 cfg.esc (st.stash.length + (codesF (flatten1 segs)).length + escCount cfg.esc t0) st.stash.length segs) }) := by
+  generalize hFl : flatten1 segs = F at *
+  generalize hraw : escAll cfg.esc t0 ++ stageF cfg.esc false false 0 0 F = raw
+  generalize hn0 : st.stash.length = n0
+  generalize hne : n0 + (codesF F).length = ne
+  generalize hm1 : ne + escCount cfg.esc t0 = m1
+  generalize hN1 : nodes1 1 cfg.esc m1 n0 segs = N1
+  generalize hN2 : nodes1 2 cfg.esc m1 n0 segs = N2
+  have hlen : escCount cfg.esc t0 + escCountF cfg.esc F + F.length ≤ raw.length := by
+    have h1 := escCount_le cfg.esc t0
+    have h2 := stageF_length cfg.esc F hF 0 0
+    rw [← hraw, List.length_append]; omega
+  have hcl := codesF_le F
+  have hnl : N1.length + N2.length ≤ F.length := by
+    have h1 := nodes1_length cfg.esc segs m1 n0
+    have h2 := flatten1_length segs
+    rw [hFl] at h2; rw [← hN1, ← hN2]; omega
+  obtain ⟨x, hx⟩ : ∃ x, loopFuel raw.length =
+      (((((((((((x + 1) + 1) + N2.length) + 1) + N1.length) + 1) + 11) + 1) +
+        escCountF cfg.esc F) + escCount cfg.esc t0) + 1) + (codesF F).length :=
+    ⟨loopFuel raw.length - (escCount cfg.esc t0 + escCountF cfg.esc F + (codesF F).length + N1.length + N2.length + 17), by
+      have := CodeLaw.loopFuel_ge raw.length; omega⟩
+  unfold handleInlineTop depthFuel
+  rw [show raw.length + 20 = ((raw.length + 18) + 1) + 1 from rfl]
+  unfold handleInline
+  rw [hx]
+  generalize hhi : (fun d p s => handleInline cfg ((raw.length + 18) + 1) d p s) = hi
+  rw [← hraw]
+  -- pattern 0
+  have e0 := code_passF cfg hi hE.bs hE.tick F [] t0 false 0 0 st
+    (((((((((((x + 1) + 1) + N2.length) + 1) + N1.length) + 1) + 11) + 1) +
+        escCountF cfg.esc F) + escCount cfg.esc t0) + 1) btOK_nil (by simp) hF hj
+  simp only [List.nil_append] at e0
+  rw [e0, hn0]
+  have hbt : btFind (escAll cfg.esc t0 ++ stageF cfg.esc true false 0 n0 F) 0 = none := by
+    simp only [btFind, show ¬ (0 > (escAll cfg.esc t0 ++ stageF cfg.esc true false 0 n0 F).length) by omega,
+      if_false, if_true, List.drop_zero]
+    have := btScan_stageF hE.bs hE.tick F [] t0 0 n0 none 0 btOK_nil (by simp) hF
+    simpa using this
+  rw [hiLoop_step _ _ _ 0 0 _ (by omega) _ _ _ _ (applyPattern_zero_none cfg _ _ _ hbt)]
+  simp only [Bool.false_eq_true, if_false, Nat.zero_add]
+  -- pattern 1
+  have e1 := escape_chunk cfg hi hE.bs (stageF cfg.esc true false 0 n0 F) t0 []
+    { st with stash := st.stash ++ codesF F }
+    (((((((((x + 1) + 1) + N2.length) + 1) + N1.length) + 1) + 11) + 1) + escCountF cfg.esc F) (by simp)
+  simp only [List.nil_append] at e1
+  rw [e1]
+  simp only [List.length_append, hn0, hne]
+  have hbs0 : '\\' ∉ resid cfg.esc ne t0 := bs_not_mem_resid hE.bs _ _
+  rw [esc_passF cfg hi hE.bs F _ _ _ _ _ hbs0 hF]
+  simp only [List.length_append, hn0, hne]
+  have hlen0 : (stashOf cfg.esc t0).length = escCount cfg.esc t0 := rfl
+  rw [hlen0, hm1, ← hFl, stageF_flatten1 cfg.esc segs m1 n0 0 0, hFl]
+  generalize hD1 : resid cfg.esc ne t0 ++ stageL1 cfg.esc 1 m1 n0 0 0 segs = D1
+  have hfacts : ∀ (lv : Nat) (a b c : Nat) (ch : Char),
+      ch ∈ resid cfg.esc ne t0 ++ stageL1 cfg.esc lv m1 a b c segs →
+      ch ≠ '\\' ∧ ch ≠ '[' ∧ ch ≠ '!' ∧ ch ≠ '&' ∧ ch ≠ '\n' ∧ (ch = '*' → lv ≤ 1) ∧ (ch = '_' → lv ≤ 2) := by
+    intro lv a b c ch hc
+    have hplainf : ∀ ch, (ch ∈ t0 ∨ ∃ s ∈ segs, ch ∈ s.t) → ch ∉ cfg.esc →
+        ch ≠ '\\' ∧ ch ≠ '[' ∧ ch ≠ '!' ∧ ch ≠ '&' ∧ ch ≠ '\n' ∧ (ch = '*' → lv ≤ 1) ∧ (ch = '_' → lv ≤ 2) := by
+      intro ch h hn
+      have := hplain ch h
+      exact ⟨fun e => hn (e ▸ hE.bs), fun e => hn (e ▸ hE.lbr), fun e => hn (e ▸ hE.bang), this.1, this.2,
+        fun e => absurd (e ▸ hE.star) hn, fun e => absurd (e ▸ hE.under) hn⟩
+    have hbody : ∀ ch, BodyCh ch →
+        ch ≠ '\\' ∧ ch ≠ '[' ∧ ch ≠ '!' ∧ ch ≠ '&' ∧ ch ≠ '\n' ∧ (ch = '*' → lv ≤ 1) ∧ (ch = '_' → lv ≤ 2) := by
+      intro ch h
+      have := bodyCh_facts h
+      exact ⟨this.2.2.2.1, this.2.2.2.2.1, this.2.2.2.2.2.1, this.2.2.2.2.2.2.1, this.2.2.2.2.2.2.2,
+        fun e => absurd e this.1, fun e => absurd e this.2.1⟩
+    rcases List.mem_append.1 hc with h | h
+    · rcases mem_resid h with ⟨h, hn⟩ | h
+      · exact hplainf ch (Or.inl h) hn
+      · exact hbody ch (Or.inr h)
+    · rcases mem_stageL1 hs lv segs _ _ _ _ hok h with h | ⟨s, hs', h, hn⟩ | ⟨s, hs', hcl', st', d, β, hk, hd, h⟩
+      · exact hbody ch h
+      · exact hplainf ch (Or.inr ⟨s, hs', h⟩) hn
+      · subst h
+        have hcls : s.k.cls = if ch = '*' then 1 else 2 := by rw [hk]; rfl
+        rcases hd with e | e <;> subst e
+        · refine ⟨by decide, by decide, by decide, by decide, by decide, fun _ => ?_, fun e => absurd e (by decide)⟩
+          simp at hcls; omega
+        · refine ⟨by decide, by decide, by decide, by decide, by decide, fun e => absurd e (by decide), fun _ => ?_⟩
+          simp at hcls; omega
+  have hbs1 : '\\' ∉ D1 := by
+    intro h; rw [← hD1] at h; exact (hfacts 1 _ _ _ _ h).1 rfl
+  rw [hiLoop_step _ _ _ 1 0 _ (by omega) _ _ _ _ (applyPattern_esc_none cfg hi D1 _ hbs1)]
+  simp only [Bool.false_eq_true, if_false]
+  -- patterns 2–12
+  have hmid : Mid D1 := by
+    intro c hc
+    rw [← hD1] at hc
+    have := hfacts 1 _ _ _ _ hc
+    exact ⟨this.2.1, this.2.2.1, this.2.2.2.1, this.2.2.2.2.1⟩
+  rw [show 1 + 1 = 2 from rfl, hiLoop_mid cfg hi D1 _ hmid _ 11 2 rfl (by omega)]
+  -- pattern 13
+  have hns : nsFind D1 0 = none := by
+    rw [← hD1]
+    simp only [nsFind, show ¬ (0 > (resid cfg.esc ne t0 ++ stageL1 cfg.esc 1 m1 n0 0 0 segs).length) by omega,
+      if_false, if_true, List.drop_zero]
+    rw [nsScan_text _ (resid_no_delim hE.star hE.under t0 ne)]
+    have := nsScan_stageL1 hs hE.star hE.under 1 segs m1 n0 0 0 (lastOr none (resid cfg.esc ne t0))
+      (0 + (resid cfg.esc ne t0).length) [] hok
+    simp only [List.append_nil] at this
+    rw [this]; rfl
+  rw [hiLoop_step _ _ _ 13 0 _ (by omega) _ _ _ _ (applyPattern_13 cfg hi D1 _ hns)]
+  simp only [Bool.false_eq_true, if_false]
+  -- pattern 14
+  have hs0 : '*' ∉ resid cfg.esc ne t0 := fun h => (resid_no_delim hE.star hE.under t0 ne _ h).1 rfl
+  have esp := star_pass1 cfg (raw.length + 18) hs hE.star hE.under segs (resid cfg.esc ne t0) [] m1 n0 0 0
+    { st with stash := st.stash ++ codesF F ++ stashOf cfg.esc t0 ++ stashOfF cfg.esc F }
+    ((((x + 1) + 1) + N2.length) + 1) hs0 hok
+  simp only [List.append_nil, hN1] at esp
+  rw [show 13 + 1 = 14 from rfl, ← hD1, ← hhi, esp]
+  rw [hhi]
+  simp only [List.length_append, hlen0, stashOfF_length, hn0, hne, hm1]
+  generalize hn1 : m1 + escCountF cfg.esc F = n1
+  have hstar2 : '*' ∉ resid cfg.esc ne t0 ++ stageL1 cfg.esc 2 m1 n0 n1 0 segs := by
+    intro h
+    have := (hfacts 2 _ _ _ _ h).2.2.2.2.2.1 rfl
+    omega
+  rw [hiLoop_step _ _ _ 14 0 _ (by omega) _ _ _ _
+    (applyPattern_em_none cfg hi 14 (Or.inl rfl) _ _ (by simpa using hstar2))]
+  simp only [Bool.false_eq_true, if_false]
+  -- pattern 15
+  have hu0 : '_' ∉ resid cfg.esc ne t0 := fun h => (resid_no_delim hE.star hE.under t0 ne _ h).2 rfl
+  have hpw : isW (lastOr none (resid cfg.esc ne t0)) = lastW cfg.esc t0 := by
+    rw [isW_lastOr_resid]
+    by_cases ht : t0 = []
+    · subst ht; rfl
+    · simp [ht]
+  have eup := under_pass1 cfg (raw.length + 18) hs hE.star hE.under segs (resid cfg.esc ne t0) m1 n0 n1 0
+    { st with stash := st.stash ++ codesF F ++ stashOf cfg.esc t0 ++ stashOfF cfg.esc F ++ N1 }
+    ((x + 1) + 1) hu0 hok (by rw [hpw]; exact hu)
+  simp only [hN2] at eup
+  rw [show 14 + 1 = 15 from rfl, ← hhi, eup]
+  rw [hhi]
+  simp only [List.length_append, hlen0, stashOfF_length, hn0, hne, hm1, hn1]
+  have hund3 : ∀ n2, '_' ∉ resid cfg.esc ne t0 ++ stageL1 cfg.esc 3 m1 n0 n1 n2 segs := by
+    intro n2 h
+    have := (hfacts 3 _ _ _ _ h).2.2.2.2.2.2 rfl
+    omega
+  rw [hiLoop_step _ _ _ 15 0 _ (by omega) _ _ _ _
+    (applyPattern_em_none cfg hi 15 (Or.inr rfl) _ _ (by simpa using hund3 _))]
+  simp only [Bool.false_eq_true, if_false]
+  simp only [hiLoop, patternCount, show ¬ (15 + 1 < 16) by omega, if_false]
+  simp [List.append_assoc]
+
+
+/-! ### 39. `__processPlaceholders` on such a line: the emphasis elements get their children -/
+
+/-- one turn of the loop at a placeholder whose stash entry is an element that `nested` turns into `nd'` -/
+theorem ppLoop_stepNodeG (S : List StashItem) (nested : Node → Option Node) (data : Str) (g start : Nat)
+    (rp : List Node × Node) (off : Nat) (id : Str) (phEnd : Nat) (nd nd' : Node) (h1 : start ≤ data.length)
+    (h2 : find phPrefix (data.drop start) = some off) (h3 : findPh data (start + off) = (some id, phEnd))
+    (h4 : stashGet S id = some (.node nd)) (h5 : nested nd = some nd') :
+    ppLoop S nested data false true (g + 1) start rp.1 rp.2 =
+      ppLoop S nested data false true g phEnd (nd' :: (lt (Inline.slice data start (start + off)) rp).1)
+        (lt (Inline.slice data start (start + off)) rp).2 := by
+  have hle : ¬ start > data.length := by omega
+  simp only [ppLoop, hle, if_false, h2, h3, Option.bind_some, h4, h5]
+  by_cases hi : start + off > 0
+  · simp [hi, lt]
+  · have h0 : start = 0 ∧ off = 0 := by omega
+    simp [h0.1, h0.2, Inline.slice, lt, linkText]
+
+theorem nextOK_nodeG (S : List StashItem) (nested : Node → Option Node) (g m : Nat) (Z' : Str) (nd nd' : Node)
+    (h1 : S[m]? = some (.node nd)) (h2 : nested nd = some nd') :
+    NextOK S nested (placeholder m ++ Z') (g + 1)
+      (fun pre st => ppLoop S nested (pre ++ placeholder m ++ Z') false true g (pre ++ placeholder m).length
+        (nd' :: st.1) st.2) := by
+  intro P' B' rp' hB
+  have hdata : P' ++ B' ++ (placeholder m ++ Z') = (P' ++ B') ++ placeholder m ++ Z' := by simp [List.append_assoc]
+  have hdrop : (P' ++ B' ++ placeholder m ++ Z').drop P'.length = B' ++ phPrefix ++ ((pad4 m ++ [ETX]) ++ Z') := by
+    rw [placeholder_eq]; simp [List.append_assoc]
+  have hfind : find phPrefix ((P' ++ B' ++ placeholder m ++ Z').drop P'.length) = some B'.length := by
+    rw [hdrop]; exact find_prefix_after B' _ hB
+  have hph := findPh_placeholder (P' ++ B') m Z'
+  rw [List.length_append] at hph
+  have hslice : Inline.slice (P' ++ B' ++ placeholder m ++ Z') P'.length (P'.length + B'.length) = B' := by
+    have : (P' ++ B' ++ placeholder m ++ Z').take (P'.length + B'.length) = P' ++ B' := by
+      rw [← List.length_append, List.append_assoc (P' ++ B')]; exact List.take_left' rfl
+    rw [Inline.slice, this]; simp
+  rw [hdata, ppLoop_stepNodeG S nested _ g P'.length rp' B'.length (pad4 m) _ nd nd' (by simp) hfind hph
+    (by rw [stashGet_pad4]; exact h1) h2, hslice]
+
+/-- `__processPlaceholders` on the residue of escaped text and code spans, with the stash entries wherever they are -/
+theorem pp_segs (esc : List Char) (S : List StashItem) (f : Nat) (hf : 0 < f) (t0 : Str) (segs : List SpanSeg)
+    (parent : Node) (hp1 : parent.text = none) (hp2 : parent.textAtomic = false) (m n : Nat)
+    (rest : List StashItem) (hdrop : S.drop m = stashOf esc t0 ++ stashOfSegs esc segs ++ rest)
+    (hst : SegStash S n segs) (ht0 : STX ∉ t0) (hsegs : ∀ s ∈ segs, STX ∉ s.t ∧ STX ∉ Code.codeEscape s.b)
+    (hne : t0 ≠ [] ∨ segs ≠ []) :
+    processPlaceholders S (f + 1) (resid esc m t0 ++ residSegs esc (m + escCount esc t0) n segs) false parent true =
+      some (segs.map (tailed esc), { parent with text := optStr (coded esc t0) }) := by
+  generalize hRR : resid esc m t0 ++ residSegs esc (m + escCount esc t0) n segs = R
+  have hRne : R.isEmpty = false := by
+    rw [← hRR]
+    rcases hne with h | h
+    · cases t0 with
+      | nil => exact absurd rfl h
+      | cons c r =>
+        by_cases hc : c ∈ esc
+        · simp only [resid, List.contains_eq_mem, hc, decide_true, if_true]
+          cases hx : placeholder m with
+          | nil => exact absurd hx (placeholder_ne_nil _)
+          | cons a b => simp
+        · simp [resid, hc]
+    · cases segs with
+      | nil => exact absurd rfl h
+      | cons s r =>
+        simp only [residSegs]
+        cases hx : placeholder n with
+        | nil => exact absurd hx (placeholder_ne_nil _)
+        | cons a b => cases resid esc m t0 <;> simp
+  unfold processPlaceholders
+  simp only [hRne, Bool.false_eq_true, if_false]
+  have hcost := costSegs_le esc segs t0 m n
+  rw [hRR] at hcost
+  obtain ⟨g, hg⟩ : ∃ g, R.length + 2 = g + costSegs esc t0 segs := ⟨R.length + 2 - costSegs esc t0 segs, by omega⟩
+  rw [hg]
+  have := ppLoop_segs esc S
+    (procNode fun d a p t_1 => processPlaceholders S f d a p t_1)
+    (fun x hx => procNode_codeSpan S f hf x hx)
+    segs [] t0 m n ([], parent) g rest ht0 hsegs hdrop hst
+  simp only [List.nil_append, List.length_nil] at this
+  rw [hRR] at this
+  rw [this]
+  have hlt : lt (coded esc t0) ([], parent) = ([], { parent with text := optStr (coded esc t0) }) := by
+    simp only [lt]; exact CodeLaw.linkText_text _ parent hp1 hp2
+  rw [hlt, foldSegs_closed]
+  simp
+
+/-- an emphasis element with its content: text, and the code spans as children -/
+def emFull (esc : List Char) (st : Bool) (β : Body0) : Node :=
+  { emEl st [] with text := optStr (coded esc β.u0), children := β.spans.map (tailed esc) }
+
+theorem isBlank_false_of_head {W : Str} (hne : W ≠ []) (hh : ∀ x, W.head? = some x → isSpace x = false) :
+    isBlank W = false := by
+  cases hb : isBlank W with
+  | false => rfl
+  | true =>
+    rw [isBlank_iff] at hb
+    cases W with
+    | nil => exact absurd rfl hne
+    | cons a b =>
+      have := hb a (by simp)
+      rw [hh a rfl] at this; cases this
+
+/-- an emphasis element comes out of the stash with its content resolved -/
+theorem procNode_em1 (esc : List Char) (hs : EscSup esc) (S : List StashItem) (f : Nat) (hf : 0 < f) (st : Bool)
+    (β : Body0) (hβ : Body0OK β) (m n0 : Nat) (rest : List StashItem)
+    (hdrop : S.drop m = stashOf esc β.u0 ++ stashOfSegs esc β.spans ++ rest) (hst : SegStash S n0 β.spans)
+    (hclean : ∀ s ∈ β.spans, STX ∉ Code.codeEscape s.b) :
+    procNode (fun d a p i => processPlaceholders S (f + 1) d a p i) (emEl st (body0R esc m n0 β)) =
+      some (emFull esc st β) := by
+  obtain ⟨hne, hch, hh, _⟩ := body0_facts hs β hβ m n0
+  have hstx : ∀ c, (c ∈ β.u0 ∨ ∃ s ∈ β.spans, c ∈ s.t) → c ≠ STX :=
+    fun c hc => (plainCh_facts (hβ.plain c hc)).2.2.2.2
+  unfold procNode
+  have h1 : petTail (fun d a p i => processPlaceholders S (f + 1) d a p i)
+      { emEl st (body0R esc m n0 β) with children := [] } = some (emEl st (body0R esc m n0 β), []) := by
+    simp [petTail, emEl, mkEl, Node.truthy]
+  simp only [h1]
+  have htr : Node.truthy (some (body0R esc m n0 β)) = true := by
+    cases hx : body0R esc m n0 β with
+    | nil => exact absurd hx hne
+    | cons a b => rfl
+  have hbl : blankOpt (some (body0R esc m n0 β)) = false := by
+    simp only [blankOpt, Option.getD_some]; exact isBlank_false_of_head hne hh
+  have hpp := pp_segs esc S f hf β.u0 β.spans
+    { emEl st (body0R esc m n0 β) with text := none, textAtomic := false } rfl rfl m n0 rest hdrop hst
+    (fun h => hstx _ (Or.inl h) rfl)
+    (fun s hs' => ⟨fun h => hstx _ (Or.inr ⟨s, hs', h⟩) rfl, hclean s hs'⟩) hβ.ne
+  have h2 : petText (fun d a p i => processPlaceholders S (f + 1) d a p i) (emEl st (body0R esc m n0 β)) =
+      some (emFull esc st β) := by
+    have e1 : (emEl st (body0R esc m n0 β)).text = some (body0R esc m n0 β) := rfl
+    have e2 : (emEl st (body0R esc m n0 β)).textAtomic = false := rfl
+    simp only [petText, e1, e2, htr, hbl, Bool.not_false, Bool.and_self, if_true, Option.getD_some]
+    have hpp' := hpp
+    simp only [body0R] at hpp' ⊢
+    rw [hpp']
+    simp [emFull, emEl, mkEl]
+  simp only [h2]
+  simp [procKids, emFull, emEl, mkEl]
+
+
+/-- the code elements of a line, in order (those inside emphasis included) -/
+def codes1 : List Seg1 → List StashItem
+  | [] => []
+  | ⟨.code _ b, _⟩ :: r => .node (codeSpan (Code.codeEscape b)) :: codes1 r
+  | ⟨.em _ _ β, _⟩ :: r => spanNodes β.spans ++ codes1 r
+
+/-- the escape codes of a line, in order -/
+def escs1 (esc : List Char) : List Seg1 → List StashItem
+  | [] => []
+  | ⟨.code _ _, t⟩ :: r => stashOf esc t ++ escs1 esc r
+  | ⟨.em _ _ β, t⟩ :: r => (stashOf esc β.u0 ++ stashOfSegs esc β.spans) ++ (stashOf esc t ++ escs1 esc r)
+
+theorem codesF_append (L1 L2 : List FSeg) : codesF (L1 ++ L2) = codesF L1 ++ codesF L2 := by
+  induction L1 with
+  | nil => rfl
+  | cons s r ih => cases hk : s.k <;> simp [codesF, hk, ih]
+
+theorem stashOfF_append (esc : List Char) (L1 L2 : List FSeg) :
+    stashOfF esc (L1 ++ L2) = stashOfF esc L1 ++ stashOfF esc L2 := by
+  induction L1 with
+  | nil => rfl
+  | cons s r ih => simp [stashOfF, ih]
+
+theorem flat_spansF (esc : List Char) (x t : Str) (spans : List SpanSeg) :
+    codesF (spansF x t spans) = spanNodes spans ∧
+    stashOfF esc (spansF x t spans) = stashOfSegs esc spans ++ stashOf esc t := by
+  induction spans with
+  | nil => simp [spansF, codesF, stashOfF, spanNodes, stashOfSegs]
+  | cons s r ih => simp [spansF, codesF, stashOfF, spanNodes, stashOfSegs, ih.2, List.append_assoc]; exact ih.1
+
+theorem flat_codes_escs (esc : List Char) (segs : List Seg1) :
+    codesF (flatten1 segs) = codes1 segs ∧ stashOfF esc (flatten1 segs) = escs1 esc segs := by
+  induction segs with
+  | nil => exact ⟨rfl, rfl⟩
+  | cons s r ih =>
+    obtain ⟨k, t⟩ := s
+    cases k with
+    | code n b => simp [flatten1, codesF, stashOfF, codes1, escs1, ih.1, ih.2]
+    | em st d β =>
+      obtain ⟨h1, h2⟩ := flat_spansF esc (dl st d) t β.spans
+      simp [flatten1, codesF, stashOfF, codesF_append, stashOfF_append, codes1, escs1, ih.1, ih.2, h1, h2,
+        List.append_assoc]
+
+/-- where the code elements are in the stash -/
+def CodeLay (S : List StashItem) : Nat → List Seg1 → Prop
+  | _, [] => True
+  | n0, s :: r =>
+    (match s.k with
+      | .code _ b => S[n0]? = some (.node (codeSpan (Code.codeEscape b)))
+      | .em _ _ β => SegStash S n0 β.spans) ∧ CodeLay S (n0 + s.k.codes) r
+
+theorem codeLay_ok (segs : List Seg1) :
+    ∀ (B X : List StashItem), CodeLay (B ++ codes1 segs ++ X) B.length segs := by
+  induction segs with
+  | nil => intro _ _; trivial
+  | cons s r ih =>
+    intro B X
+    obtain ⟨k, t⟩ := s
+    cases k with
+    | code n b =>
+      refine ⟨by simp [codes1], ?_⟩
+      have := ih (B ++ [.node (codeSpan (Code.codeEscape b))]) X
+      simpa [codes1, K1.codes, List.append_assoc] using this
+    | em st d β =>
+      refine ⟨?_, ?_⟩
+      · have := segStash_nodes B β.spans (codes1 r ++ X)
+        simpa [codes1, List.append_assoc] using this
+      · have := ih (B ++ spanNodes β.spans) X
+        simpa [codes1, K1.codes, spanNodes, List.append_assoc] using this
+
+/-- where the emphasis elements are in the stash -/
+def EmLay (esc : List Char) (S : List StashItem) : Nat → Nat → Nat → Nat → List Seg1 → Prop
+  | _, _, _, _, [] => True
+  | m, n0, n1, n2, s :: r =>
+    (match s.k with
+      | .code _ _ => True
+      | .em st d β => S[if d = '*' then n1 else n2]? = some (.node (emEl st (body0R esc m n0 β)))) ∧
+    EmLay esc S (m + s.k.esc esc + escCount esc s.t) (n0 + s.k.codes) (s.k.bump 1 n1) (s.k.bump 2 n2) r
+
+theorem emLay_ok (esc : List Char) (segs : List Seg1) :
+    ∀ (m n0 : Nat) (B C D : List StashItem),
+      EmLay esc (B ++ nodes1 1 esc m n0 segs ++ C ++ nodes1 2 esc m n0 segs ++ D) m n0 B.length
+        (B.length + (nodes1 1 esc m n0 segs).length + C.length) segs := by
+  induction segs with
+  | nil => intro _ _ _ _ _; trivial
+  | cons s r ih =>
+    intro m n0 B C D
+    obtain ⟨k, t⟩ := s
+    cases k with
+    | code n b =>
+      refine ⟨trivial, ?_⟩
+      have := ih (m + escCount esc t) (n0 + 1) B C D
+      simpa [nodes1, K1.esc, K1.codes, K1.bump, K1.cls] using this
+    | em st d β =>
+      by_cases hd : d = '*'
+      · subst hd
+        refine ⟨by simp [nodes1, K1.cls], ?_⟩
+        have := ih (m + body0Esc esc β + escCount esc t) (n0 + β.spans.length)
+          (B ++ [.node (emEl st (body0R esc m n0 β))]) C D
+        simp only [nodes1, K1.esc, K1.codes, K1.bump, K1.cls, if_true, show ¬ ((1 : Nat) = 2) by omega, if_false,
+          List.length_append, List.length_cons, List.length_nil, List.append_assoc, List.cons_append,
+          List.nil_append] at this ⊢
+        rw [show B.length + ((nodes1 1 esc (m + body0Esc esc β + escCount esc t) (n0 + β.spans.length) r).length + 1)
+            + C.length = B.length + (0 + 1) +
+              (nodes1 1 esc (m + body0Esc esc β + escCount esc t) (n0 + β.spans.length) r).length + C.length by omega,
+          show B.length + 1 = B.length + (0 + 1) by omega]
+        exact this
+      · refine ⟨?_, ?_⟩
+        · simp only [nodes1, K1.cls, hd, if_false, show ¬ ((2 : Nat) = 1) by omega, if_true, List.nil_append]
+          have hi : B.length + (nodes1 1 esc (m + (K1.em st d β).esc esc + escCount esc t)
+              (n0 + (K1.em st d β).codes) r).length + C.length =
+              (B ++ nodes1 1 esc (m + (K1.em st d β).esc esc + escCount esc t) (n0 + (K1.em st d β).codes) r ++ C).length := by
+            simp [Nat.add_assoc]
+          rw [hi, List.append_assoc _ _ D, List.getElem?_append_right (Nat.le_refl _)]
+          simp
+        · have := ih (m + body0Esc esc β + escCount esc t) (n0 + β.spans.length) B
+            (C ++ [.node (emEl st (body0R esc m n0 β))]) D
+          simp only [nodes1, K1.esc, K1.codes, K1.bump, K1.cls, hd, if_false, show ¬ ((2 : Nat) = 1) by omega, if_true,
+            List.length_append, List.length_cons, List.length_nil, List.append_assoc, List.cons_append,
+            List.nil_append] at this ⊢
+          rw [show B.length + (nodes1 1 esc (m + body0Esc esc β + escCount esc t) (n0 + β.spans.length) r).length +
+              C.length + 1 = B.length + (nodes1 1 esc (m + body0Esc esc β + escCount esc t) (n0 + β.spans.length) r).length +
+              (C.length + (0 + 1)) by omega]
+          exact this
+
+
+/-- the element an item becomes -/
+def kfin (esc : List Char) : K1 → Node
+  | .code _ b => codeSpan (Code.codeEscape b)
+  | .em st _ β => emFull esc st β
+
+/-- the element as it lies in the stash, before its content is resolved -/
+def kraw (esc : List Char) (m n0 : Nat) : K1 → Node
+  | .code _ b => codeSpan (Code.codeEscape b)
+  | .em st _ β => emEl st (body0R esc m n0 β)
+
+def idx1 (n0 n1 n2 : Nat) : K1 → Nat
+  | .code _ _ => n0
+  | .em _ d _ => if d = '*' then n1 else n2
+
+theorem itemL1_3 (esc : List Char) (m n0 n1 n2 : Nat) (k : K1) :
+    itemL1 esc 3 m n0 n1 n2 k = placeholder (idx1 n0 n1 n2 k) := by
+  cases k with
+  | code n b => rfl
+  | em st d β => simp [itemL1, K1.cls_lt3, idx1]
+
+/-- every item's stash entry is where its placeholder says, and `nested` resolves it -/
+def Lay1 (esc : List Char) (S : List StashItem) (nested : Node → Option Node) : Nat → Nat → Nat → Nat → List Seg1 → Prop
+  | _, _, _, _, [] => True
+  | m, n0, n1, n2, s :: r =>
+    (S[idx1 n0 n1 n2 s.k]? = some (.node (kraw esc m n0 s.k)) ∧ nested (kraw esc m n0 s.k) = some (kfin esc s.k)) ∧
+    Lay1 esc S nested (m + s.k.esc esc + escCount esc s.t) (n0 + s.k.codes) (s.k.bump 1 n1) (s.k.bump 2 n2) r
+
+def foldL1 (esc : List Char) : List Seg1 → List Node × Node → List Node × Node
+  | [], rp => rp
+  | s :: r, rp => foldL1 esc r (lt (coded esc s.t) (kfin esc s.k :: rp.1, rp.2))
+
+def costL1 (esc : List Char) : Str → List Seg1 → Nat
+  | t, [] => escCount esc t + 1
+  | t, s :: r => escCount esc t + 1 + costL1 esc s.t r
+
+def bodyEscs (esc : List Char) : K1 → List StashItem
+  | .code _ _ => []
+  | .em _ _ β => stashOf esc β.u0 ++ stashOfSegs esc β.spans
+
+theorem escs1_cons (esc : List Char) (s : Seg1) (r : List Seg1) :
+    escs1 esc (s :: r) = bodyEscs esc s.k ++ (stashOf esc s.t ++ escs1 esc r) := by
+  obtain ⟨k, t⟩ := s
+  cases k <;> simp [escs1, bodyEscs]
+
+theorem stashOfSegs_length (esc : List Char) (segs : List SpanSeg) :
+    (stashOfSegs esc segs).length = escCountSegs esc segs := by
+  induction segs with
+  | nil => rfl
+  | cons s r ih => simp [stashOfSegs, escCountSegs, escCount, ih]
+
+theorem bodyEscs_length (esc : List Char) (k : K1) : (bodyEscs esc k).length = k.esc esc := by
+  cases k with
+  | code _ _ => rfl
+  | em st d β => simp [bodyEscs, K1.esc, body0Esc, stashOfSegs_length, escCount]
+
+theorem ppLoop_L1 (esc : List Char) (S : List StashItem) (nested : Node → Option Node) (segs : List Seg1) :
+    ∀ (P t : Str) (m n0 n1 n2 : Nat) (rp : List Node × Node) (g : Nat) (rest : List StashItem), STX ∉ t →
+      (∀ s ∈ segs, STX ∉ s.t) →
+      S.drop m = stashOf esc t ++ escs1 esc segs ++ rest → Lay1 esc S nested (m + escCount esc t) n0 n1 n2 segs →
+      ppLoop S nested (P ++ resid esc m t ++ stageL1 esc 3 (m + escCount esc t) n0 n1 n2 segs) false true
+        (g + costL1 esc t segs) P.length rp.1 rp.2 =
+        some ((foldL1 esc segs (lt (coded esc t) rp)).1.reverse, (foldL1 esc segs (lt (coded esc t) rp)).2) := by
+  induction segs with
+  | nil =>
+    intro P t m n0 n1 n2 rp g rest ht _ hS _
+    have := ppLoop_seg esc S nested [] (g + 1) _ (nextOK_end S nested g) t P [] m rp (escs1 esc [] ++ rest)
+      (by simp) ht (by simpa [List.append_assoc] using hS)
+    simp only [List.append_nil, List.nil_append] at this
+    simp only [stageL1, List.append_nil, costL1, foldL1]
+    rw [show g + (escCount esc t + 1) = g + 1 + escCount esc t by omega, this]
+  | cons s r ih =>
+    intro P t m n0 n1 n2 rp g rest ht hsegs hS hst
+    have hs1 := hsegs s List.mem_cons_self
+    obtain ⟨⟨hst1, hst2⟩, hst3⟩ := hst
+    have hK := nextOK_nodeG S nested (g + costL1 esc s.t r) (idx1 n0 n1 n2 s.k)
+      (resid esc (m + escCount esc t + s.k.esc esc) s.t ++
+        stageL1 esc 3 (m + escCount esc t + s.k.esc esc + escCount esc s.t) (n0 + s.k.codes)
+          (s.k.bump 1 n1) (s.k.bump 2 n2) r)
+      _ _ hst1 hst2
+    have := ppLoop_seg esc S nested _ _ _ hK t P [] m rp (escs1 esc (s :: r) ++ rest)
+      (by simp) ht (by simpa [List.append_assoc] using hS)
+    simp only [List.append_nil, List.nil_append] at this
+    simp only [stageL1, itemL1_3, costL1, foldL1]
+    rw [show g + (escCount esc t + 1 + costL1 esc s.t r) = g + costL1 esc s.t r + 1 + escCount esc t by omega,
+      this]
+    have hS' : S.drop (m + escCount esc t + s.k.esc esc) = stashOf esc s.t ++ escs1 esc r ++ rest := by
+      have : S.drop (m + escCount esc t + s.k.esc esc) = ((S.drop m).drop (escCount esc t)).drop (s.k.esc esc) := by
+        rw [List.drop_drop, List.drop_drop, Nat.add_assoc]
+      rw [this, hS, escs1_cons]
+      have e1 : (stashOf esc t).length = escCount esc t := rfl
+      simp only [List.append_assoc]
+      rw [← e1, List.drop_left, ← bodyEscs_length esc s.k, List.drop_left]
+    have := ih (P ++ resid esc m t ++ placeholder (idx1 n0 n1 n2 s.k)) s.t (m + escCount esc t + s.k.esc esc)
+      (n0 + s.k.codes) (s.k.bump 1 n1) (s.k.bump 2 n2)
+      (kfin esc s.k :: (lt (coded esc t) rp).1, (lt (coded esc t) rp).2) g rest hs1
+      (fun x hx => hsegs x (List.mem_cons_of_mem _ hx)) hS' hst3
+    simp only [List.append_assoc] at this ⊢
+    exact this
+
+/-- an item's element with the text that follows it as its tail -/
+def tailed1 (esc : List Char) (s : Seg1) : Node := { kfin esc s.k with tail := optStr (coded esc s.t) }
+
+theorem lt_kfin (esc : List Char) (x : Str) (k : K1) (res : List Node) (par : Node) :
+    lt x (kfin esc k :: res, par) = ({ kfin esc k with tail := optStr x } :: res, par) := by
+  cases k with
+  | code n b => exact lt_code x _ res par
+  | em st d β =>
+    cases x with
+    | nil => simp [lt, linkText, optStr, kfin, emFull, emEl, mkEl]
+    | cons c r => simp [lt, linkText, optStr, kfin, emFull, emEl, mkEl, Node.truthy]
+
+theorem foldL1_closed (esc : List Char) (segs : List Seg1) :
+    ∀ (res : List Node) (par : Node), foldL1 esc segs (res, par) = ((segs.map (tailed1 esc)).reverse ++ res, par) := by
+  induction segs with
+  | nil => intro res par; rfl
+  | cons s r ih =>
+    intro res par
+    simp only [foldL1, lt_kfin, ih, List.map_cons, List.reverse_cons, List.append_assoc, List.singleton_append,
+      tailed1]
+
+theorem costL1_le (esc : List Char) (segs : List Seg1) :
+    ∀ (t : Str) (m m' n0 n1 n2 : Nat),
+      costL1 esc t segs ≤ (resid esc m t ++ stageL1 esc 3 m' n0 n1 n2 segs).length + 1 := by
+  induction segs with
+  | nil =>
+    intro t m m' n0 n1 n2
+    have := escCount_le_resid esc t m
+    simp only [costL1, stageL1, List.append_nil]; omega
+  | cons s r ih =>
+    intro t m m' n0 n1 n2
+    have h1 := escCount_le_resid esc t m
+    have h2 := ih s.t (m' + s.k.esc esc) (m' + s.k.esc esc + escCount esc s.t) (n0 + s.k.codes) (s.k.bump 1 n1)
+      (s.k.bump 2 n2)
+    have h3 := placeholder_length_pos (idx1 n0 n1 n2 s.k)
+    simp only [costL1, stageL1, itemL1_3, List.length_append] at h2 ⊢
+    omega
+
+
+/-- no STX in the code of an item -/
+def K1.clean : K1 → Prop
+  | .code _ b => STX ∉ Code.codeEscape b
+  | .em _ _ β => ∀ s ∈ β.spans, STX ∉ Code.codeEscape s.b
+
+theorem lay1_of (esc : List Char) (hs : EscSup esc) (S : List StashItem) (f : Nat) (hf : 0 < f) (segs : List Seg1) :
+    ∀ (m n0 n1 n2 : Nat) (rest : List StashItem), CodeLay S n0 segs → EmLay esc S m n0 n1 n2 segs →
+      S.drop m = escs1 esc segs ++ rest → Segs1OK segs → (∀ s ∈ segs, s.k.clean) →
+      Lay1 esc S (procNode fun d a p i => processPlaceholders S (f + 1) d a p i) m n0 n1 n2 segs := by
+  induction segs with
+  | nil => intro _ _ _ _ _ _ _ _ _ _; trivial
+  | cons s r ih =>
+    intro m n0 n1 n2 rest hc he hd hok hcl
+    have hd' : S.drop (m + s.k.esc esc + escCount esc s.t) = escs1 esc r ++ rest := by
+      have : S.drop (m + s.k.esc esc + escCount esc s.t) = ((S.drop m).drop (s.k.esc esc)).drop (escCount esc s.t) := by
+        rw [List.drop_drop, List.drop_drop, Nat.add_assoc]
+      rw [this, hd, escs1_cons]
+      have e1 : (stashOf esc s.t).length = escCount esc s.t := rfl
+      simp only [List.append_assoc]
+      rw [← bodyEscs_length esc s.k, List.drop_left, ← e1, List.drop_left]
+    refine ⟨?_, ih _ _ _ _ rest hc.2 he.2 hd' (fun x hx => hok x (List.mem_cons_of_mem _ hx))
+      (fun x hx => hcl x (List.mem_cons_of_mem _ hx))⟩
+    have hk := hok s List.mem_cons_self
+    have hc1 := hc.1
+    have he1 := he.1
+    have hcl1 := hcl s List.mem_cons_self
+    cases hkk : s.k with
+    | code n b =>
+      rw [hkk] at hc1 hcl1
+      exact ⟨hc1, procNode_codeSpan S (f + 1) (by omega) _ hcl1⟩
+    | em st d β =>
+      rw [hkk] at hc1 he1 hk hcl1
+      refine ⟨he1, ?_⟩
+      have hdb : S.drop m = stashOf esc β.u0 ++ stashOfSegs esc β.spans ++ (stashOf esc s.t ++ escs1 esc r ++ rest) := by
+        rw [hd, escs1_cons, hkk]; simp [bodyEscs, List.append_assoc]
+      exact procNode_em1 esc hs S f hf st β hk.2 m n0 _ hdb hc1 hcl1
+
+theorem stash1_pos (esc : List Char) (segs : List Seg1) (hne : segs ≠ []) (m n0 : Nat) :
+    0 < (codes1 segs).length + (nodes1 1 esc m n0 segs).length + (nodes1 2 esc m n0 segs).length := by
+  cases segs with
+  | nil => exact absurd rfl hne
+  | cons s r =>
+    obtain ⟨k, t⟩ := s
+    cases k with
+    | code n b => simp [codes1]; omega
+    | em st d β =>
+      by_cases hd : d = '*'
+      · simp [nodes1, K1.cls, hd]; omega
+      · simp [nodes1, K1.cls, hd]; omega
+
+/-- **`__processPlaceholders`** on the residue of such a line -/
+theorem ppTop_L1 (esc : List Char) (hs : EscSup esc) (S0 : List StashItem) (html : List Str)
+    (t0 : Str) (segs : List Seg1) (parent : Node) (hp1 : parent.text = none) (hp2 : parent.textAtomic = false)
+    (ht0 : STX ∉ t0) (hsegs : ∀ s ∈ segs, STX ∉ s.t) (hok : Segs1OK segs) (hcl : ∀ s ∈ segs, s.k.clean)
+    (hne : t0 ≠ [] ∨ segs ≠ []) :
+    ppTop { stash := S0 ++ (codes1 segs ++ (stashOf esc t0 ++ escs1 esc segs) ++
+              nodes1 1 esc (S0.length + (codes1 segs).length + escCount esc t0) S0.length segs ++
+              nodes1 2 esc (S0.length + (codes1 segs).length + escCount esc t0) S0.length segs), html := html }
+        (resid esc (S0.length + (codes1 segs).length) t0 ++
+          stageL1 esc 3 (S0.length + (codes1 segs).length + escCount esc t0) S0.length
+            (S0.length + (codes1 segs).length + escCount esc t0 + (escs1 esc segs).length)
+            (S0.length + (codes1 segs).length + escCount esc t0 + (escs1 esc segs).length +
+              (nodes1 1 esc (S0.length + (codes1 segs).length + escCount esc t0) S0.length segs).length)
+            segs) false parent true =
+      some (segs.map (tailed1 esc), { parent with text := optStr (coded esc t0) }) := by
+  generalize hm1 : S0.length + (codes1 segs).length + escCount esc t0 = m1
+  generalize hN1 : nodes1 1 esc m1 S0.length segs = N1
+  generalize hN2 : nodes1 2 esc m1 S0.length segs = N2
+  generalize hS : S0 ++ (codes1 segs ++ (stashOf esc t0 ++ escs1 esc segs) ++ N1 ++ N2) = S
+  have hlen0 : (stashOf esc t0).length = escCount esc t0 := rfl
+  have hdrop : S.drop (S0.length + (codes1 segs).length) =
+      stashOf esc t0 ++ escs1 esc segs ++ (N1 ++ N2) := by
+    rw [← hS]
+    have : S0 ++ (codes1 segs ++ (stashOf esc t0 ++ escs1 esc segs) ++ N1 ++ N2) =
+        (S0 ++ codes1 segs) ++ (stashOf esc t0 ++ escs1 esc segs ++ (N1 ++ N2)) := by
+      simp [List.append_assoc]
+    rw [this, ← List.length_append, List.drop_left]
+  have hdrop1 : S.drop m1 = escs1 esc segs ++ (N1 ++ N2) := by
+    have : S.drop m1 = (S.drop (S0.length + (codes1 segs).length)).drop (escCount esc t0) := by
+      rw [List.drop_drop, hm1]
+    rw [this, hdrop, List.append_assoc, ← hlen0, List.drop_left]
+  have hcode : CodeLay S S0.length segs := by
+    rw [← hS]
+    have := codeLay_ok segs S0 ((stashOf esc t0 ++ escs1 esc segs) ++ N1 ++ N2)
+    simpa [List.append_assoc] using this
+  have hem : EmLay esc S m1 S0.length (m1 + (escs1 esc segs).length) (m1 + (escs1 esc segs).length + N1.length) segs := by
+    have := emLay_ok esc segs m1 S0.length (S0 ++ codes1 segs ++ (stashOf esc t0 ++ escs1 esc segs)) [] []
+    simp only [hN1, hN2, List.append_nil, List.length_append, List.length_nil, Nat.add_zero] at this
+    rw [← hS]
+    have e : S0.length + (codes1 segs).length + ((stashOf esc t0).length + (escs1 esc segs).length) =
+        m1 + (escs1 esc segs).length := by rw [hlen0, ← hm1]; omega
+    rw [e] at this
+    simpa [List.append_assoc] using this
+  have hlay : Lay1 esc S (procNode fun d a p i => processPlaceholders S (S.length + 1) d a p i) m1 S0.length
+      (m1 + (escs1 esc segs).length) (m1 + (escs1 esc segs).length + N1.length) segs := by
+    by_cases hseg : segs = []
+    · subst hseg; trivial
+    · have hpos := stash1_pos esc segs hseg m1 S0.length
+      rw [hN1, hN2] at hpos
+      have hSl : 0 < S.length := by rw [← hS]; simp only [List.length_append]; omega
+      obtain ⟨f, hf⟩ : ∃ f, S.length = f + 1 := ⟨S.length - 1, by omega⟩
+      have hf0 : 0 < S.length := hSl
+      exact lay1_of esc hs S S.length hf0 segs m1 S0.length _ _ (N1 ++ N2) hcode hem hdrop1 hok hcl
+  generalize hRR : resid esc (S0.length + (codes1 segs).length) t0 ++
+      stageL1 esc 3 m1 S0.length (m1 + (escs1 esc segs).length) (m1 + (escs1 esc segs).length + N1.length) segs = R
+  have hRne : R.isEmpty = false := by
+    rw [← hRR]
+    rcases hne with h | h
+    · cases t0 with
+      | nil => exact absurd rfl h
+      | cons c r =>
+        by_cases hc : c ∈ esc
+        · simp only [resid, List.contains_eq_mem, hc, decide_true, if_true]
+          cases hx : placeholder (S0.length + (codes1 segs).length) with
+          | nil => exact absurd hx (placeholder_ne_nil _)
+          | cons a b => simp
+        · simp [resid, hc]
+    · cases segs with
+      | nil => exact absurd rfl h
+      | cons s r =>
+        simp only [stageL1, itemL1_3]
+        generalize idx1 _ _ _ s.k = k
+        cases hx : placeholder k with
+        | nil => exact absurd hx (placeholder_ne_nil _)
+        | cons a b => cases resid esc (S0.length + (codes1 (s :: r)).length) t0 <;> simp
+  simp only [ppTop]
+  rw [show S.length + 2 = (S.length + 1) + 1 from rfl]
+  unfold processPlaceholders
+  simp only [hRne, Bool.false_eq_true, if_false]
+  have hcost := costL1_le esc segs t0 (S0.length + (codes1 segs).length) m1 S0.length
+    (m1 + (escs1 esc segs).length) (m1 + (escs1 esc segs).length + N1.length)
+  rw [hRR] at hcost
+  obtain ⟨g, hg⟩ : ∃ g, R.length + 2 = g + costL1 esc t0 segs := ⟨R.length + 2 - costL1 esc t0 segs, by omega⟩
+  rw [hg]
+  have := ppLoop_L1 esc S
+    (procNode fun d a p t_1 => processPlaceholders S (S.length + 1) d a p t_1)
+    segs [] t0 (S0.length + (codes1 segs).length) S0.length (m1 + (escs1 esc segs).length)
+    (m1 + (escs1 esc segs).length + N1.length) ([], parent) g (N1 ++ N2) ht0 hsegs hdrop (by rw [hm1]; exact hlay)
+  simp only [List.nil_append, List.length_nil, hm1] at this
+  rw [hRR] at this
+  rw [this]
+  have hlt : lt (coded esc t0) ([], parent) = ([], { parent with text := optStr (coded esc t0) }) := by
+    simp only [lt]; exact CodeLaw.linkText_text _ parent hp1 hp2
+  rw [hlt, foldL1_closed]
+  simp
+
+
+/-! ### 40. such a line through the inline processor, prettify, unescape and the serializer -/
+
+def l1Src (esc : List Char) (tag : Str) (t0 : Str) (segs : List Seg1) : Node :=
+  { tag := .name tag, text := some (escAll esc t0 ++ stageF esc false false 0 0 (flatten1 segs)) }
+
+def l1Mid (esc : List Char) (tag : Str) (t0 : Str) (segs : List Seg1) : Node :=
+  { tag := .name tag, text := optStr (coded esc t0), children := segs.map (tailed1 esc) }
+
+theorem tailed1_code (esc : List Char) (n : Nat) (b t : Str) : tailed1 esc ⟨.code n b, t⟩ = tailed esc ⟨n, b, t⟩ := rfl
+
+theorem tailed1_tag_em (esc : List Char) (st : Bool) (d : Char) (β : Body0) (t : Str) :
+    (tailed1 esc ⟨.em st d β, t⟩).tag = (emEl st []).tag := rfl
+
+theorem bl_tailed1 (esc : List Char) (s : Seg1) :
+    TreeProc.isBlockLevel TreeProc.defaultBlockLevel (tailed1 esc s).tag = false := by
+  obtain ⟨k, t⟩ := s
+  cases k with
+  | code n b => exact bl_code'
+  | em st d β => rw [tailed1_tag_em]; exact bl_em _
+
+theorem prettifyKids_tailed1 (esc : List Char) (segs : List Seg1) :
+    TreeProc.prettifyKids TreeProc.defaultBlockLevel (segs.map (tailed1 esc)) = segs.map (tailed1 esc) := by
+  induction segs with
+  | nil => rfl
+  | cons s r ih =>
+    simp only [List.map_cons, TreeProc.prettifyKids, bl_tailed1 esc s, Bool.false_eq_true, if_false, ih]
+
+theorem mapTree_tailed1 (esc : List Char) (s : Seg1) :
+    TreeProc.mapTree TreeProc.preRule (TreeProc.mapTree TreeProc.brRule (tailed1 esc s)) = tailed1 esc s := by
+  obtain ⟨k, t⟩ := s
+  cases k with
+  | code n b =>
+    have := mapKids_tailed esc [⟨n, b, t⟩]
+    simp only [List.map_cons, List.map_nil, TreeProc.mapKids, List.cons.injEq, and_true] at this
+    rw [tailed1_code]; exact this
+  | em st d β =>
+    have hk := mapKids_tailed esc β.spans
+    have e : tailed1 esc ⟨.em st d β, t⟩ =
+        ⟨(emEl st []).tag, [], optStr (coded esc β.u0), false, β.spans.map (tailed esc), optStr (coded esc t), false⟩ := rfl
+    rw [e]
+    have hbr : ∀ n : Node, n.tag = (emEl st []).tag → TreeProc.tagIs n "br" = false := by
+      intro n hn; simp only [TreeProc.tagIs, hn]; cases st <;> decide
+    have hpre : ∀ n : Node, n.tag = (emEl st []).tag → TreeProc.tagIs n "pre" = false := by
+      intro n hn; simp only [TreeProc.tagIs, hn]; cases st <;> decide
+    have s1 : ∀ kids : List Node, TreeProc.brRule
+        ⟨(emEl st []).tag, [], optStr (coded esc β.u0), false, kids, optStr (coded esc t), false⟩ =
+        ⟨(emEl st []).tag, [], optStr (coded esc β.u0), false, kids, optStr (coded esc t), false⟩ := by
+      intro kids; unfold TreeProc.brRule
+      rw [hbr ⟨(emEl st []).tag, [], optStr (coded esc β.u0), false, kids, optStr (coded esc t), false⟩ rfl]; simp
+    have s2 : ∀ kids : List Node, TreeProc.preRule
+        ⟨(emEl st []).tag, [], optStr (coded esc β.u0), false, kids, optStr (coded esc t), false⟩ =
+        ⟨(emEl st []).tag, [], optStr (coded esc β.u0), false, kids, optStr (coded esc t), false⟩ := by
+      intro kids; unfold TreeProc.preRule
+      rw [hpre ⟨(emEl st []).tag, [], optStr (coded esc β.u0), false, kids, optStr (coded esc t), false⟩ rfl]; simp
+    rw [TreeProc.mapTree, s1, TreeProc.mapTree, s2, hk]
+
+theorem mapKids_tailed1 (esc : List Char) (segs : List Seg1) :
+    TreeProc.mapKids TreeProc.preRule (TreeProc.mapKids TreeProc.brRule (segs.map (tailed1 esc))) =
+      segs.map (tailed1 esc) := by
+  induction segs with
+  | nil => rfl
+  | cons s r ih => simp only [List.map_cons, TreeProc.mapKids, ih, mapTree_tailed1]
+
+def l1Pretty (esc : List Char) (tag : Str) (t0 : Str) (segs : List Seg1) : Node :=
+  { tag := .name tag, text := optStr (coded esc t0), children := segs.map (tailed1 esc), tail := some ['\n'] }
+
+theorem pretty_l1 (esc : List Char) (tag : Str) (htag : textTags.contains tag = true) (t0 : Str)
+    (segs : List Seg1) :
+    TreeProc.mapTree TreeProc.preRule (TreeProc.mapTree TreeProc.brRule
+      (TreeProc.prettifyETree TreeProc.defaultBlockLevel (l1Mid esc tag t0 segs))) =
+      l1Pretty esc tag t0 segs := by
+  have hf := tagFacts tag (List.mem_cons_of_mem _ (List.contains_iff_mem.1 htag))
+  have hbr : (Tag.name tag == Tag.name "br".toList) = false := by simpa using hf.2.2.2.1
+  have hpre : (Tag.name tag == Tag.name "pre".toList) = false := by simpa using hf.2.2.1
+  have hcode : (Tag.name tag == Tag.name "code".toList) = false := by simpa using hf.2.1
+  have h1 : TreeProc.prettifyETree TreeProc.defaultBlockLevel (l1Mid esc tag t0 segs) =
+      l1Pretty esc tag t0 segs := by
+    cases segs with
+    | nil => simp [l1Mid, l1Pretty, TreeProc.prettifyETree, TreeProc.prettifyKids, TreeProc.blankOrNone,
+        Node.truthy]
+    | cons s r =>
+      have hk := prettifyKids_tailed1 esc (s :: r)
+      simp only [List.map_cons] at hk
+      have hb := bl_tailed1 esc s
+      simp only [l1Mid, l1Pretty, TreeProc.prettifyETree, List.map_cons, hb, hk, Bool.and_false,
+        Bool.false_eq_true, if_false, hf.1, hcode, hpre, Bool.not_false, Bool.and_self, if_true,
+        TreeProc.blankOrNone, Node.truthy, Bool.true_or]
+  rw [h1]
+  simp only [l1Pretty, TreeProc.mapTree, TreeProc.brRule, TreeProc.preRule, TreeProc.tagIs, hbr, hpre,
+    Bool.false_eq_true, if_false, mapKids_tailed1]
+
+/-- the element after unescape -/
+def fin1 (s : Seg1) : Node :=
+  match s.k with
+  | .code _ b => { codeSpan (Code.codeEscape b) with tail := optStr s.t }
+  | .em st _ β => { emEl st [] with text := optStr β.u0, children := β.spans.map tailedFin, tail := optStr s.t }
+
+def l1Fin (tag : Str) (t0 : Str) (segs : List Seg1) : Node :=
+  { tag := .name tag, text := optStr t0, children := segs.map fin1, tail := some ['\n'] }
+
+theorem unescapeTree_tailed1 (esc : List Char) (s : Seg1) (hs : Inline.STX ∉ s.t)
+    (hb : ∀ st d β, s.k = .em st d β → Inline.STX ∉ β.u0 ∧ ∀ x ∈ β.spans, Inline.STX ∉ x.t) :
+    TreeProc.unescapeTree (tailed1 esc s) = some (fin1 s) := by
+  obtain ⟨k, t⟩ := s
+  cases k with
+  | code n b => exact unescapeTree_tailed esc ⟨n, b, t⟩ hs
+  | em st d β =>
+    obtain ⟨h0, hsp⟩ := hb st d β rfl
+    have hcode : ((emEl st []).tag == Tag.name "code".toList) = false := em_not_code st
+    have h1 := unescOpt_coded esc β.u0 h0
+    have h2 := unescOpt_coded esc t hs
+    have hk := unescapeKids_tailed esc β.spans hsp
+    have e : tailed1 esc ⟨.em st d β, t⟩ =
+        ⟨(emEl st []).tag, [], optStr (coded esc β.u0), false, β.spans.map (tailed esc), optStr (coded esc t), false⟩ := rfl
+    rw [e]
+    simp only [TreeProc.unescapeTree, hcode, Bool.not_false, Bool.and_true, h1, h2, hk, TreeProc.unescAttrs]
+    simp [fin1, emEl, mkEl]
+
+theorem unescapeKids_tailed1 (esc : List Char) (segs : List Seg1)
+    (hs : ∀ s ∈ segs, Inline.STX ∉ s.t ∧
+      ∀ st d β, s.k = .em st d β → Inline.STX ∉ β.u0 ∧ ∀ x ∈ β.spans, Inline.STX ∉ x.t) :
+    TreeProc.unescapeKids (segs.map (tailed1 esc)) = some (segs.map fin1) := by
+  induction segs with
+  | nil => rfl
+  | cons s r ih =>
+    obtain ⟨h1, h2⟩ := hs s List.mem_cons_self
+    simp only [List.map_cons, TreeProc.unescapeKids, unescapeTree_tailed1 esc s h1 h2,
+      ih (fun x hx => hs x (List.mem_cons_of_mem _ hx))]
+
+theorem unesc_l1 (esc : List Char) (tag : Str) (htag : textTags.contains tag = true) (t0 : Str)
+    (segs : List Seg1) (h0 : Inline.STX ∉ t0)
+    (hs : ∀ s ∈ segs, Inline.STX ∉ s.t ∧
+      ∀ st d β, s.k = .em st d β → Inline.STX ∉ β.u0 ∧ ∀ x ∈ β.spans, Inline.STX ∉ x.t) :
+    TreeProc.unescapeTree (l1Pretty esc tag t0 segs) = some (l1Fin tag t0 segs) := by
+  have hf := tagFacts tag (List.mem_cons_of_mem _ (List.contains_iff_mem.1 htag))
+  have hcode : (Tag.name tag == Tag.name "code".toList) = false := by simpa using hf.2.1
+  have hnl : TreeProc.unescapeText 0 ['\n'] = some ['\n'] := by decide
+  have h := unescOpt_coded esc t0 h0
+  have t1 : Node.truthy (some ['\n']) = true := rfl
+  simp only [l1Pretty, l1Fin, TreeProc.unescapeTree, hcode, Bool.not_false, Bool.and_true, h,
+    unescapeKids_tailed1 esc segs hs, TreeProc.unescAttrs, t1, if_true, Option.getD_some, hnl, Option.map_some]
+  by_cases ht : Node.truthy (optStr (coded esc t0)) = true <;> simp [ht]
+
+/-- the serialised element of an item -/
+def kout1 : K1 → Str
+  | .code _ b => "<code>".toList ++ Ser.escCdata (Code.codeEscape b) ++ "</code>".toList
+  | .em st _ β => '<' :: emTagS st ++ ['>'] ++ (Ser.escCdata β.u0 ++ outSegs β.spans) ++ ('<' :: '/' :: emTagS st ++ ['>'])
+
+theorem kout1_code (n : Nat) (b : Str) :
+    kout1 (.code n b) = "<code>".toList ++ Ser.escCdata (Code.codeEscape b) ++ "</code>".toList := rfl
+theorem kout1_em (st : Bool) (d : Char) (β : Body0) :
+    kout1 (.em st d β) =
+      '<' :: emTagS st ++ ['>'] ++ (Ser.escCdata β.u0 ++ outSegs β.spans) ++ ('<' :: '/' :: emTagS st ++ ['>']) := rfl
+
+def out1 : List Seg1 → Str
+  | [] => []
+  | s :: r => kout1 s.k ++ Ser.escCdata s.t ++ out1 r
+
+theorem out1_cons (s : Seg1) (r : List Seg1) : out1 (s :: r) = kout1 s.k ++ Ser.escCdata s.t ++ out1 r := rfl
+
+def l1Out (tag : Str) (t0 : Str) (segs : List Seg1) : Str :=
+  '<' :: tag ++ ['>'] ++ Ser.escCdata t0 ++ out1 segs ++ ('<' :: '/' :: tag ++ ['>'])
+
+theorem serialize_fin1 (s : Seg1) : Ser.serialize .xhtml (fin1 s) = kout1 s.k ++ Ser.escCdata s.t := by
+  obtain ⟨k, t⟩ := s
+  cases k with
+  | code n b => exact serialize_tailedFin ⟨n, b, t⟩
+  | em st d β =>
+    have e : fin1 ⟨.em st d β, t⟩ =
+        ⟨.name (emTagS st), [], optStr β.u0, false, β.spans.map tailedFin, optStr t, false⟩ := by
+      cases st <;> rfl
+    have h1 : Ser.isEmptyTag (emTagS st) = false := by cases st <;> decide
+    have h2 : Ser.isRawTextTag (emTagS st) = false := by cases st <;> decide
+    rw [e, serialize_plain _ _ _ _ _ _ _ h1 h2, kout1_em]
+    simp only [serializeList_tailed, optEsc]
+    simp [List.append_assoc]
+
+theorem serializeList_fin1 (segs : List Seg1) : Ser.serializeList .xhtml (segs.map fin1) = out1 segs := by
+  induction segs with
+  | nil => rfl
+  | cons s r ih => rw [List.map_cons, serializeList_cons, ih, serialize_fin1, out1_cons]
+
+theorem ser_l1 (tag : Str) (htag : textTags.contains tag = true) (t0 : Str) (segs : List Seg1) :
+    Ser.serialize .xhtml (l1Fin tag t0 segs) = l1Out tag t0 segs ++ ['\n'] := by
+  have hf := tagFacts tag (List.mem_cons_of_mem _ (List.contains_iff_mem.1 htag))
+  have hnot : tag ≠ "hr".toList := by
+    intro e
+    have : textTags.contains "hr".toList = false := by decide
+    rw [← e, htag] at this; cases this
+  have he : Ser.isEmptyTag tag = false := by rw [hf.2.2.2.2.2.1]; simpa using hnot
+  have e7 : Ser.escCdata ['\n'] = ['\n'] := by decide
+  have t1 : Node.truthy (some ['\n']) = true := rfl
+  simp only [l1Fin]
+  rw [serialize_plain _ _ _ _ _ _ _ he hf.2.2.2.2.1]
+  simp only [serializeList_fin1, optEsc, t1, if_true, Option.getD_some, e7, l1Out]
+  simp [List.append_assoc]
+
+
+/-! #### the inline processor visits the children of an emphasis again: nothing happens -/
+
+theorem find_phPrefix_escCode (c : Char) (X : Str) (h : find phPrefix X = none) :
+    find phPrefix (escCode c ++ X) = none := by
+  have hd : ∀ x ∈ natToDec c.toNat ++ [Inline.ETX], x ≠ Inline.STX := by
+    intro x hx
+    rcases List.mem_append.1 hx with hx | hx
+    · have := natToDec_digits c.toNat x hx
+      intro e; subst e; exact absurd this (by decide)
+    · have : x = Inline.ETX := by simpa using hx
+      subst this; decide
+  have hrest : find phPrefix ((natToDec c.toNat ++ [Inline.ETX]) ++ X) = none :=
+    find_append_none Inline.STX _ _ _ hd h
+  have e : escCode c ++ X = Inline.STX :: ((natToDec c.toNat ++ [Inline.ETX]) ++ X) := by
+    simp [escCode, List.append_assoc]
+  rw [e]
+  show find (Inline.STX :: "klzzwxh:".toList) _ = none
+  rw [find_cons_none_iff]
+  refine ⟨?_, hrest⟩
+  have hne := natToDec_ne_nil c.toNat
+  cases hx : natToDec c.toNat with
+  | nil => exact absurd hx hne
+  | cons a b =>
+    have ha := natToDec_digits c.toNat a (by rw [hx]; simp)
+    have : a ≠ 'k' := by intro e; subst e; exact absurd ha (by decide)
+    simp [startsWith, this]
+
+theorem find_phPrefix_coded (esc : List Char) (t : Str) (h : Inline.STX ∉ t) : find phPrefix (coded esc t) = none := by
+  induction t with
+  | nil => simp [coded, phPrefix]
+  | cons c r ih =>
+    have ihr := ih (fun hm => h (List.mem_cons_of_mem _ hm))
+    by_cases hc : c ∈ esc
+    · simp only [coded, List.contains_eq_mem, hc, decide_true, if_true]
+      exact find_phPrefix_escCode c _ ihr
+    · simp only [coded, List.contains_eq_mem, hc, decide_false, Bool.false_eq_true, if_false]
+      have hcs : c ≠ Inline.STX := fun e => h (e ▸ List.mem_cons_self)
+      exact find_append_none Inline.STX _ [c] _ (fun x hx => by
+        have : x = c := by simpa using hx
+        subst this; exact hcs) ihr
+
+theorem quiet_coded {esc : List Char} (hs : EscSup esc) (t : Str) (ht : ∀ x ∈ t, plainCh x) : Quiet (coded esc t) := by
+  induction t with
+  | nil => intro c hc; simp [coded] at hc
+  | cons a r ih =>
+    have ihr := ih (fun x hx => ht x (List.mem_cons_of_mem _ hx))
+    intro c hc
+    by_cases ha : a ∈ esc
+    · simp only [coded, List.contains_eq_mem, ha, decide_true, if_true, List.mem_append] at hc
+      rcases hc with hc | hc
+      · simp only [escCode, List.mem_cons, List.mem_append, List.not_mem_nil, or_false] at hc
+        rcases hc with (rfl | hc) | rfl
+        · decide
+        · have := natToDec_digits a.toNat c hc
+          refine ⟨?_, ?_, ?_, ?_, ?_, ?_, ?_⟩ <;> (intro e; subst e; exact absurd this (by decide))
+        · decide
+      · exact ihr c hc
+    · simp only [coded, List.contains_eq_mem, ha, decide_false, Bool.false_eq_true, if_false, List.mem_cons] at hc
+      rcases hc with rfl | hc
+      · rcases ht c List.mem_cons_self with h | h
+        · have := wordCh_facts h
+          exact ⟨this.2.2.1, this.2.2.2.1, this.2.2.2.2.1, this.2.2.2.2.2.2.2.1, this.2.2.2.2.2.2.1, this.1, this.2.1⟩
+        · exact absurd (hs c h) ha
+      · exact ihr c hc
+
+/-- `__processPlaceholders` on a tail in which no placeholder is found -/
+theorem ppTop_tail_nofind (st : St) (data : Str) (hne : data ≠ []) (hs : find phPrefix data = none) :
+    ppTop st data false (mkEl "d") false = some ([], { mkEl "d" with tail := some data, tailAtomic := false }) := by
+  obtain ⟨c, r, rfl⟩ : ∃ c r, data = c :: r := by cases data <;> simp_all
+  unfold ppTop
+  rw [show st.stash.length + 2 = (st.stash.length + 1) + 1 from rfl]
+  unfold processPlaceholders
+  simp only [List.isEmpty_cons, Bool.false_eq_true, if_false, List.length_cons]
+  rw [show r.length + 1 + 2 = (r.length + 2) + 1 from rfl]
+  unfold ppLoop
+  simp only [List.drop_zero, hs]
+  simp [linkText, Node.truthy, mkEl]
+
+/-- a code element with a tail in which nothing is left to do -/
+theorem still_codeTail (cfg : Inline.Cfg) (x tl : Str) (hq : Quiet tl) (hf : find phPrefix tl = none) :
+    Still cfg { codeSpan x with tail := optStr tl } := by
+  intro v
+  have t0 : Node.truthy none = false := rfl
+  cases tl with
+  | nil =>
+    unfold visitChild
+    simp [codeSpan, Node.el, optStr, t0]
+  | cons a b =>
+    have h1 := handleInlineTop_quiet cfg (a :: b) v.st hq
+    have h2 := ppTop_tail_nofind v.st (a :: b) (by simp) hf
+    have htr : Node.truthy (some (a :: b)) = true := rfl
+    unfold visitChild
+    simp [codeSpan, Node.el, optStr, htr, h1, h2]
+
+theorem still_tailed {cfg : Inline.Cfg} (hs : EscSup cfg.esc) (s : SpanSeg) (ht : ∀ x ∈ s.t, plainCh x) :
+    Still cfg (tailed cfg.esc s) :=
+  still_codeTail cfg _ _ (quiet_coded hs s.t ht)
+    (find_phPrefix_coded cfg.esc s.t (fun hm => (plainCh_facts (ht _ hm)).2.2.2.2 rfl))
+
+
+/-- what the inline stage adds to a stash of `n` entries -/
+def l1Items (esc : List Char) (t0 : Str) (segs : List Seg1) (n : Nat) : List StashItem :=
+  codes1 segs ++ (stashOf esc t0 ++ escs1 esc segs) ++
+    nodes1 1 esc (n + (codes1 segs).length + escCount esc t0) n segs ++
+    nodes1 2 esc (n + (codes1 segs).length + escCount esc t0) n segs
+
+/-- what the stages need of such a line -/
+structure L1TxtOK (esc : List Char) (tag t0 : Str) (segs : List Seg1) : Prop where
+  htag : textTags.contains tag = true
+  ok : Segs1OK segs
+  flat : FSegsOK (flatten1 segs)
+  junctions : junctionsF t0 false (flatten1 segs)
+  under : UnderOK1 esc (lastW esc t0) segs
+  plain : ∀ c, (c ∈ t0 ∨ ∃ s ∈ segs, c ∈ s.t) → c ≠ '&' ∧ c ≠ '\n' ∧ c ≠ Inline.STX
+  clean : ∀ s ∈ segs, s.k.clean
+  ne : t0 ≠ [] ∨ segs ≠ []
+
+theorem stageF_raw_ne (esc : List Char) (segs : List Seg1) (hF : FSegsOK (flatten1 segs)) (hne : segs ≠ []) :
+    stageF esc false false 0 0 (flatten1 segs) ≠ [] := by
+  have h1 := stageF_length esc (flatten1 segs) hF 0 0
+  have h2 := flatten1_length segs
+  intro e
+  rw [e] at h1
+  cases segs with
+  | nil => exact hne rfl
+  | cons s r =>
+    simp only [List.length_nil, List.length_cons] at h1 h2
+    omega
+
+theorem visitChild_L1 (cfg : Inline.Cfg) (hE : EscOK cfg.esc) (hs : EscSup cfg.esc) (tag t0 : Str) (segs : List Seg1)
+    (h : L1TxtOK cfg.esc tag t0 segs) (v : Visit) :
+    visitChild cfg (l1Src cfg.esc tag t0 segs) v =
+      some (l1Mid cfg.esc tag t0 segs, [],
+        { v with pushes := ((List.range segs.length).map (fun k => [v.done.length, k])).reverse ++ v.pushes,
+                 st := { v.st with stash := v.st.stash ++ l1Items cfg.esc t0 segs v.st.stash.length } }) := by
+  have hraw : escAll cfg.esc t0 ++ stageF cfg.esc false false 0 0 (flatten1 segs) ≠ [] := by
+    rcases h.ne with h' | h'
+    · have := escAll_ne_nil (esc := cfg.esc) h'
+      cases hx : escAll cfg.esc t0 with
+      | nil => exact absurd hx this
+      | cons a b => simp
+    · intro e
+      exact stageF_raw_ne cfg.esc segs h.flat h' (List.append_eq_nil_iff.1 e).2
+  obtain ⟨hc1, hc2⟩ := flat_codes_escs cfg.esc segs
+  have hlenE : escCountF cfg.esc (flatten1 segs) = (escs1 cfg.esc segs).length := by
+    rw [← stashOfF_length, hc2]
+  have h1 := handleInlineTop_L1 cfg hE hs t0 segs v.st h.ok h.flat h.junctions h.under
+    (fun c hc => ⟨(h.plain c hc).1, (h.plain c hc).2.1⟩)
+  rw [hc1, hc2, hlenE] at h1
+  have h2 := ppTop_L1 cfg.esc hs v.st.stash v.st.html t0 segs
+    { tag := .name tag } rfl rfl (fun hm => (h.plain _ (Or.inl hm)).2.2 rfl)
+    (fun s hs' hm => (h.plain _ (Or.inr ⟨s, hs', hm⟩)).2.2 rfl) h.ok h.clean h.ne
+  simp only [l1Src, visitChild, truthy_some hraw, Bool.not_false, Bool.and_self, if_true, Option.getD_some, h1]
+  rw [h2]
+  simp [l1Mid, l1Items, Node.truthy]
+
+/-- a `p`/`h1`–`h6` element of such a line, through the stages -/
+def l1Elem (esc : List Char) (tag t0 : Str) (segs : List Seg1) : Elem :=
+  ⟨l1Src esc tag t0 segs, l1Mid esc tag t0 segs, l1Items esc t0 segs,
+   fun i => ((List.range segs.length).map (fun k => [i, k])).reverse,
+   l1Pretty esc tag t0 segs, l1Fin tag t0 segs, l1Out tag t0 segs⟩
+
+theorem kfin_children (esc : List Char) (k : K1) :
+    (kfin esc k).children = match k with | .code _ _ => [] | .em _ _ β => β.spans.map (tailed esc) := by
+  cases k <;> rfl
+
+theorem body_plain_of_ok {k : K1} (h : K1OK k) :
+    ∀ st d β, k = .em st d β → ∀ c, (c ∈ β.u0 ∨ ∃ s ∈ β.spans, c ∈ s.t) → plainCh c := by
+  intro st d β hk c hc
+  subst hk
+  exact h.2.plain c hc
+
+theorem stx_not_mem_kout1 (k : K1) (hk : K1OK k) (hcl : k.clean) : Post.STX ∉ kout1 k := by
+  cases k with
+  | code n b =>
+    intro hm
+    have hm' : Post.STX ∈ "<code>".toList ++ Ser.escCdata (Code.codeEscape b) ++ "</code>".toList := hm
+    rcases List.mem_append.1 hm' with h | h
+    · rcases List.mem_append.1 h with h | h
+      · revert h; decide
+      · exact stx_not_mem_escCdata _ hcl h
+    · revert h; decide
+  | em st d β =>
+    intro hm
+    have htag : Post.STX ∉ emTagS st := by cases st <;> decide
+    have d1 : Post.STX ≠ '<' := by decide
+    have d2 : Post.STX ≠ '>' := by decide
+    have d3 : Post.STX ≠ '/' := by decide
+    have hu : Post.STX ∉ Ser.escCdata β.u0 :=
+      stx_not_mem_escCdata _ (fun hm => (plainCh_facts (hk.2.plain _ (Or.inl hm))).2.2.2.2 rfl)
+    have hsp : Post.STX ∉ outSegs β.spans := stx_not_mem_outSegs β.spans
+      (fun s hs => ⟨fun hm => (plainCh_facts (hk.2.plain _ (Or.inr ⟨s, hs, hm⟩))).2.2.2.2 rfl, hcl s hs⟩)
+    have hm' : Post.STX ∈ '<' :: emTagS st ++ ['>'] ++ (Ser.escCdata β.u0 ++ outSegs β.spans) ++
+        ('<' :: '/' :: emTagS st ++ ['>']) := hm
+    simp only [List.mem_append, List.mem_cons, List.not_mem_nil, d1, d2, d3, htag, hu, hsp, or_self, or_false,
+      false_or] at hm'
+
+theorem stx_not_mem_out1 (segs : List Seg1) (hok : Segs1OK segs) (hcl : ∀ s ∈ segs, s.k.clean)
+    (ht : ∀ s ∈ segs, Post.STX ∉ s.t) : Post.STX ∉ out1 segs := by
+  induction segs with
+  | nil => intro hm; cases hm
+  | cons s r ih =>
+    intro hm
+    rw [out1_cons] at hm
+    simp only [List.mem_append] at hm
+    rcases hm with (hm | hm) | hm
+    · exact stx_not_mem_kout1 s.k (hok s List.mem_cons_self) (hcl s List.mem_cons_self) hm
+    · exact stx_not_mem_escCdata _ (ht s List.mem_cons_self) hm
+    · exact ih (fun x hx => hok x (List.mem_cons_of_mem _ hx)) (fun x hx => hcl x (List.mem_cons_of_mem _ hx))
+        (fun x hx => ht x (List.mem_cons_of_mem _ hx)) hm
+
+theorem spansF_length (x t : Str) (sp : List SpanSeg) : (spansF x t sp).length = sp.length + 1 := by
+  induction sp with
+  | nil => simp [spansF]
+  | cons a b ih => simp only [spansF, List.length_cons, ih]
+
+theorem kids_le_flatten1 (esc : List Char) (segs : List Seg1) (s : Seg1) (hs : s ∈ segs) :
+    (tailed1 esc s).children.length ≤ (flatten1 segs).length := by
+  induction segs with
+  | nil => cases hs
+  | cons x r ih =>
+    have hx : (tailed1 esc x).children.length + 1 ≤ (flatten1 (x :: r)).length - (flatten1 r).length ∧
+        (flatten1 r).length ≤ (flatten1 (x :: r)).length := by
+      obtain ⟨kx, tx⟩ := x
+      cases kx with
+      | code n b => simp [flatten1, tailed1, kfin, codeSpan, Node.el]
+      | em st d β =>
+        simp only [flatten1, List.length_cons, List.length_append, spansF_length, tailed1, kfin, emFull,
+          List.length_map]
+        omega
+    rcases List.mem_cons.1 hs with e | e
+    · subst e; omega
+    · have := ih e; omega
+
+theorem below_tailed1 (esc : List Char) (s : Seg1) : below (tailed1 esc s) = (tailed1 esc s).children.length := by
+  rw [below_eq]
+  obtain ⟨k, t⟩ := s
+  cases k with
+  | code n b => rfl
+  | em st d β =>
+    have : (tailed1 esc ⟨.em st d β, t⟩).children = β.spans.map (tailed esc) := rfl
+    rw [this]
+    induction β.spans with
+    | nil => rfl
+    | cons a b ih =>
+      have ha : below (tailed esc a) = 0 := by rw [below_eq]; rfl
+      simp only [List.map_cons, belowKids, ha, ih, List.length_cons]
+      omega
+
+theorem weight_flatten1 (esc : List Char) (segs : List Seg1) :
+    ((segs.map (tailed1 esc)).map (fun c => 1 + below c)).sum ≤ (flatten1 segs).length := by
+  induction segs with
+  | nil => simp [flatten1]
+  | cons x r ih =>
+    have hb := below_tailed1 esc x
+    obtain ⟨kx, tx⟩ := x
+    cases kx with
+    | code n b =>
+      simp only [List.map_cons, List.sum_cons, flatten1, List.length_cons, hb]
+      have : (tailed1 esc ⟨.code n b, tx⟩).children.length = 0 := rfl
+      omega
+    | em st d β =>
+      have : (tailed1 esc ⟨.em st d β, tx⟩).children.length = β.spans.length := by
+        simp [tailed1, kfin, emFull]
+      simp only [List.map_cons, List.sum_cons, flatten1, List.length_cons, List.length_append, spansF_length, hb, this]
+      omega
+
+theorem l1Elem_ok (cfg : Inline.Cfg) (hE : EscOK cfg.esc) (hs : EscSup cfg.esc) (tag t0 : Str) (segs : List Seg1)
+    (h : L1TxtOK cfg.esc tag t0 segs) : ElemOK cfg (l1Elem cfg.esc tag t0 segs) where
+  visit := fun v => visitChild_L1 cfg hE hs tag t0 segs h v
+  pushBound := fun i => by
+    have h1 := stageF_length cfg.esc (flatten1 segs) h.flat 0 0
+    have h2 := flatten1_length segs
+    simp only [l1Elem, List.length_reverse, List.length_map, List.length_range, l1Src, Inline.size,
+      Option.getD_some, List.length_append, Inline.sizeList]
+    omega
+  weight := fun i => by
+    have h1 := stageF_length cfg.esc (flatten1 segs) h.flat 0 0
+    have h2 := weight_flatten1 cfg.esc segs
+    have hw := mStack_range_all (l1Mid cfg.esc tag t0 segs) i
+    have e1 : (l1Mid cfg.esc tag t0 segs).children = segs.map (tailed1 cfg.esc) := rfl
+    rw [e1, List.length_map] at hw
+    show mStack (l1Mid cfg.esc tag t0 segs) _ ≤ _
+    simp only [l1Elem]
+    rw [hw]
+    simp only [l1Src, Inline.size, Option.getD_some, List.length_append, Inline.sizeList]
+    omega
+  pushOk := fun i q hq => by
+    simp only [l1Elem, List.mem_reverse, List.mem_map, List.mem_range] at hq
+    obtain ⟨k, hk, rfl⟩ := hq
+    obtain ⟨s, hs'⟩ : ∃ s, segs[k]? = some s := by
+      cases hx : segs[k]? with
+      | none => rw [List.getElem?_eq_none_iff] at hx; omega
+      | some s => exact ⟨s, rfl⟩
+    have hsm : s ∈ segs := List.mem_of_getElem? hs'
+    refine ⟨[k], tailed1 cfg.esc s, rfl, ?_, stillBelow_of_childless cfg _ _ ?_ ?_⟩
+    · simp [l1Elem, l1Mid, getAt, hs']
+    · have h1 := stageF_length cfg.esc (flatten1 segs) h.flat 0 0
+      have hkids := kids_le_flatten1 cfg.esc segs s hsm
+      simp only [l1Elem, l1Src, Inline.size, Option.getD_some, List.length_append, Inline.sizeList]
+      omega
+    · intro c hc
+      obtain ⟨kk, t⟩ := s
+      cases kk with
+      | code n b => simp [tailed1, kfin, codeSpan, Node.el] at hc
+      | em st d β =>
+        have hc' : c ∈ β.spans.map (tailed cfg.esc) := hc
+        obtain ⟨sp, hsp, rfl⟩ := List.mem_map.1 hc'
+        have hk1 := h.ok _ hsm
+        exact ⟨still_tailed hs sp (fun x hx => hk1.2.plain x (Or.inr ⟨sp, hsp, hx⟩)), rfl⟩
+  block := (tagFacts tag (List.mem_cons_of_mem _ (List.contains_iff_mem.1 h.htag))).1
+  pretty := pretty_l1 cfg.esc tag h.htag t0 segs
+  unesc := unesc_l1 cfg.esc tag h.htag t0 segs (fun hm => (h.plain _ (Or.inl hm)).2.2 rfl)
+    (fun s hs' => ⟨fun hm => (h.plain _ (Or.inr ⟨s, hs', hm⟩)).2.2 rfl, fun st d β hk =>
+      ⟨fun hm => (plainCh_facts (body_plain_of_ok (h.ok s hs') st d β hk _ (Or.inl hm))).2.2.2.2 rfl,
+       fun x hx hm => (plainCh_facts (body_plain_of_ok (h.ok s hs') st d β hk _ (Or.inr ⟨x, hx, hm⟩))).2.2.2.2 rfl⟩⟩)
+  ser := ser_l1 tag h.htag t0 segs
+  outOk := by
+    have hf := tagFacts tag (List.mem_cons_of_mem _ (List.contains_iff_mem.1 h.htag))
+    refine ⟨?_, rfl, ?_⟩
+    · intro hm
+      simp only [l1Elem, l1Out, List.mem_append, List.mem_cons] at hm
+      have d1 : Post.STX ≠ '<' := by decide
+      have d2 : Post.STX ≠ '>' := by decide
+      have d3 : Post.STX ≠ '/' := by decide
+      have h7 := hf.2.2.2.2.2.2
+      have hE0 : Post.STX ∉ Ser.escCdata t0 :=
+        stx_not_mem_escCdata _ (fun hm' => (h.plain _ (Or.inl hm')).2.2 rfl)
+      have hEs : Post.STX ∉ out1 segs := stx_not_mem_out1 segs h.ok h.clean
+        (fun s hs' hm' => (h.plain _ (Or.inr ⟨s, hs', hm'⟩)).2.2 rfl)
+      rcases hm with (((h' | h' | h') | h') | h') | (h' | h' | h' | h') <;> simp_all
+    · have e : (l1Elem cfg.esc tag t0 segs).out =
+          ('<' :: tag ++ ['>'] ++ Ser.escCdata t0 ++ out1 segs ++ ('<' :: '/' :: tag)) ++ ['>'] := by
+        simp [l1Elem, l1Out]
+      rw [e, List.getLast?_append]; rfl
+
+
+/-! ### 41. the block parser on a line given by its flat view -/
+
+def FKind.src : FKind → Str
+  | .code n b => spanSrc n b
+  | .junk x => x
+
+/-- the source of a flat line -/
+def rawF (esc : List Char) : List FSeg → Str
+  | [] => []
+  | s :: r => s.k.src ++ (escAll esc s.t ++ rawF esc r)
+
+theorem stageF_raw (esc : List Char) (F : List FSeg) : ∀ m n0, stageF esc false false m n0 F = rawF esc F := by
+  induction F with
+  | nil => intro _ _; rfl
+  | cons s r ih =>
+    intro m n0
+    cases hk : s.k <;> simp [stageF, rawF, itemF, FKind.src, hk, ih]
+
+def lastTextF (t0 : Str) (F : List FSeg) : Str := (F.getLast?.map (·.t)).getD t0
+
+structure FLineOK (esc : List Char) (t0 : Str) (F : List FSeg) : Prop where
+  nl0 : '\n' ∉ t0
+  nls : ∀ s ∈ F, '\n' ∉ s.t ∧ '\n' ∉ s.k.src
+  ne : t0 ≠ [] ∨ F ≠ []
+  first : t0 ≠ [] → startsVisible t0 = true
+  start : t0 = [] → (∃ n b t r, F = ⟨.code n b, t⟩ :: r) ∨ EmStart (rawF esc F)
+  lastv : ∀ z, (lastTextF t0 F).getLast? = some z → isSpace z = false
+  ok : FSegsOK F
+  junk : ∀ s ∈ F, ∀ x, s.k = .junk x →
+    (∀ z, x.getLast? = some z → isSpace z = false ∧ z ≠ '#' ∧ z ≠ '\\') ∧
+    (∀ c, x.head? = some c → isSpace c = false ∧ isDecimal c = false ∧ c ≠ '.')
+
+theorem lastTextF_cons (t0 : Str) (s : FSeg) (r : List FSeg) : lastTextF t0 (s :: r) = lastTextF s.t r := by
+  cases r with
+  | nil => rfl
+  | cons a b =>
+    simp only [lastTextF, List.getLast?_cons_cons]
+    cases h : (a :: b).getLast? with
+    | none => exact absurd (List.getLast?_eq_none_iff.1 h) (by simp)
+    | some x => rfl
+
+theorem fsrc_ends (k : FKind) (hk : FKindOK k)
+    (hj : ∀ x, k = .junk x → ∀ z, x.getLast? = some z → isSpace z = false ∧ z ≠ '#' ∧ z ≠ '\\') :
+    ∃ z, k.src.getLast? = some z ∧ isSpace z = false ∧ z ≠ '#' ∧ z ≠ '\\' := by
+  cases k with
+  | code n b =>
+    obtain ⟨⟨j, hj'⟩, _⟩ := hk
+    exact ⟨'`', by rw [FKind.src, hj', spanSrc_last], by decide, by decide, by decide⟩
+  | junk x =>
+    obtain ⟨z, hz⟩ : ∃ z, x.getLast? = some z := by
+      cases hg : x.getLast? with
+      | none => exact absurd (List.getLast?_eq_none_iff.1 hg) hk.2
+      | some z => exact ⟨z, rfl⟩
+    exact ⟨z, hz, hj x rfl z hz⟩
+
+theorem flat_raw_last (esc : List Char) (F : List FSeg) :
+    ∀ (t0 : Str), FSegsOK F →
+      (∀ s ∈ F, ∀ x, s.k = .junk x → ∀ z, x.getLast? = some z → isSpace z = false ∧ z ≠ '#' ∧ z ≠ '\\') →
+      (∀ z, (lastTextF t0 F).getLast? = some z → isSpace z = false) →
+      ∀ d, (escAll esc t0 ++ rawF esc F).getLast? = some d → isSpace d = false := by
+  induction F with
+  | nil =>
+    intro t0 _ _ hl d hd
+    simp only [rawF, List.append_nil] at hd
+    cases t0 with
+    | nil => simp [escAll] at hd
+    | cons c r =>
+      rw [getLast_escAll esc (c :: r) (by simp)] at hd
+      exact hl d (by simpa [lastTextF] using hd)
+  | cons s r ih =>
+    intro t0 hn hj hl d hd
+    obtain ⟨z, hz, hzs, _, _⟩ := fsrc_ends s.k (hn s List.mem_cons_self) (hj s List.mem_cons_self)
+    have hsne : s.k.src ≠ [] := by intro e; rw [e] at hz; simp at hz
+    simp only [rawF] at hd
+    rw [List.getLast?_append] at hd
+    have hT : (s.k.src ++ (escAll esc s.t ++ rawF esc r)).getLast? ≠ none := by
+      intro e; rw [List.getLast?_eq_none_iff] at e
+      exact hsne (List.append_eq_nil_iff.1 e).1
+    cases hx : (s.k.src ++ (escAll esc s.t ++ rawF esc r)).getLast? with
+    | none => exact absurd hx hT
+    | some x =>
+      rw [hx] at hd
+      simp only [Option.some_or, Option.some.injEq] at hd
+      subst hd
+      rw [List.getLast?_append] at hx
+      cases hy : (escAll esc s.t ++ rawF esc r).getLast? with
+      | none =>
+        rw [hy, hz] at hx
+        simp at hx; subst hx; exact hzs
+      | some y =>
+        rw [hy] at hx
+        simp only [Option.some_or, Option.some.injEq] at hx
+        subst hx
+        have hl' : ∀ z, (lastTextF s.t r).getLast? = some z → isSpace z = false := by
+          intro z hz
+          apply hl z
+          rw [lastTextF_cons]; exact hz
+        exact ih s.t (fun x hx => hn x (List.mem_cons_of_mem _ hx)) (fun x hx => hj x (List.mem_cons_of_mem _ hx)) hl' y hy
+
+theorem walk_fsrc (k : FKind) (hk : FKindOK k)
+    (hj : ∀ x, k = .junk x → ∀ z, x.getLast? = some z → isSpace z = false ∧ z ≠ '#' ∧ z ≠ '\\')
+    (hnl : '\n' ∉ k.src) : Walk k.src := by
+  obtain ⟨z, hz, _, h1, h2⟩ := fsrc_ends k hk hj
+  apply hashHeader_walk _ _ (Nat.le_refl _) (by intro e; rw [e] at hz; simp at hz) hnl
+  intro z' hz'
+  rw [hz] at hz'
+  have : z = z' := by simpa using hz'
+  subst this; exact ⟨h1, h2⟩
+
+theorem walk_rawF {esc : List Char} (hE : EscOK esc) (F : List FSeg)
+    (h : ∀ s ∈ F, FKindOK s.k ∧ '\n' ∉ s.k.src ∧ '\n' ∉ s.t ∧
+      ∀ x, s.k = .junk x → ∀ z, x.getLast? = some z → isSpace z = false ∧ z ≠ '#' ∧ z ≠ '\\') : Walk (rawF esc F) := by
+  induction F with
+  | nil => exact walk_nil
+  | cons s r ih =>
+    obtain ⟨h1, h2, h3, h4⟩ := h s List.mem_cons_self
+    simp only [rawF]
+    exact walk_append (walk_fsrc s.k h1 h4 h2)
+      (walk_append (walk_escAll hE s.t h3) (ih (fun x hx => h x (List.mem_cons_of_mem _ hx))))
+
+theorem mem_rawF {esc : List Char} {F : List FSeg} {c : Char} (h : c ∈ rawF esc F) :
+    ∃ s ∈ F, c ∈ s.k.src ∨ c ∈ escAll esc s.t := by
+  induction F with
+  | nil => simp [rawF] at h
+  | cons s r ih =>
+    simp only [rawF, List.mem_append] at h
+    rcases h with h | h | h
+    · exact ⟨s, List.mem_cons_self, Or.inl h⟩
+    · exact ⟨s, List.mem_cons_self, Or.inr h⟩
+    · obtain ⟨x, hx, hc⟩ := ih h
+      exact ⟨x, List.mem_cons_of_mem _ hx, hc⟩
+
+theorem rawOK_flat {esc : List Char} (hE : EscOK esc) (t0 : Str) (F : List FSeg) (h : FLineOK esc t0 F) :
+    RawOK (escAll esc t0 ++ rawF esc F) where
+  shape := by
+    cases t0 with
+    | nil =>
+      rcases h.start rfl with ⟨n, b, t, r, hF⟩ | hem
+      · have hs := h.ok ⟨.code n b, t⟩ (by rw [hF]; simp)
+        obtain ⟨⟨j, hj⟩, _⟩ := hs
+        refine ⟨'`', ticks j ++ (padded b ++ ticks n) ++ (escAll esc t ++ rawF esc r), ?_, by decide, Or.inl (by decide)⟩
+        simp [escAll, hF, rawF, FKind.src, spanSrc, hj, ticks, List.replicate_succ, List.append_assoc]
+      · simp only [escAll, List.nil_append]
+        obtain ⟨d, m, x, tl, he, hd, h1, h2, hx1, hx2⟩ := hem
+        obtain ⟨m', rfl⟩ : ∃ m', m = m' + 1 := ⟨m - 1, by omega⟩
+        refine ⟨d, List.replicate m' d ++ x :: tl, by rw [he]; simp [List.replicate_succ], ?_,
+          Or.inr ⟨d, m' + 1, x, tl, he, hd, h1, h2, hx1, hx2⟩⟩
+        rcases hd with e | e <;> rw [e] <;> decide
+    | cons c r =>
+      have hv := h.first (by simp)
+      have hcs : isSpace c = false := by simpa [startsVisible] using hv
+      by_cases hc : c ∈ esc
+      · refine ⟨'\\', c :: escAll esc r ++ rawF esc F, by rw [escAll_cons_mem hc]; rfl, by decide,
+          Or.inl (by decide)⟩
+      · exact ⟨c, escAll esc r ++ rawF esc F, by rw [escAll_cons_not_mem hc]; rfl, hcs,
+          Or.inl (lineEsc_sub hE hc)⟩
+  nl := by
+    intro hm
+    rcases List.mem_append.1 hm with hm | hm
+    · rcases mem_escAll hm with e | hm
+      · exact absurd e (by decide)
+      · exact h.nl0 hm
+    · obtain ⟨s, hs, hc⟩ := mem_rawF hm
+      rcases hc with hc | hc
+      · exact (h.nls s hs).2 hc
+      · rcases mem_escAll hc with e | hc
+        · exact absurd e (by decide)
+        · exact (h.nls s hs).1 hc
+  last := flat_raw_last esc F t0 h.ok (fun s hs x hk => (h.junk s hs x hk).1) h.lastv
+  ol := by
+    apply olMarker_none_of
+    apply no_dot_after_digits hE.dot
+    intro c hc
+    cases hF : F with
+    | nil => rw [hF] at hc; simp [rawF] at hc
+    | cons s r =>
+      rw [hF] at hc
+      have hs := h.ok s (by rw [hF]; simp)
+      cases hk : s.k with
+      | code n b =>
+        rw [hk] at hs
+        obtain ⟨⟨j, hj⟩, _⟩ := hs
+        simp [rawF, hk, FKind.src, spanSrc, hj, ticks, List.replicate_succ] at hc
+        subst hc; exact ⟨by decide, by decide⟩
+      | junk x =>
+        rw [hk] at hs
+        have hj := (h.junk s (by rw [hF]; simp) x hk).2
+        cases x with
+        | nil => exact absurd rfl hs.2
+        | cons a x' =>
+          simp [rawF, hk, FKind.src] at hc
+          subst hc
+          have := hj a rfl
+          exact ⟨this.2.1, this.2.2⟩
+  walk := walk_append (walk_escAll hE t0 h.nl0)
+    (walk_rawF hE F (fun s hs => ⟨h.ok s hs, (h.nls s hs).2, (h.nls s hs).1, fun x hk => (h.junk s hs x hk).1⟩))
+
+
+/-! ### 42. such a paragraph or heading as a piece -/
+
+def l1Piece (esc : List Char) (g : List Str) (tag t0 : Str) (segs : List Seg1) : Piece2 :=
+  ⟨chunkB g (l1Src esc tag t0 segs), l1Elem esc tag t0 segs, l1Elem esc tag t0 segs⟩
+
+theorem l1Src_clean (esc : List Char) (tag : Str) (htag : textTags.contains tag = true) (t0 : Str)
+    (segs : List Seg1) :
+    isListTag (l1Src esc tag t0 segs) = false ∧ preCode (l1Src esc tag t0 segs) = none := by
+  have hmem : tag ∈ "hr".toList :: textTags := List.mem_cons_of_mem _ (List.contains_iff_mem.1 htag)
+  have key : ∀ tag ∈ "hr".toList :: textTags, tag ≠ "ul".toList ∧ tag ≠ "ol".toList ∧ tag ≠ "pre".toList := by decide
+  obtain ⟨a1, a2, a3⟩ := key _ hmem
+  have b1 : tag ≠ ['u', 'l'] := a1
+  have b2 : tag ≠ ['o', 'l'] := a2
+  have b3 : tag ≠ ['p', 'r', 'e'] := a3
+  constructor
+  · simp [l1Src, isListTag, Node.isTag, b1, b2]
+  · simp [l1Src, preCode, Node.isTag, b3]
+
+theorem escSup_generated : EscSup Generated.escapedChars := fun _ h => h
+
+theorem l1Piece_ok (g : List Str) (tag t0 : Str) (segs : List Seg1)
+    (hok : L1TxtOK Generated.escapedChars tag t0 segs) (hne : g ≠ [])
+    (hnel : noEmptyLineFrom true (joinLines g) = true)
+    (hprod : Produces 4 (joinLines g) (l1Src Generated.escapedChars tag t0 segs))
+    (hsafe : ∀ l ∈ g, lineSafe l = true ∧ '<' ∉ l ∧ refsClosed l = true)
+    (hvis : ∃ c ∈ joinLines g, isSpace c = false) :
+    Piece2OK {} (l1Piece Generated.escapedChars g tag t0 segs) where
+  bok := chunkB_ok 4 g _ hne hnel hprod (l1Src_clean _ tag hok.htag t0 segs).1
+    (l1Src_clean _ tag hok.htag t0 segs).2
+  safe := hsafe
+  vis := hvis
+  src := rfl
+  srcLast := rfl
+  eok := fun refs => l1Elem_ok { esc := Generated.escapedChars, refs := refs } escOK_generated escSup_generated
+    tag t0 segs hok
+  eokLast := fun refs => l1Elem_ok { esc := Generated.escapedChars, refs := refs } escOK_generated escSup_generated
+    tag t0 segs hok
+  out := rfl
+
+/-! ### 43. the printed form of content with emphasis around words, escapes and code spans -/
+
+theorem rawF_append (esc : List Char) (L1 L2 : List FSeg) : rawF esc (L1 ++ L2) = rawF esc L1 ++ rawF esc L2 := by
+  induction L1 with
+  | nil => rfl
+  | cons s r ih => simp [rawF, ih, List.append_assoc]
+
+theorem rawF_spansF (esc : List Char) (x t : Str) (spans : List SpanSeg) :
+    rawF esc (spansF x t spans) = rawSegs esc spans ++ (x ++ escAll esc t) := by
+  induction spans with
+  | nil => simp [spansF, rawF, FKind.src, rawSegs]
+  | cons s r ih => simp [spansF, rawF, FKind.src, rawSegs, ih, List.append_assoc]
+
+theorem rawF_flatten_code (esc : List Char) (n : Nat) (b t : Str) (r : List Seg1) :
+    rawF esc (flatten1 (⟨.code n b, t⟩ :: r)) = spanSrc n b ++ (escAll esc t ++ rawF esc (flatten1 r)) := by
+  simp [flatten1, rawF, FKind.src]
+
+theorem rawF_flatten_em (esc : List Char) (st : Bool) (d : Char) (β : Body0) (t : Str) (r : List Seg1) :
+    rawF esc (flatten1 (⟨.em st d β, t⟩ :: r)) =
+      dl st d ++ (escAll esc β.u0 ++ (rawSegs esc β.spans ++ (dl st d ++ (escAll esc t ++ rawF esc (flatten1 r))))) := by
+  simp [flatten1, rawF, FKind.src, rawF_append, rawF_spansF, List.append_assoc]
+
+/-- an item without its spelling -/
+inductive Q1
+  | code (b : Str)
+  | em (strong : Bool) (u0 : Str) (spans : List (Str × Str))
+
+def K1.q : K1 → Q1
+  | .code _ b => .code b
+  | .em st _ β => .em st β.u0 (β.spans.map (fun s => (s.b, s.t)))
+
+def splitDeep : List DocSpec.Inline → Str × List (Q1 × Str)
+  | [] => ([], [])
+  | .text w :: r => (w ++ (splitDeep r).1, (splitDeep r).2)
+  | .esc c :: r => (c :: (splitDeep r).1, (splitDeep r).2)
+  | .code b :: r => ([], (.code b, (splitDeep r).1) :: (splitDeep r).2)
+  | .em c :: r => ([], (.em false (splitSpans c).1 (splitSpans c).2, (splitDeep r).1) :: (splitDeep r).2)
+  | .strong c :: r => ([], (.em true (splitSpans c).1 (splitSpans c).2, (splitDeep r).1) :: (splitDeep r).2)
+  | _ :: r => splitDeep r
+
+theorem splitDeep_text (w : Str) (r : List DocSpec.Inline) :
+    splitDeep (.text w :: r) = (w ++ (splitDeep r).1, (splitDeep r).2) := by rw [splitDeep]
+theorem splitDeep_esc (ch : Char) (r : List DocSpec.Inline) :
+    splitDeep (.esc ch :: r) = (ch :: (splitDeep r).1, (splitDeep r).2) := by rw [splitDeep]
+theorem splitDeep_code (b : Str) (r : List DocSpec.Inline) :
+    splitDeep (.code b :: r) = ([], (.code b, (splitDeep r).1) :: (splitDeep r).2) := by rw [splitDeep]
+theorem splitDeep_em (c : List DocSpec.Inline) (r : List DocSpec.Inline) :
+    splitDeep (.em c :: r) = ([], (.em false (splitSpans c).1 (splitSpans c).2, (splitDeep r).1) :: (splitDeep r).2) := by
+  rw [splitDeep]
+theorem splitDeep_strong (c : List DocSpec.Inline) (r : List DocSpec.Inline) :
+    splitDeep (.strong c :: r) = ([], (.em true (splitSpans c).1 (splitSpans c).2, (splitDeep r).1) :: (splitDeep r).2) := by
+  rw [splitDeep]
+
+/-- well-formed content of an emphasis: words, escapes, code spans; visible at both ends -/
+def emBodyOK (c : List DocSpec.Inline) : Bool :=
+  spanItemsOK c && startsOk c && endsOk c && okAdjacents c && noBsBeforeCode c
+
+def deepItemsOK : List DocSpec.Inline → Bool
+  | [] => true
+  | .text w :: r => wfWords w && deepItemsOK r
+  | .esc c :: r => ESC.contains c && deepItemsOK r
+  | .code b :: r => wfCodeSpan b && noLt b && deepItemsOK r
+  | .em c :: r => emBodyOK c && deepItemsOK r
+  | .strong c :: r => emBodyOK c && deepItemsOK r
+  | _ :: _ => false
+
+theorem deepItems_ind {motive : List DocSpec.Inline → Prop} (nil : motive [])
+    (text : ∀ w r, wfWords w = true → deepItemsOK r = true → motive r → motive (.text w :: r))
+    (esc : ∀ ch r, ch ∈ ESC → deepItemsOK r = true → motive r → motive (.esc ch :: r))
+    (code : ∀ b r, wfCodeSpan b = true → noLt b = true → deepItemsOK r = true → motive r → motive (.code b :: r))
+    (em : ∀ c r, emBodyOK c = true → deepItemsOK r = true → motive r → motive (.em c :: r))
+    (strong : ∀ c r, emBodyOK c = true → deepItemsOK r = true → motive r → motive (.strong c :: r)) :
+    ∀ c, deepItemsOK c = true → motive c := by
+  intro c
+  induction c with
+  | nil => intro _; exact nil
+  | cons x r ih =>
+    intro h
+    cases x with
+    | text w =>
+      simp only [deepItemsOK, Bool.and_eq_true] at h
+      exact text w r h.1 h.2 (ih h.2)
+    | esc ch =>
+      simp only [deepItemsOK, Bool.and_eq_true] at h
+      exact esc ch r (List.contains_iff_mem.1 h.1) h.2 (ih h.2)
+    | code b =>
+      simp only [deepItemsOK, Bool.and_eq_true] at h
+      exact code b r h.1.1 h.1.2 h.2 (ih h.2)
+    | em l =>
+      simp only [deepItemsOK, Bool.and_eq_true] at h
+      exact em l r h.1 h.2 (ih h.2)
+    | strong l =>
+      simp only [deepItemsOK, Bool.and_eq_true] at h
+      exact strong l r h.1 h.2 (ih h.2)
+    | link _ _ _ => simp [deepItemsOK] at h
+    | image _ _ _ => simp [deepItemsOK] at h
+    | autolink _ => simp [deepItemsOK] at h
+    | br => simp [deepItemsOK] at h
+
+
+theorem spanItemsOK_of_wf_par (c : List DocSpec.Inline) (par : Par) (brOk : Bool) (hp : c.all isSpanItem = true)
+    (hw : wfInlineList false par brOk c = true) : spanItemsOK c = true := by
+  induction c with
+  | nil => rfl
+  | cons x r ih =>
+    simp only [List.all_cons, Bool.and_eq_true] at hp
+    simp only [wfInlineList, Bool.and_eq_true] at hw
+    have ihr := ih hp.2 hw.2
+    cases x with
+    | text w => simp only [wfInline] at hw; simp [spanItemsOK, hw.1, ihr]
+    | esc ch => simp only [wfInline] at hw; simp [spanItemsOK, List.contains_iff_mem.1 hw.1, ihr]
+    | code b => simp only [wfInline] at hw; simp only [isSpanItem] at hp; simp [spanItemsOK, hw.1, hp.1, ihr]
+    | em _ => simp [isSpanItem] at hp
+    | strong _ => simp [isSpanItem] at hp
+    | link _ _ _ => simp [isSpanItem] at hp
+    | image _ _ _ => simp [isSpanItem] at hp
+    | autolink _ => simp [isSpanItem] at hp
+    | br => simp [isSpanItem] at hp
+
+theorem deepItemsOK_of_wf (c : List DocSpec.Inline) (brOk : Bool) (hp : c.all isDeepItem = true)
+    (hw : wfInlineList false .none brOk c = true) : deepItemsOK c = true := by
+  induction c with
+  | nil => rfl
+  | cons x r ih =>
+    simp only [List.all_cons, Bool.and_eq_true] at hp
+    simp only [wfInlineList, Bool.and_eq_true] at hw
+    have ihr := ih hp.2 hw.2
+    cases x with
+    | text w => simp only [wfInline] at hw; simp [deepItemsOK, hw.1, ihr]
+    | esc ch => simp only [wfInline] at hw; simp [deepItemsOK, List.contains_iff_mem.1 hw.1, ihr]
+    | code b => simp only [wfInline] at hw; simp only [isDeepItem] at hp; simp [deepItemsOK, hw.1, hp.1, ihr]
+    | em l =>
+      have h1 := hw.1
+      have hp1 := hp.1
+      simp only [wfInline, wfRun, Bool.and_eq_true] at h1
+      simp only [isDeepItem, Bool.and_eq_true] at hp1
+      have hsp := spanItemsOK_of_wf_par l _ brOk hp1.1 h1.2
+      simp [deepItemsOK, emBodyOK, hsp, h1.1.2.1.1.1, h1.1.2.1.1.2, h1.1.2.1.2, hp1.2, ihr]
+    | strong l =>
+      have h1 := hw.1
+      have hp1 := hp.1
+      simp only [wfInline, wfRun, Bool.and_eq_true] at h1
+      simp only [isDeepItem, Bool.and_eq_true] at hp1
+      have hsp := spanItemsOK_of_wf_par l _ brOk hp1.1 h1.2
+      simp [deepItemsOK, emBodyOK, hsp, h1.1.2.1.1.1, h1.1.2.1.1.2, h1.1.2.1.2, hp1.2, ihr]
+    | link _ _ _ => simp [isDeepItem] at hp
+    | image _ _ _ => simp [isDeepItem] at hp
+    | autolink _ => simp [isDeepItem] at hp
+    | br => simp [isDeepItem] at hp
+
+/-- what the printer guarantees of an item's spelling -/
+def K1Printed : K1 → Prop
+  | .code n b => fenceOK n b
+  | .em _ d β => (d = '*' ∨ d = '_') ∧ ∀ s ∈ β.spans, fenceOK s.n s.b
+
+theorem underOK1_mono (esc : List Char) (segs : List Seg1) (h : UnderOK1 esc true segs) : UnderOK1 esc false segs := by
+  cases segs with
+  | nil => trivial
+  | cons s r => exact ⟨fun hd => absurd (h.1 hd).1 (by decide), h.2⟩
+
+theorem underOK1_of_pw (b : Bool) (t : Str) (segs : List Seg1) (h : UnderOK1 ESC (pwOf b t) segs) :
+    UnderOK1 ESC (lastW ESC t) segs := by
+  unfold pwOf at h; unfold lastW
+  cases ht : t.getLast? with
+  | some c => rw [ht] at h; exact h
+  | none =>
+    rw [ht] at h
+    cases b with
+    | true => exact h
+    | false => exact underOK1_mono _ _ h
+
+theorem q1_code_cls {k : K1} {b : Str} (h : k.q = .code b) : k.cls = 0 := by
+  cases k with
+  | code n b' => rfl
+  | em s d w => simp [K1.q] at h
+
+theorem nextNW1_of_boundary (r : List DocSpec.Inline) (h : deepItemsOK r = true) (endB : Bool)
+    (hb : nextBoundary endB r = true) (segs : List Seg1)
+    (hm : segs.map (fun s => (s.k.q, s.t)) = (splitDeep r).2) : nextNW1 ESC (splitDeep r).1 segs := by
+  cases r with
+  | nil =>
+    have : segs = [] := by simpa [splitDeep] using hm
+    subst this; trivial
+  | cons y r' =>
+    cases y with
+    | text w' =>
+      simp only [nextBoundary, startsBoundary, decide_eq_true_eq] at hb
+      cases w' with
+      | nil => simp at hb
+      | cons a w'' =>
+        have : a = ' ' := by simpa using hb
+        subst this
+        rw [splitDeep_text]
+        exact Or.inr (by decide)
+    | esc ch =>
+      simp only [deepItemsOK, Bool.and_eq_true] at h
+      rw [splitDeep_esc]
+      exact Or.inl (List.contains_iff_mem.1 h.1)
+    | code b =>
+      rw [splitDeep_code] at hm ⊢
+      cases segs with
+      | nil => simp at hm
+      | cons s' segs' =>
+        simp only [List.map_cons, List.cons.injEq, Prod.mk.injEq] at hm
+        show s'.k.cls ≠ 2
+        rw [q1_code_cls hm.1.1]; omega
+    | em _ => simp [nextBoundary, startsBoundary] at hb
+    | strong _ => simp [nextBoundary, startsBoundary] at hb
+    | link _ _ _ => simp [deepItemsOK] at h
+    | image _ _ _ => simp [deepItemsOK] at h
+    | autolink _ => simp [deepItemsOK] at h
+    | br => simp [deepItemsOK] at h
+
+def PrintsDeep (c : List DocSpec.Inline) : Prop :=
+  ∀ (prevB endB : Bool) (st : PSt), ∃ (segs : List Seg1) (st' : PSt),
+    printInlines none prevB endB c st = (escAll ESC (splitDeep c).1 ++ rawF ESC (flatten1 segs), st') ∧
+    st'.defs = st.defs ∧ segs.map (fun s => (s.k.q, s.t)) = (splitDeep c).2 ∧
+    (∀ s ∈ segs, K1Printed s.k) ∧ UnderOK1 ESC (pwOf prevB (splitDeep c).1) segs
+
+theorem printsDeep_em_step (strong : Bool) (c' : List DocSpec.Inline) (hc' : emBodyOK c' = true)
+    (r : List DocSpec.Inline) (hr : deepItemsOK r = true)
+    (ih : PrintsDeep r) (prevB endB : Bool) (st : PSt) (x : DocSpec.Inline)
+    (hx : x = (if strong then DocSpec.Inline.strong c' else DocSpec.Inline.em c')) :
+    ∃ (segs : List Seg1) (st' : PSt),
+      printInlines none prevB endB (x :: r) st = (rawF ESC (flatten1 segs), st') ∧
+      st'.defs = st.defs ∧
+      segs.map (fun s => (s.k.q, s.t)) =
+        (.em strong (splitSpans c').1 (splitSpans c').2, (splitDeep r).1) :: (splitDeep r).2 ∧
+      (∀ s ∈ segs, K1Printed s.k) ∧ UnderOK1 ESC (!prevB) segs := by
+  generalize hd : chooseDelim none (draw st).1 prevB (nextBoundary endB r) = d
+  have hdc := chooseDelim_cases (draw st).1 prevB (nextBoundary endB r)
+  rw [hd] at hdc
+  have hdd : d = '*' ∨ d = '_' := by rcases hdc with ⟨h, _⟩ | h; exact Or.inr h; exact Or.inl h
+  simp only [emBodyOK, Bool.and_eq_true] at hc'
+  obtain ⟨spans, st1, hps, hds, hms, hfs⟩ := printInlines_span c' hc'.1.1.1.1 (some d) (d = '*') (d = '*') (draw st).2
+  generalize hbody : escAll ESC (splitSpans c').1 ++ rawSegs ESC spans = body at hps
+  have hlast : ∀ X : Str, afterBoundary prevB (X ++ [d]) = !isWordCh d := fun X => afterBoundary_delims prevB d X
+  obtain ⟨segs, st', hp, hdf, hm, hpr, hu⟩ := ih (!isWordCh d) endB st1
+  refine ⟨⟨.em strong d ⟨(splitSpans c').1, spans⟩, (splitDeep r).1⟩ :: segs, st', ?_,
+    by rw [hdf, hds, draw_defs], by rw [List.map_cons, hm]; simp [K1.q, hms], ?_, ?_⟩
+  · subst hx
+    rw [rawF_flatten_em]
+    cases strong
+    · simp only [Bool.false_eq_true, if_false, printInlines, printInline, hd, hps]
+      have e : afterBoundary prevB (d :: body ++ [d]) = !isWordCh d := hlast (d :: body)
+      rw [e, hp, ← hbody]
+      simp [dl, List.append_assoc]
+    · simp only [if_true, printInlines, printInline, hd, hps]
+      have e : afterBoundary prevB (d :: d :: body ++ [d, d]) = !isWordCh d := by
+        have := hlast (d :: d :: body ++ [d])
+        simpa [List.append_assoc] using this
+      rw [e, hp, ← hbody]
+      simp [dl, List.append_assoc, List.replicate_succ]
+  · intro s hs
+    rcases List.mem_cons.1 hs with rfl | hs
+    · exact ⟨hdd, hfs⟩
+    · exact hpr s hs
+  · refine ⟨fun hcl => ?_, underOK1_of_pw _ _ _ hu⟩
+    have hdu : d = '_' := by
+      rcases hdd with e | e
+      · rw [e] at hcl; simp [K1.cls] at hcl
+      · exact e
+    rcases hdc with ⟨_, h1, h2⟩ | h
+    · exact ⟨by simp [h1], nextNW1_of_boundary r hr endB h2 segs hm⟩
+    · rw [hdu] at h; exact absurd h (by decide)
+
+
+/-- **the printed form** of content with emphasis around words, escapes and code spans -/
+theorem printInlines_deep (c : List DocSpec.Inline) (h : deepItemsOK c = true) : PrintsDeep c := by
+  revert h
+  refine deepItems_ind (motive := PrintsDeep) ?_ ?_ ?_ ?_ ?_ ?_ c
+  · intro prevB endB st
+    exact ⟨[], st, by simp [printInlines, splitDeep, rawF, flatten1, escAll], rfl, rfl, by simp, trivial⟩
+  · intro w r hw hr ih prevB endB st
+    simp only [wfWords, Bool.and_eq_true, Bool.not_eq_true', List.isEmpty_eq_false_iff] at hw
+    obtain ⟨segs, st', hp, hd, hm, hds, hu⟩ := ih (afterBoundary prevB w) endB st
+    refine ⟨segs, st', ?_, hd, by rw [splitDeep_text]; exact hm, hds, ?_⟩
+    · simp only [printInlines, printInline, hp, splitDeep_text]
+      rw [escAll_words w hw.1.2]; simp [List.append_assoc]
+    · rw [splitDeep_text]
+      simp only
+      rw [pwOf_append prevB w _ hw.1.1 hw.1.2]; exact hu
+  · intro ch r hch hr ih prevB endB st
+    obtain ⟨segs, st', hp, hd, hm, hds, hu⟩ := ih (afterBoundary prevB ['\\', ch]) endB st
+    refine ⟨segs, st', ?_, hd, by rw [splitDeep_esc]; exact hm, hds, ?_⟩
+    · simp only [printInlines, printInline, hp, splitDeep_esc]
+      rw [escAll_esc_cons ch hch]; simp
+    · rw [splitDeep_esc]
+      simp only
+      have hu' := underOK1_of_pw _ _ _ hu
+      unfold pwOf
+      cases ht : (splitDeep r).1 with
+      | nil =>
+        rw [ht] at hu'
+        simpa [hch, lastW] using hu'
+      | cons a b =>
+        rw [ht] at hu'
+        have : (ch :: a :: b).getLast? = (a :: b).getLast? := List.getLast?_cons_cons
+        rw [this]
+        obtain ⟨z, hz⟩ : ∃ z, (a :: b).getLast? = some z := by
+          cases hg : (a :: b).getLast? with
+          | none => exact absurd (List.getLast?_eq_none_iff.1 hg) (by simp)
+          | some z => exact ⟨z, rfl⟩
+        simp only [lastW, hz] at hu' ⊢
+        exact hu'
+  · intro b r hw hlt hr ih prevB endB st
+    have hL : longestTickRun b ≤ 2 := (wfCodeSpan_facts hw).2.2.2.2.1
+    generalize hn : longestTickRun b + 1 + (draw st).1 % (4 - (longestTickRun b + 1)) = n
+    have hnb : fenceOK n b := by
+      have : (draw st).1 % (4 - (longestTickRun b + 1)) < 4 - (longestTickRun b + 1) := Nat.mod_lt _ (by omega)
+      constructor <;> omega
+    obtain ⟨j, hj⟩ : ∃ j, n = j + 1 := ⟨n - 1, by have := hnb.1; omega⟩
+    have hab : afterBoundary prevB (rep n '`' ++ codePad b ++ b ++ codePad b ++ rep n '`') = true := by
+      have : rep n '`' ++ codePad b ++ b ++ codePad b ++ rep n '`' =
+          (rep n '`' ++ codePad b ++ b ++ codePad b ++ rep j '`') ++ ['`'] := by
+        rw [hj]; simp [rep, List.replicate_succ', List.append_assoc]
+      rw [this, afterBoundary_tick]
+    obtain ⟨segs, st', hp, hd, hm, hds, hu⟩ := ih true endB (draw st).2
+    refine ⟨⟨.code n b, (splitDeep r).1⟩ :: segs, st', ?_, by rw [hd, draw_defs],
+      by rw [List.map_cons, hm, splitDeep_code]; rfl, ?_, ?_⟩
+    · rw [rawF_flatten_code]
+      simp only [printInlines, printInline, hn, hab, hp, splitDeep_code]
+      simp [escAll, spanSrc, padded, rep, ticks, List.append_assoc]
+    · intro s hs
+      rcases List.mem_cons.1 hs with rfl | hs
+      · exact hnb
+      · exact hds s hs
+    · rw [splitDeep_code]
+      refine ⟨fun hcl => ?_, ?_⟩
+      · simp [K1.cls] at hcl
+      · rw [pwOf_true] at hu; exact hu
+  · intro c' r hc' hr ih prevB endB st
+    obtain ⟨segs, st', hp, hd, hm, hds, hu⟩ := printsDeep_em_step false c' hc' r hr ih prevB endB st _ rfl
+    refine ⟨segs, st', ?_, hd, by rw [splitDeep_em]; exact hm, hds, ?_⟩
+    · simp only [Bool.false_eq_true, if_false] at hp
+      rw [hp, splitDeep_em]; simp [escAll]
+    · rw [splitDeep_em]; exact hu
+  · intro c' r hc' hr ih prevB endB st
+    obtain ⟨segs, st', hp, hd, hm, hds, hu⟩ := printsDeep_em_step true c' hc' r hr ih prevB endB st _ rfl
+    refine ⟨segs, st', ?_, hd, by rw [splitDeep_strong]; exact hm, hds, ?_⟩
+    · simp only [if_true] at hp
+      rw [hp, splitDeep_strong]; simp [escAll]
+    · rw [splitDeep_strong]; exact hu
+
+
+/-! ### 44. from well-formed content to the facts the stages need -/
+
+/-- what well-formedness says of an item -/
+def Q1.ok : Q1 → Prop
+  | .code b => wfCodeSpan b = true ∧ noLt b = true
+  | .em _ u0 sp => ∃ c', emBodyOK c' = true ∧ u0 = (splitSpans c').1 ∧ sp = (splitSpans c').2
+
+theorem splitDeep_chars (c : List DocSpec.Inline) (h : deepItemsOK c = true) :
+    (∀ ch ∈ (splitDeep c).1, plainCh ch) ∧ ∀ q ∈ (splitDeep c).2, (∀ ch ∈ q.2, plainCh ch) ∧ q.1.ok := by
+  revert h
+  refine deepItems_ind (motive := fun c => (∀ ch ∈ (splitDeep c).1, plainCh ch) ∧
+    ∀ q ∈ (splitDeep c).2, (∀ ch ∈ q.2, plainCh ch) ∧ q.1.ok) ?_ ?_ ?_ ?_ ?_ ?_ c
+  · simp [splitDeep]
+  · intro w r hw _ ih
+    simp only [wfWords, Bool.and_eq_true] at hw
+    rw [splitDeep_text]
+    refine ⟨?_, ih.2⟩
+    intro ch hch
+    rcases List.mem_append.1 hch with hch | hch
+    · exact Or.inl (List.all_eq_true.1 hw.1.2 ch hch)
+    · exact ih.1 ch hch
+  · intro e r he _ ih
+    rw [splitDeep_esc]
+    refine ⟨?_, ih.2⟩
+    intro ch hch
+    rcases List.mem_cons.1 hch with rfl | hch
+    · exact Or.inr he
+    · exact ih.1 ch hch
+  · intro b r hw hlt _ ih
+    rw [splitDeep_code]
+    refine ⟨by simp, ?_⟩
+    intro q hq
+    rcases List.mem_cons.1 hq with rfl | hq
+    · exact ⟨ih.1, hw, hlt⟩
+    · exact ih.2 q hq
+  · intro c' r hc' _ ih
+    rw [splitDeep_em]
+    refine ⟨by simp, ?_⟩
+    intro q hq
+    rcases List.mem_cons.1 hq with rfl | hq
+    · exact ⟨ih.1, c', hc', rfl, rfl⟩
+    · exact ih.2 q hq
+  · intro c' r hc' _ ih
+    rw [splitDeep_strong]
+    refine ⟨by simp, ?_⟩
+    intro q hq
+    rcases List.mem_cons.1 hq with rfl | hq
+    · exact ⟨ih.1, c', hc', rfl, rfl⟩
+    · exact ih.2 q hq
+
+theorem splitDeep_nil_iff (c : List DocSpec.Inline) (h : deepItemsOK c = true) :
+    ((splitDeep c).1 = [] ∧ (splitDeep c).2 = []) ↔ c = [] := by
+  revert h
+  refine deepItems_ind (motive := fun c => ((splitDeep c).1 = [] ∧ (splitDeep c).2 = []) ↔ c = []) ?_ ?_ ?_ ?_ ?_ ?_ c
+  · simp [splitDeep]
+  · intro w r hw _ _
+    have : w ≠ [] := by intro e; subst e; simp [wfWords] at hw
+    rw [splitDeep_text]; simp [this]
+  · intro ch r _ _ _; rw [splitDeep_esc]; simp
+  · intro b r _ _ _ _; rw [splitDeep_code]; simp
+  · intro w r _ _ _; rw [splitDeep_em]; simp
+  · intro w r _ _ _; rw [splitDeep_strong]; simp
+
+theorem splitDeep_first (c : List DocSpec.Inline) (h : deepItemsOK c = true) :
+    startsOk c = true → (splitDeep c).1 ≠ [] → startsVisible (splitDeep c).1 = true := by
+  revert h
+  refine deepItems_ind (motive := fun c => startsOk c = true → (splitDeep c).1 ≠ [] →
+    startsVisible (splitDeep c).1 = true) ?_ ?_ ?_ ?_ ?_ ?_ c
+  · intro hs; simp [startsOk] at hs
+  · intro w r hw _ _ hs _
+    simp only [wfWords, Bool.and_eq_true, Bool.not_eq_true'] at hw
+    simp only [startsOk, bne_iff_ne, ne_eq] at hs
+    cases w with
+    | nil => simp at hw
+    | cons a b =>
+      have ha : isAlnumSp a = true := by
+        have := hw.1.2; simp only [List.all_cons, Bool.and_eq_true] at this; exact this.1
+      have : a ≠ ' ' := by simpa using hs
+      rw [splitDeep_text]
+      simp [startsVisible, alnum_visible a ha this]
+  · intro ch r hch _ _ _ _
+    rw [splitDeep_esc]
+    simp [startsVisible, (escChar_facts _ hch).2.2]
+  · intro b r _ _ _ _ _ hne; rw [splitDeep_code] at hne; exact absurd rfl hne
+  · intro w r _ _ _ _ hne; rw [splitDeep_em] at hne; exact absurd rfl hne
+  · intro w r _ _ _ _ hne; rw [splitDeep_strong] at hne; exact absurd rfl hne
+
+def lastTextDQ (p : Str × List (Q1 × Str)) : Str := (p.2.getLast?.map (·.2)).getD p.1
+
+theorem lastTextDQ_same (t t' : Str) (ss : List (Q1 × Str)) (hss : ss ≠ []) :
+    lastTextDQ (t, ss) = lastTextDQ (t', ss) := by
+  simp only [lastTextDQ]
+  cases hg : ss.getLast? with
+  | none => exact absurd (List.getLast?_eq_none_iff.1 hg) hss
+  | some q => rfl
+
+theorem lastTextDQ_cons (t : Str) (q : Q1 × Str) (ss : List (Q1 × Str)) :
+    lastTextDQ (t, q :: ss) = lastTextDQ (q.2, ss) := by
+  cases ss with
+  | nil => rfl
+  | cons a b =>
+    simp only [lastTextDQ, List.getLast?_cons_cons]
+    cases hg : (a :: b).getLast? with
+    | none => exact absurd (List.getLast?_eq_none_iff.1 hg) (by simp)
+    | some x => rfl
+
+theorem splitDeep_last (c : List DocSpec.Inline) (h : deepItemsOK c = true) :
+    endsOk c = true → ∀ z, (lastTextDQ (splitDeep c)).getLast? = some z → isSpace z = false := by
+  revert h
+  refine deepItems_ind (motive := fun c => endsOk c = true →
+    ∀ z, (lastTextDQ (splitDeep c)).getLast? = some z → isSpace z = false) ?_ ?_ ?_ ?_ ?_ ?_ c
+  · intro he; simp [endsOk] at he
+  · intro w r hw hr ih he z hz
+    rw [splitDeep_text] at hz
+    by_cases hss : (splitDeep r).2 = []
+    · simp only [lastTextDQ, hss, List.getLast?_nil, Option.map_none, Option.getD_none] at hz
+      by_cases ht : (splitDeep r).1 = []
+      · have hrn : r = [] := (splitDeep_nil_iff r hr).1 ⟨ht, hss⟩
+        subst hrn
+        simp only [ht, List.append_nil] at hz
+        simp only [endsOk, bne_iff_ne, ne_eq] at he
+        exact alnumSp_last_visible w hw he z hz
+      · have hrn : r ≠ [] := fun e => ht (by subst e; rfl)
+        apply ih (endsOk_cons_ne hrn he) z
+        simp only [lastTextDQ, hss, List.getLast?_nil, Option.map_none, Option.getD_none]
+        rw [List.getLast?_append] at hz
+        cases hx : (splitDeep r).1.getLast? with
+        | none => exact absurd (List.getLast?_eq_none_iff.1 hx) ht
+        | some q => rw [hx] at hz; simpa using hz
+    · have hrn : r ≠ [] := fun e => hss (by subst e; rfl)
+      apply ih (endsOk_cons_ne hrn he) z
+      rw [lastTextDQ_same _ (w ++ (splitDeep r).1) _ hss]
+      exact hz
+  · intro ch r hch hr ih he z hz
+    rw [splitDeep_esc] at hz
+    by_cases hss : (splitDeep r).2 = []
+    · simp only [lastTextDQ, hss, List.getLast?_nil, Option.map_none, Option.getD_none] at hz
+      by_cases ht : (splitDeep r).1 = []
+      · simp only [ht, List.getLast?_singleton, Option.some.injEq] at hz
+        subst hz
+        exact (escChar_facts _ hch).2.2
+      · have hrn : r ≠ [] := fun e => ht (by subst e; rfl)
+        apply ih (endsOk_cons_ne hrn he) z
+        simp only [lastTextDQ, hss, List.getLast?_nil, Option.map_none, Option.getD_none]
+        cases hx : (splitDeep r).1 with
+        | nil => exact absurd hx ht
+        | cons a b => rw [hx] at hz; simpa [List.getLast?_cons_cons] using hz
+    · have hrn : r ≠ [] := fun e => hss (by subst e; rfl)
+      apply ih (endsOk_cons_ne hrn he) z
+      rw [lastTextDQ_same _ (ch :: (splitDeep r).1) _ hss]
+      exact hz
+  · intro b r _ _ hr ih he z hz
+    rw [splitDeep_code, lastTextDQ_cons] at hz
+    by_cases hrn : r = []
+    · subst hrn; simp [splitDeep, lastTextDQ] at hz
+    · exact ih (endsOk_cons_ne hrn he) z hz
+  · intro w r _ hr ih he z hz
+    rw [splitDeep_em, lastTextDQ_cons] at hz
+    by_cases hrn : r = []
+    · subst hrn; simp [splitDeep, lastTextDQ] at hz
+    · exact ih (endsOk_cons_ne hrn he) z hz
+  · intro w r _ hr ih he z hz
+    rw [splitDeep_strong, lastTextDQ_cons] at hz
+    by_cases hrn : r = []
+    · subst hrn; simp [splitDeep, lastTextDQ] at hz
+    · exact ih (endsOk_cons_ne hrn he) z hz
+
+
+def Q1.isCode : Q1 → Bool
+  | .code _ => true
+  | _ => false
+
+def K1.isCode : K1 → Bool
+  | .code _ _ => true
+  | _ => false
+
+theorem q1_isCode (k : K1) : k.q.isCode = k.isCode := by cases k <;> rfl
+
+def junctionsDQ : Str → Bool → List (Q1 × Str) → Prop
+  | _, _, [] => True
+  | t, pc, q :: r => (q.1.isCode = true → t.getLast? ≠ some '\\' ∧ (pc = true → t ≠ [])) ∧ junctionsDQ q.2 q.1.isCode r
+
+theorem junctionsDQ_retext {t : Str} {pc : Bool} {L : List (Q1 × Str)} (h : junctionsDQ t pc L) (t' : Str) (pc' : Bool)
+    (h' : ∀ q r, L = q :: r → q.1.isCode = true → t'.getLast? ≠ some '\\' ∧ (pc' = true → t' ≠ [])) :
+    junctionsDQ t' pc' L := by
+  cases L with
+  | nil => trivial
+  | cons q r => exact ⟨fun hc => h' q r rfl hc, h.2⟩
+
+theorem startsCode_of_splitDeep (r : List DocSpec.Inline) (h : deepItemsOK r = true) (h1 : (splitDeep r).1 = [])
+    (q : Q1 × Str) (L : List (Q1 × Str)) (h2 : (splitDeep r).2 = q :: L) (hq : q.1.isCode = true) :
+    ∃ b r', r = .code b :: r' := by
+  revert h h1 h2
+  refine deepItems_ind (motive := fun r => (splitDeep r).1 = [] → (splitDeep r).2 = q :: L → ∃ b r', r = .code b :: r')
+    ?_ ?_ ?_ ?_ ?_ ?_ r
+  · intro _ h2; simp [splitDeep] at h2
+  · intro w r' hw _ _ h1 _
+    have : w ≠ [] := by intro e; subst e; simp [wfWords] at hw
+    rw [splitDeep_text] at h1; simp [this] at h1
+  · intro ch r' _ _ _ h1 _; rw [splitDeep_esc] at h1; simp at h1
+  · intro b r' _ _ _ _ _ _; exact ⟨b, r', rfl⟩
+  · intro w r' _ _ _ _ h2
+    rw [splitDeep_em] at h2
+    simp only [List.cons.injEq] at h2
+    rw [← h2.1] at hq; simp [Q1.isCode] at hq
+  · intro w r' _ _ _ _ h2
+    rw [splitDeep_strong] at h2
+    simp only [List.cons.injEq] at h2
+    rw [← h2.1] at hq; simp [Q1.isCode] at hq
+
+theorem splitDeep_junctions (c : List DocSpec.Inline) (h : deepItemsOK c = true) :
+    okAdjacents c = true → noBsBeforeCode c = true →
+      junctionsDQ (splitDeep c).1 false (splitDeep c).2 ∧
+      (startsCode c = false → junctionsDQ (splitDeep c).1 true (splitDeep c).2) := by
+  revert h
+  refine deepItems_ind (motive := fun c => okAdjacents c = true → noBsBeforeCode c = true →
+      junctionsDQ (splitDeep c).1 false (splitDeep c).2 ∧
+      (startsCode c = false → junctionsDQ (splitDeep c).1 true (splitDeep c).2)) ?_ ?_ ?_ ?_ ?_ ?_ c
+  · intro _ _; exact ⟨trivial, fun _ => trivial⟩
+  · intro w r hw hr ih ha hb
+    obtain ⟨i1, _⟩ := ih (okAdjacents_tail ha) (noBs_tail hb)
+    simp only [wfWords, Bool.and_eq_true, Bool.not_eq_true', List.isEmpty_eq_false_iff] at hw
+    rw [splitDeep_text]
+    have key : ∀ pc, junctionsDQ (w ++ (splitDeep r).1) pc (splitDeep r).2 := by
+      intro pc
+      apply junctionsDQ_retext i1
+      intro q L hL hq
+      refine ⟨?_, fun _ => by simp [hw.1.1]⟩
+      rw [List.getLast?_append]
+      cases ht : (splitDeep r).1.getLast? with
+      | none =>
+        simp only [Option.none_or]
+        intro hl
+        exact alnumSp_ne_bs (List.all_eq_true.1 hw.1.2 _ (List.mem_of_getLast? hl)) rfl
+      | some z =>
+        simp only [Option.some_or]
+        rw [hL] at i1
+        have := (i1.1 hq).1
+        rw [ht] at this; exact this
+    exact ⟨key false, fun _ => key true⟩
+  · intro ch r hch hr ih ha hb
+    obtain ⟨i1, _⟩ := ih (okAdjacents_tail ha) (noBs_tail hb)
+    rw [splitDeep_esc]
+    have key : ∀ pc, junctionsDQ (ch :: (splitDeep r).1) pc (splitDeep r).2 := by
+      intro pc
+      apply junctionsDQ_retext i1
+      intro q L hL hq
+      refine ⟨?_, fun _ => by simp⟩
+      cases ht : (splitDeep r).1 with
+      | nil =>
+        obtain ⟨b, r', hr'⟩ := startsCode_of_splitDeep r hr ht q L hL hq
+        subst hr'
+        simp only [noBsBeforeCode, Bool.and_eq_true, bne_iff_ne, ne_eq] at hb
+        simpa using hb.1
+      | cons a b =>
+        rw [hL, ht] at i1
+        have := (i1.1 hq).1
+        simpa [List.getLast?_cons_cons] using this
+    exact ⟨key false, fun _ => key true⟩
+  · intro b r _ _ hr ih ha hb
+    obtain ⟨_, i2⟩ := ih (okAdjacents_tail ha) (noBs_tail hb)
+    have hns : startsCode r = false := by
+      cases r with
+      | nil => rfl
+      | cons y r' =>
+        cases y <;> first | rfl | skip
+        rw [okAdjacents] at ha
+        simp [okAdjacent, isCodeSpan] at ha
+    rw [splitDeep_code]
+    refine ⟨⟨fun _ => ⟨by simp, fun e => absurd e (by decide)⟩, i2 hns⟩, fun e => ?_⟩
+    simp [startsCode] at e
+  · intro w r _ hr ih ha hb
+    obtain ⟨i1, _⟩ := ih (okAdjacents_tail ha) (noBs_tail hb)
+    rw [splitDeep_em]
+    exact ⟨⟨fun e => by simp [Q1.isCode] at e, i1⟩, fun _ => ⟨fun e => by simp [Q1.isCode] at e, i1⟩⟩
+  · intro w r _ hr ih ha hb
+    obtain ⟨i1, _⟩ := ih (okAdjacents_tail ha) (noBs_tail hb)
+    rw [splitDeep_strong]
+    exact ⟨⟨fun e => by simp [Q1.isCode] at e, i1⟩, fun _ => ⟨fun e => by simp [Q1.isCode] at e, i1⟩⟩
+
+/-- the junction conditions on the items: at top level, and inside every emphasis -/
+def junctions1 : Str → Bool → List Seg1 → Prop
+  | _, _, [] => True
+  | t, pc, s :: r =>
+    (s.k.isCode = true → t.getLast? ≠ some '\\' ∧ (pc = true → t ≠ [])) ∧
+    (∀ st d β, s.k = .em st d β → SegsOK β.spans ∧ (β.spans ≠ [] → β.u0.getLast? ≠ some '\\')) ∧
+    junctions1 s.t s.k.isCode r
+
+theorem junctionsF_spansF (x t : Str) (rest : List FSeg) (hrest : junctionsF t false rest) (spans : List SpanSeg) :
+    ∀ (u : Str) (pc : Bool), (spans ≠ [] → u.getLast? ≠ some '\\' ∧ (pc = true → u ≠ [])) → SegsOK spans →
+      junctionsF u pc (spansF x t spans ++ rest) := by
+  induction spans with
+  | nil => intro u pc _ _; exact ⟨fun e => by simp [FKind.isCode] at e, hrest⟩
+  | cons s r ih =>
+    intro u pc hu hok
+    obtain ⟨_, _, _, hnext, hr⟩ := hok
+    refine ⟨fun _ => hu (by simp), ?_⟩
+    exact ih s.t true (fun hrn => ⟨(hnext hrn).2, fun _ => (hnext hrn).1⟩) hr
+
+theorem junctionsF_flatten1 (segs : List Seg1) :
+    ∀ (t : Str) (pc : Bool), junctions1 t pc segs → junctionsF t pc (flatten1 segs) := by
+  induction segs with
+  | nil => intro _ _ _; trivial
+  | cons s r ih =>
+    intro t pc h
+    obtain ⟨k, t'⟩ := s
+    cases k with
+    | code n b => exact ⟨h.1, ih _ _ h.2.2⟩
+    | em st d β =>
+      obtain ⟨hsp, hu⟩ := h.2.1 st d β rfl
+      refine ⟨fun e => by simp [FKind.isCode] at e, ?_⟩
+      exact junctionsF_spansF (dl st d) t' (flatten1 r) (ih _ _ h.2.2) β.spans β.u0 false
+        (fun hne => ⟨hu hne, fun e => absurd e (by decide)⟩) hsp
+
+/-- the flat tokens are well shaped when the items are -/
+def K1Flat : K1 → Prop
+  | .code n b => FKindOK (.code n b)
+  | .em _ d β => (d = '*' ∨ d = '_') ∧ SegsOK β.spans
+
+theorem dl_plain (st : Bool) (d : Char) (hd : d = '*' ∨ d = '_') : noTickBs (dl st d) ∧ dl st d ≠ [] := by
+  refine ⟨?_, by cases st <;> simp [dl]⟩
+  intro c hc
+  have : c = d := List.eq_of_mem_replicate hc
+  rcases hd with e | e <;> rw [this, e] <;> exact ⟨by decide, by decide⟩
+
+theorem fsegsOK_spansF (x t : Str) (hx : noTickBs x ∧ x ≠ []) (spans : List SpanSeg) (h : SegsOK spans) :
+    FSegsOK (spansF x t spans) := by
+  induction spans with
+  | nil => intro s hs; simp [spansF] at hs; subst hs; exact hx
+  | cons s r ih =>
+    obtain ⟨h1, h2, h3, _, hr⟩ := h
+    intro y hy
+    simp only [spansF, List.mem_cons] at hy
+    rcases hy with rfl | hy
+    · exact ⟨h1, h2, h3⟩
+    · exact ih hr y hy
+
+theorem fsegsOK_flatten1 (segs : List Seg1) (h : ∀ s ∈ segs, K1Flat s.k) : FSegsOK (flatten1 segs) := by
+  induction segs with
+  | nil => intro s hs; cases hs
+  | cons s r ih =>
+    have ihr := ih (fun x hx => h x (List.mem_cons_of_mem _ hx))
+    have hs := h s List.mem_cons_self
+    obtain ⟨k, t⟩ := s
+    cases k with
+    | code n b =>
+      intro y hy
+      simp only [flatten1, List.mem_cons] at hy
+      rcases hy with rfl | hy
+      · exact hs
+      · exact ihr y hy
+    | em st d β =>
+      intro y hy
+      simp only [flatten1, List.mem_cons, List.mem_append] at hy
+      rcases hy with rfl | hy | hy
+      · exact dl_plain st d hs.1
+      · exact fsegsOK_spansF _ t (dl_plain st d hs.1) β.spans hs.2 y hy
+      · exact ihr y hy
+
+
+/-- everything the proofs use of well-formed content, about its split form -/
+structure DeepContentOK (c : List DocSpec.Inline) (t0 : Str) (segs : List Seg1) : Prop where
+  items : deepItemsOK c = true
+  run : wfRun .none c = true
+  nobs : noBsBeforeCode c = true
+  t0eq : t0 = (splitDeep c).1
+  smap : segs.map (fun s => (s.k.q, s.t)) = (splitDeep c).2
+  printed : ∀ s ∈ segs, K1Printed s.k
+  under : UnderOK1 ESC (lastW ESC t0) segs
+
+theorem mem_segs_splitDeep {c : List DocSpec.Inline} {t0 : Str} {segs : List Seg1} (h : DeepContentOK c t0 segs)
+    {s : Seg1} (hs : s ∈ segs) : (s.k.q, s.t) ∈ (splitDeep c).2 := by
+  rw [← h.smap]; exact List.mem_map.2 ⟨s, hs, rfl⟩
+
+/-- the content of an emphasis is content in the sense of rung B -/
+theorem body_content (st : Bool) (d : Char) (β : Body0) (hq : (K1.em st d β).q.ok) (hp : K1Printed (.em st d β)) :
+    ∃ c', ContentOK c' β.u0 β.spans := by
+  obtain ⟨c', hc', h1, h2⟩ := hq
+  simp only [emBodyOK, Bool.and_eq_true] at hc'
+  refine ⟨c', hc'.1.1.1.1, ?_, hc'.2, h1, h2, hp.2⟩
+  simp [wfRun, hc'.1.1.1.2, hc'.1.1.2, hc'.1.2]
+
+theorem item_facts (k : K1) (hq : k.q.ok) (hp : K1Printed k) :
+    K1OK k ∧ K1Flat k ∧ k.clean ∧
+      (∀ st d β, k = .em st d β → SegsOK β.spans ∧ (β.spans ≠ [] → β.u0.getLast? ≠ some '\\')) := by
+  cases k with
+  | code n b =>
+    obtain ⟨hw, hlt⟩ := hq
+    obtain ⟨_, hpr, _⟩ := wfCodeSpan_facts hw
+    refine ⟨trivial, padded_ok n b hw hp, ?_, fun st d β e => by cases e⟩
+    intro hm
+    rcases mem_codeEscape hm with hm | hm
+    · exact (printable_facts (hpr _ hm)).2.2.2.1 rfl
+    · revert hm; decide
+  | em st d β =>
+    obtain ⟨c', hc⟩ := body_content st d β hq hp
+    obtain ⟨f1, f2, f3, f4, f5⟩ := hc.facts
+    refine ⟨⟨hp.1, f3, f2.ne, f2.first, f2.lastv⟩, ⟨hp.1, f1⟩, ?_, ?_⟩
+    · intro s hs hm
+      obtain ⟨_, hpr, _⟩ := wfCodeSpan_facts (f4 s hs).1
+      rcases mem_codeEscape hm with hm | hm
+      · exact (printable_facts (hpr _ hm)).2.2.2.1 rfl
+      · revert hm; decide
+    · intro st' d' β' e
+      cases e
+      exact ⟨f1, f5⟩
+
+theorem junctions1_of (segs : List Seg1) :
+    ∀ (t : Str) (pc : Bool), junctionsDQ t pc (segs.map (fun s => (s.k.q, s.t))) →
+      (∀ s ∈ segs, ∀ st d β, s.k = .em st d β → SegsOK β.spans ∧ (β.spans ≠ [] → β.u0.getLast? ≠ some '\\')) →
+      junctions1 t pc segs := by
+  induction segs with
+  | nil => intro _ _ _ _; trivial
+  | cons s r ih =>
+    intro t pc h hem
+    simp only [List.map_cons, junctionsDQ, q1_isCode] at h
+    exact ⟨h.1, hem s List.mem_cons_self, ih _ _ h.2 (fun x hx => hem x (List.mem_cons_of_mem _ hx))⟩
+
+/-- a property of every token of the flat view follows from the property item by item -/
+theorem forall_flatten1 (P : FSeg → Prop) (segs : List Seg1)
+    (h : ∀ s ∈ segs, match s.k with
+      | .code n b => P ⟨.code n b, s.t⟩
+      | .em st d β => P ⟨.junk (dl st d), β.u0⟩ ∧ P ⟨.junk (dl st d), s.t⟩ ∧ ∀ sp ∈ β.spans, P ⟨.code sp.n sp.b, sp.t⟩) :
+    ∀ tok ∈ flatten1 segs, P tok := by
+  induction segs with
+  | nil => intro tok ht; cases ht
+  | cons s r ih =>
+    have ihr := ih (fun x hx => h x (List.mem_cons_of_mem _ hx))
+    have hs := h s List.mem_cons_self
+    obtain ⟨k, t⟩ := s
+    cases k with
+    | code n b =>
+      intro tok ht
+      simp only [flatten1, List.mem_cons] at ht
+      rcases ht with rfl | ht
+      · exact hs
+      · exact ihr tok ht
+    | em st d β =>
+      obtain ⟨h1, h2, h3⟩ := hs
+      have hsp : ∀ (sp : List SpanSeg), (∀ x ∈ sp, P ⟨.code x.n x.b, x.t⟩) → ∀ tok ∈ spansF (dl st d) t sp, P tok := by
+        intro sp hsp
+        induction sp with
+        | nil => intro tok ht; simp [spansF] at ht; subst ht; exact h2
+        | cons a b ih2 =>
+          intro tok ht
+          simp only [spansF, List.mem_cons] at ht
+          rcases ht with rfl | ht
+          · exact hsp a List.mem_cons_self
+          · exact ih2 (fun x hx => hsp x (List.mem_cons_of_mem _ hx)) tok ht
+      intro tok ht
+      simp only [flatten1, List.mem_cons, List.mem_append] at ht
+      rcases ht with rfl | ht | ht
+      · exact h1
+      · exact hsp β.spans h3 tok ht
+      · exact ihr tok ht
+
+theorem lastTextF_spansF (x t u : Str) (rest : List FSeg) (spans : List SpanSeg) :
+    lastTextF u (spansF x t spans ++ rest) = lastTextF t rest := by
+  induction spans generalizing u with
+  | nil => simp only [spansF, List.cons_append, List.nil_append]; rw [lastTextF_cons]
+  | cons s r ih => simp only [spansF, List.cons_append]; rw [lastTextF_cons]; exact ih s.t
+
+theorem lastTextF_flatten1 (segs : List Seg1) : ∀ t0, lastTextF t0 (flatten1 segs) = (segs.getLast?.map (·.t)).getD t0 := by
+  induction segs with
+  | nil => intro t0; rfl
+  | cons s r ih =>
+    intro t0
+    obtain ⟨k, t⟩ := s
+    have hr : ((⟨k, t⟩ :: r).getLast?.map (·.t)).getD t0 = (r.getLast?.map (·.t)).getD t := by
+      cases r with
+      | nil => rfl
+      | cons a b =>
+        simp only [List.getLast?_cons_cons]
+        cases hg : (a :: b).getLast? with
+        | none => exact absurd (List.getLast?_eq_none_iff.1 hg) (by simp)
+        | some x => rfl
+    rw [hr, ← ih t]
+    cases k with
+    | code n b => simp only [flatten1]; rw [lastTextF_cons]
+    | em st d β => simp only [flatten1]; rw [lastTextF_cons, lastTextF_spansF]
+
+
+/-- the source characters of a code span are safe and contain no line feed -/
+theorem spanSrc_chars (n : Nat) (b : Str) (hw : wfCodeSpan b = true) (hlt : noLt b = true) :
+    (∀ ch ∈ spanSrc n b, okCh ch) ∧ '\n' ∉ spanSrc n b := by
+  obtain ⟨_, hpr, _⟩ := wfCodeSpan_facts hw
+  have hsp : okCh ' ' := ⟨by decide, by decide, by decide, by decide, by decide, by decide⟩
+  have htick : okCh '`' := ⟨by decide, by decide, by decide, by decide, by decide, by decide⟩
+  have hpad : ∀ x ∈ codePad b, x = ' ' := by
+    intro x hx; unfold codePad at hx; split at hx <;> simp at hx; exact hx
+  have hall : ∀ ch ∈ spanSrc n b, okCh ch := by
+    intro ch hc
+    simp only [spanSrc, ticks, padded, List.mem_append] at hc
+    rcases hc with hc | ((hc | hc) | hc) | hc
+    · rw [List.eq_of_mem_replicate hc]; exact htick
+    · rw [hpad _ hc]; exact hsp
+    · refine okCh_printable (hpr _ hc) ?_
+      intro e; subst e
+      simp only [noLt, Bool.not_eq_true'] at hlt
+      have : b.contains '<' = true := List.contains_iff_mem.2 hc
+      rw [hlt] at this; cases this
+    · rw [hpad _ hc]; exact hsp
+    · rw [List.eq_of_mem_replicate hc]; exact htick
+  exact ⟨hall, fun hm => (hall _ hm).1 rfl⟩
+
+theorem dl_chars (st : Bool) (d : Char) (hd : d = '*' ∨ d = '_') :
+    (∀ ch ∈ dl st d, okCh ch ∧ ch ≠ '&') ∧ '\n' ∉ dl st d := by
+  have h : ∀ ch ∈ dl st d, okCh ch ∧ ch ≠ '&' := by
+    intro ch hc
+    have : ch = d := List.eq_of_mem_replicate hc
+    rcases hd with e | e <;> rw [this, e] <;>
+      exact ⟨⟨by decide, by decide, by decide, by decide, by decide, by decide⟩, by decide⟩
+  exact ⟨h, fun hm => (h _ hm).1.1 rfl⟩
+
+theorem DeepContentOK.facts {c : List DocSpec.Inline} {t0 : Str} {segs : List Seg1} (h : DeepContentOK c t0 segs) :
+    Segs1OK segs ∧ (∀ s ∈ segs, s.k.clean) ∧ FSegsOK (flatten1 segs) ∧ junctionsF t0 false (flatten1 segs) ∧
+      (∀ ch, (ch ∈ t0 ∨ ∃ s ∈ segs, ch ∈ s.t) → plainCh ch) ∧ (t0 ≠ [] ∨ segs ≠ []) ∧
+      (t0 ≠ [] → startsVisible t0 = true) ∧
+      (∀ z, ((segs.getLast?.map (·.t)).getD t0).getLast? = some z → isSpace z = false) ∧
+      (∀ s ∈ segs, s.k.q.ok) := by
+  have hrun := h.run
+  simp only [wfRun, Bool.and_eq_true, decide_eq_true_eq, Bool.or_eq_true] at hrun
+  obtain ⟨⟨⟨hst, hen⟩, hadj⟩, _⟩ := hrun
+  obtain ⟨hc0, hcs⟩ := splitDeep_chars c h.items
+  have hplain : ∀ ch, (ch ∈ t0 ∨ ∃ s ∈ segs, ch ∈ s.t) → plainCh ch := by
+    intro ch hch
+    rcases hch with hch | ⟨s, hs, hch⟩
+    · rw [h.t0eq] at hch; exact hc0 ch hch
+    · exact (hcs _ (mem_segs_splitDeep h hs)).1 ch hch
+  have hq : ∀ s ∈ segs, s.k.q.ok := fun s hs => (hcs _ (mem_segs_splitDeep h hs)).2
+  have hk := fun s hs => item_facts s.k (hq s hs) (h.printed s hs)
+  have hne : c ≠ [] := by intro e; subst e; simp [startsOk] at hst
+  have hj : junctionsF t0 false (flatten1 segs) := by
+    apply junctionsF_flatten1
+    apply junctions1_of
+    · rw [h.smap, h.t0eq]; exact (splitDeep_junctions c h.items hadj h.nobs).1
+    · exact fun s hs => (hk s hs).2.2.2
+  refine ⟨fun s hs => (hk s hs).1, fun s hs => (hk s hs).2.2.1,
+    fsegsOK_flatten1 segs (fun s hs => (hk s hs).2.1), hj, hplain, ?_, ?_, ?_, hq⟩
+  · by_cases ht : t0 = []
+    · right
+      intro hs
+      have : (splitDeep c).1 = [] ∧ (splitDeep c).2 = [] := by
+        rw [← h.t0eq, ← h.smap, hs]; exact ⟨ht, rfl⟩
+      exact hne ((splitDeep_nil_iff c h.items).1 this)
+    · exact Or.inl ht
+  · intro ht
+    rw [h.t0eq] at ht ⊢
+    exact splitDeep_first c h.items hst ht
+  · intro z hz
+    apply splitDeep_last c h.items hen z
+    have : lastTextDQ (splitDeep c) = (segs.getLast?.map (·.t)).getD t0 := by
+      simp only [lastTextDQ]
+      rw [← h.smap, ← h.t0eq]
+      simp only [List.getLast?_map]
+      cases segs.getLast? <;> rfl
+    rw [this]; exact hz
+
+theorem DeepContentOK.l1TxtOK {c : List DocSpec.Inline} {t0 : Str} {segs : List Seg1} (h : DeepContentOK c t0 segs)
+    (tag : Str) (htag : textTags.contains tag = true) : L1TxtOK ESC tag t0 segs := by
+  obtain ⟨h1, h2, h3, h4, h5, h6, _, _, _⟩ := h.facts
+  refine ⟨htag, h1, h3, h4, h.under, fun ch hch => ?_, h2, h6⟩
+  obtain ⟨_, a2, a3, _, a5⟩ := plainCh_facts (h5 ch hch); exact ⟨a3, a2, a5⟩
+
+/-- the facts about the tokens of the flat view -/
+theorem DeepContentOK.tokens {c : List DocSpec.Inline} {t0 : Str} {segs : List Seg1} (h : DeepContentOK c t0 segs) :
+    ∀ tok ∈ flatten1 segs, (∀ x ∈ tok.t, plainCh x) ∧ (∀ ch ∈ tok.k.src, okCh ch) ∧ '\n' ∉ tok.k.src ∧
+      (∀ x, tok.k = .junk x → (x.head? = some '*' ∨ x.head? = some '_') ∧
+        (x.getLast? = some '*' ∨ x.getLast? = some '_') ∧ '&' ∉ x) ∧
+      (∀ n b, tok.k = .code n b → wfCodeSpan b = true ∧ ∃ k, n = k + 1) := by
+  obtain ⟨_, _, _, _, h5, _, _, _, hq⟩ := h.facts
+  apply forall_flatten1
+  intro s hs
+  have hqs := hq s hs
+  have hps := h.printed s hs
+  cases hk : s.k with
+  | code n b =>
+    rw [hk] at hqs hps
+    obtain ⟨hw, hlt⟩ := hqs
+    obtain ⟨a1, a2⟩ := spanSrc_chars n b hw hlt
+    refine ⟨fun x hx => h5 x (Or.inr ⟨s, hs, hx⟩), a1, a2, ?_, ?_⟩
+    · intro x e; cases e
+    · intro n' b' e; cases e; exact ⟨hw, (padded_ok n b hw hps).1⟩
+  | em st d β =>
+    rw [hk] at hqs hps
+    obtain ⟨c', hc⟩ := body_content st d β hqs hps
+    obtain ⟨f1, f2, f3, f4, _⟩ := hc.facts
+    obtain ⟨d1, d2⟩ := dl_chars st d hps.1
+    have hjunk : ∀ x, FKind.junk (dl st d) = .junk x → (x.head? = some '*' ∨ x.head? = some '_') ∧
+        (x.getLast? = some '*' ∨ x.getLast? = some '_') ∧ '&' ∉ x := by
+      intro x e
+      cases e
+      refine ⟨?_, ?_, fun hm => (d1 _ hm).2 rfl⟩
+      · rcases hps.1 with e | e <;> cases st <;> simp [dl, e]
+      · rcases hps.1 with e | e <;> cases st <;> simp [dl, e]
+    refine ⟨⟨fun x hx => f3 x (Or.inl hx), fun ch hc' => (d1 ch hc').1, d2, hjunk, fun n b e => by cases e⟩,
+      ⟨fun x hx => h5 x (Or.inr ⟨s, hs, hx⟩), fun ch hc' => (d1 ch hc').1, d2, hjunk, fun n b e => by cases e⟩, ?_⟩
+    intro sp hsp
+    obtain ⟨hw, hlt⟩ := f4 sp hsp
+    obtain ⟨a1, a2⟩ := spanSrc_chars sp.n sp.b hw hlt
+    refine ⟨fun x hx => f3 x (Or.inr ⟨sp, hsp, hx⟩), a1, a2, ?_, ?_⟩
+    · intro x e; cases e
+    · intro n' b' e; cases e; exact ⟨hw, (f2.nls sp hsp).1⟩
+
+
+theorem body_raw_head (β : Body0) (hβ : Body0OK β) (hsp : ∀ s ∈ β.spans, ∃ k, s.n = k + 1) (X : Str) :
+    ∃ x tl, escAll ESC β.u0 ++ (rawSegs ESC β.spans ++ X) = x :: tl ∧ x ≠ ' ' ∧ x ≠ '*' ∧ x ≠ '_' := by
+  cases hu : β.u0 with
+  | cons c r =>
+    by_cases hc : c ∈ ESC
+    · exact ⟨'\\', _, by rw [escAll_cons_mem hc]; rfl, by decide, by decide, by decide⟩
+    · have hv := hβ.first (by rw [hu]; simp)
+      rw [hu] at hv
+      have hcs : isSpace c = false := by simpa [startsVisible] using hv
+      have hpl := hβ.plain c (Or.inl (by rw [hu]; simp))
+      have ha : isAlnumSp c = true := by
+        rcases hpl with h | h
+        · exact h
+        · exact absurd h hc
+      have hf := wordCh_facts ha
+      refine ⟨c, _, by rw [escAll_cons_not_mem hc]; rfl, ?_, hf.1, hf.2.1⟩
+      intro e; subst e; exact absurd hcs (by decide)
+  | nil =>
+    have hne : β.spans ≠ [] := by rcases hβ.ne with h | h; exact absurd hu h; exact h
+    cases hs : β.spans with
+    | nil => exact absurd hs hne
+    | cons sp r =>
+      obtain ⟨k, hk⟩ := hsp sp (by rw [hs]; simp)
+      refine ⟨'`', ticks k ++ (padded sp.b ++ ticks sp.n) ++ (escAll ESC sp.t ++ rawSegs ESC r) ++ X, ?_,
+        by decide, by decide, by decide⟩
+      simp [escAll, rawSegs, spanSrc, hk, ticks, List.replicate_succ, List.append_assoc]
+
+theorem DeepContentOK.fline {c : List DocSpec.Inline} {t0 : Str} {segs : List Seg1} (h : DeepContentOK c t0 segs) :
+    FLineOK ESC t0 (flatten1 segs) := by
+  obtain ⟨h1, _, h3, _, h5, h6, h7, h8, hq⟩ := h.facts
+  have htok := h.tokens
+  refine ⟨?_, ?_, ?_, h7, ?_, ?_, h3, ?_⟩
+  · exact fun hm => (plainCh_facts (h5 _ (Or.inl hm))).2.1 rfl
+  · intro tok ht
+    obtain ⟨a1, _, a3, _⟩ := htok tok ht
+    exact ⟨fun hm => (plainCh_facts (a1 _ hm)).2.1 rfl, a3⟩
+  · rcases h6 with h' | h'
+    · exact Or.inl h'
+    · right
+      have := flatten1_length segs
+      intro e; rw [e] at this
+      cases segs with
+      | nil => exact h' rfl
+      | cons s r => simp at this
+  · intro ht0
+    have hne : segs ≠ [] := by rcases h6 with h' | h'; exact absurd ht0 h'; exact h'
+    cases hsegs : segs with
+    | nil => exact absurd hsegs hne
+    | cons s r =>
+      obtain ⟨k, t⟩ := s
+      cases k with
+      | code n b => exact Or.inl ⟨n, b, t, flatten1 r, rfl⟩
+      | em st d β =>
+        right
+        have hs : (⟨K1.em st d β, t⟩ : Seg1) ∈ segs := by rw [hsegs]; simp
+        have hk1 := h1 _ hs
+        have hpr := h.printed _ hs
+        obtain ⟨c', hc⟩ := body_content st d β (hq _ hs) hpr
+        obtain ⟨_, f2, _⟩ := hc.facts
+        obtain ⟨x, tl, he, hx1, hx2, hx3⟩ := body_raw_head β hk1.2 (fun s hs' => (f2.nls s hs').1)
+          (dl st d ++ (escAll ESC t ++ rawF ESC (flatten1 r)))
+        refine ⟨d, if st then 2 else 1, x, tl, ?_, hpr.1, by cases st <;> simp, by cases st <;> simp, ?_, hx1⟩
+        · rw [rawF_flatten_em, he]; rfl
+        · rcases hpr.1 with e | e <;> rw [e] <;> assumption
+  · rw [lastTextF_flatten1]; exact h8
+  · intro tok ht x hk
+    obtain ⟨_, _, _, a4, _⟩ := htok tok ht
+    obtain ⟨b1, b2, _⟩ := a4 x hk
+    refine ⟨fun z hz => ?_, fun c' hc' => ?_⟩
+    · rcases b2 with e | e <;> rw [e] at hz <;> cases hz <;> exact ⟨by decide, by decide, by decide⟩
+    · rcases b1 with e | e <;> rw [e] at hc' <;> cases hc' <;> exact ⟨by decide, by decide, by decide⟩
+
+theorem deep_raw_chars {c : List DocSpec.Inline} {t0 : Str} {segs : List Seg1} (h : DeepContentOK c t0 segs) :
+    ∀ ch ∈ escAll ESC t0 ++ rawF ESC (flatten1 segs), okCh ch := by
+  obtain ⟨_, _, _, _, h5, _⟩ := h.facts
+  have htok := h.tokens
+  have hpl : ∀ x, plainCh x → okCh x := fun x hx => okCh_plain (plainCh_facts hx).1 (plainCh_facts hx).2.1
+  have hesc : ∀ (t : Str), (∀ x ∈ t, plainCh x) → ∀ x ∈ escAll ESC t, okCh x := by
+    intro t ht x hx
+    rcases mem_escAll hx with rfl | hx
+    · exact ⟨by decide, by decide, by decide, by decide, by decide, by decide⟩
+    · exact hpl x (ht x hx)
+  intro ch hch
+  rcases List.mem_append.1 hch with hch | hch
+  · exact hesc t0 (fun x hx => h5 x (Or.inl hx)) ch hch
+  · obtain ⟨tok, ht, hc | hc⟩ := mem_rawF hch
+    · exact (htok tok ht).2.1 ch hc
+    · exact hesc tok.t (htok tok ht).1 ch hc
+
+theorem refsClosed_rawF (F : List FSeg)
+    (h : ∀ tok ∈ F, (∀ x ∈ tok.t, plainCh x) ∧ (∀ x, tok.k = .junk x → '&' ∉ x) ∧
+      (∀ n b, tok.k = .code n b → wfCodeSpan b = true ∧ ∃ k, n = k + 1)) (Z : Str)
+    (hZ : refsClosed Z = true) : refsClosed (rawF ESC F ++ Z) = true := by
+  induction F with
+  | nil => simpa [rawF] using hZ
+  | cons s r ih =>
+    obtain ⟨hpl, hj, hc⟩ := h s List.mem_cons_self
+    have ihr := ih (fun x hx => h x (List.mem_cons_of_mem _ hx))
+    have hrest : refsClosed (escAll ESC s.t ++ (rawF ESC r ++ Z)) = true :=
+      refsClosed_noamp_append _ _ (no_amp_escAll s.t hpl) ihr
+    have e : rawF ESC (s :: r) ++ Z = s.k.src ++ (escAll ESC s.t ++ (rawF ESC r ++ Z)) := by
+      simp [rawF, List.append_assoc]
+    rw [e]
+    cases hk : s.k with
+    | code n b =>
+      obtain ⟨hw, hn⟩ := hc n b hk
+      exact refsClosed_spanSrc n b hn hw _ hrest
+    | junk x => exact refsClosed_noamp_append _ _ (hj x hk) hrest
+
+theorem refsClosed_deepRaw {c : List DocSpec.Inline} {t0 : Str} {segs : List Seg1} (h : DeepContentOK c t0 segs)
+    (P Q : Str) (hP : '&' ∉ P) (hQ : '&' ∉ Q) :
+    refsClosed (P ++ (escAll ESC t0 ++ rawF ESC (flatten1 segs)) ++ Q) = true := by
+  obtain ⟨_, _, _, _, h5, _⟩ := h.facts
+  have htok := h.tokens
+  have hQc : refsClosed Q = true := refsClosed_of_no_amp Q hQ
+  have := refsClosed_rawF (flatten1 segs) (fun tok ht =>
+    ⟨(htok tok ht).1, fun x hk => ((htok tok ht).2.2.2.1 x hk).2.2, (htok tok ht).2.2.2.2⟩) Q hQc
+  have h0 := refsClosed_noamp_append _ _ (no_amp_escAll t0 (fun x hx => h5 x (Or.inl hx))) this
+  have := refsClosed_noamp_append P _ hP h0
+  simpa [List.append_assoc] using this
+
+
+/-! ### 45. the specification side, and the pieces -/
+
+theorem l1Src_raw (esc : List Char) (tag t0 : Str) (segs : List Seg1) :
+    l1Src esc tag t0 segs = { tag := .name tag, text := some (escAll esc t0 ++ rawF esc (flatten1 segs)) } := by
+  simp only [l1Src, stageF_raw]
+
+def Q1.spec : Q1 → Str
+  | .code b => S "<code>" ++ htmlEsc b ++ S "</code>"
+  | .em st u0 sp => '<' :: emTagS st ++ ['>'] ++ (htmlEsc u0 ++ specSegs sp) ++ ('<' :: '/' :: emTagS st ++ ['>'])
+
+theorem Q1.spec_code (b : Str) : (Q1.code b).spec = S "<code>" ++ htmlEsc b ++ S "</code>" := rfl
+theorem Q1.spec_em (st : Bool) (u0 : Str) (sp : List (Str × Str)) :
+    (Q1.em st u0 sp).spec =
+      '<' :: emTagS st ++ ['>'] ++ (htmlEsc u0 ++ specSegs sp) ++ ('<' :: '/' :: emTagS st ++ ['>']) := rfl
+
+def specDeep : List (Q1 × Str) → Str
+  | [] => []
+  | q :: r => q.1.spec ++ htmlEsc q.2 ++ specDeep r
+
+theorem specDeep_cons (q : Q1 × Str) (r : List (Q1 × Str)) :
+    specDeep (q :: r) = q.1.spec ++ htmlEsc q.2 ++ specDeep r := rfl
+
+theorem specInlines_splitDeep (c : List DocSpec.Inline) (h : deepItemsOK c = true) :
+    specInlines c = htmlEsc (splitDeep c).1 ++ specDeep (splitDeep c).2 := by
+  revert h
+  refine deepItems_ind (motive := fun c => specInlines c = htmlEsc (splitDeep c).1 ++ specDeep (splitDeep c).2)
+    ?_ ?_ ?_ ?_ ?_ ?_ c
+  · rfl
+  · intro w r _ _ ih
+    rw [specInlines_cons, specInline_text, ih, splitDeep_text, htmlEsc_append, List.append_assoc]
+  · intro ch r _ _ ih
+    have : ch :: (splitDeep r).1 = [ch] ++ (splitDeep r).1 := rfl
+    rw [specInlines_cons, specInline_esc, ih, splitDeep_esc, this, htmlEsc_append, List.append_assoc]
+  · intro b r _ _ _ ih
+    rw [specInlines_cons, specInline_code, ih, splitDeep_code, specDeep_cons, Q1.spec_code]
+    simp only [List.append_assoc]
+    rfl
+  · intro c' r hc' _ ih
+    simp only [emBodyOK, Bool.and_eq_true] at hc'
+    rw [specInlines_cons, specInline_em_gen, specInlines_split c' hc'.1.1.1.1, ih, splitDeep_em, specDeep_cons,
+      Q1.spec_em]
+    simp only [List.append_assoc]
+    rfl
+  · intro c' r hc' _ ih
+    simp only [emBodyOK, Bool.and_eq_true] at hc'
+    rw [specInlines_cons, specInline_strong_gen, specInlines_split c' hc'.1.1.1.1, ih, splitDeep_strong, specDeep_cons,
+      Q1.spec_em]
+    simp only [List.append_assoc]
+    rfl
+
+open Code in
+theorem kout1_eq_code (n : Nat) (b : Str) : kout1 (.code n b) = (K1.code n b).q.spec := by
+  show "<code>".toList ++ Ser.escCdata (Code.codeEscape b) ++ "</code>".toList = S "<code>" ++ htmlEsc b ++ S "</code>"
+  rw [htmlEsc_eq_codeEscape b, codeEscape_onepass, escCdata_codeEscape1]
+
+theorem kout1_eq_em (st : Bool) (d : Char) (β : Body0) (hu : '&' ∉ β.u0) (hsp : ∀ s ∈ β.spans, '&' ∉ s.t) :
+    kout1 (.em st d β) = (K1.em st d β).q.spec := by
+  show '<' :: emTagS st ++ ['>'] ++ (Ser.escCdata β.u0 ++ outSegs β.spans) ++ ('<' :: '/' :: emTagS st ++ ['>']) =
+    '<' :: emTagS st ++ ['>'] ++ (htmlEsc β.u0 ++ specSegs (β.spans.map (fun s => (s.b, s.t)))) ++
+      ('<' :: '/' :: emTagS st ++ ['>'])
+  rw [htmlEsc_eq_escCdata β.u0 hu, outSegs_eq β.spans hsp]
+
+/-- no `&` in the texts inside an emphasis -/
+def K1.noAmp : K1 → Prop
+  | .code _ _ => True
+  | .em _ _ β => '&' ∉ β.u0 ∧ ∀ s ∈ β.spans, '&' ∉ s.t
+
+theorem kout1_eq (k : K1) (h : k.noAmp) : kout1 k = k.q.spec :=
+  match k, h with
+  | .code n b, _ => kout1_eq_code n b
+  | .em st d β, h => kout1_eq_em st d β h.1 h.2
+
+theorem out1_eq (segs : List Seg1) (h : ∀ s ∈ segs, '&' ∉ s.t ∧ s.k.noAmp) :
+    out1 segs = specDeep (segs.map (fun s => (s.k.q, s.t))) := by
+  induction segs with
+  | nil => rfl
+  | cons s r ih =>
+    rw [out1_cons, List.map_cons, specDeep_cons, ih (fun x hx => h x (List.mem_cons_of_mem _ hx)),
+      htmlEsc_eq_escCdata s.t (h s List.mem_cons_self).1, kout1_eq s.k (h s List.mem_cons_self).2]
+
+theorem l1Out_eq {c : List DocSpec.Inline} {t0 : Str} {segs : List Seg1} (h : DeepContentOK c t0 segs)
+    (tag : Str) : l1Out tag t0 segs = '<' :: tag ++ ['>'] ++ specInlines c ++ ('<' :: '/' :: tag ++ ['>']) := by
+  obtain ⟨h1, _, _, _, h5, _⟩ := h.facts
+  have ha0 : '&' ∉ t0 := fun hm => (plainCh_facts (h5 _ (Or.inl hm))).2.2.1 rfl
+  have has : ∀ s ∈ segs, '&' ∉ s.t ∧ s.k.noAmp := fun s hs =>
+    ⟨fun hm => (plainCh_facts (h5 _ (Or.inr ⟨s, hs, hm⟩))).2.2.1 rfl, by
+      have := h1 s hs
+      cases hk : s.k with
+      | code n b => trivial
+      | em st d β =>
+        rw [hk] at this
+        exact ⟨fun hm => (plainCh_facts (this.2.plain _ (Or.inl hm))).2.2.1 rfl,
+          fun x hx hm => (plainCh_facts (this.2.plain _ (Or.inr ⟨x, hx, hm⟩))).2.2.1 rfl⟩⟩
+  rw [specInlines_splitDeep c h.items, ← h.t0eq, ← h.smap, ← out1_eq segs has, htmlEsc_eq_escCdata t0 ha0]
+  simp [l1Out, List.append_assoc]
+
+/-! #### the printed blocks as pieces -/
+
+theorem printContent_deep (c : List DocSpec.Inline) (brOk : Bool) (hp : deepRun c = true)
+    (hw : wfInlines false .none brOk c = true) (st : PSt) :
+    ∃ (t0 : Str) (segs : List Seg1) (st' : PSt),
+      printContent c st = ([escAll ESC t0 ++ rawF ESC (flatten1 segs)], st') ∧ st'.defs = st.defs ∧
+        DeepContentOK c t0 segs := by
+  simp only [deepRun, Bool.and_eq_true] at hp
+  simp only [wfInlines, Bool.and_eq_true] at hw
+  have hitems := deepItemsOK_of_wf c brOk hp.1 hw.2
+  obtain ⟨segs, st', hpr, hd, hm, hds, hu⟩ := printInlines_deep c hitems true true st
+  rw [pwOf_true] at hu
+  have hok : DeepContentOK c (splitDeep c).1 segs := ⟨hitems, hw.1, hp.2, rfl, hm, hds, hu⟩
+  refine ⟨(splitDeep c).1, segs, st', ?_, hd, hok⟩
+  have hnl := (rawOK_flat escOK_generated _ (flatten1 segs) hok.fline).nl
+  simp only [printContent, hpr]
+  rw [splitC_noNl _ (notNl_of_not_mem hnl)]
+
+/-- the facts about a line `P ++ raw ++ Q` around the content -/
+theorem line_facts_deep {c : List DocSpec.Inline} {t0 : Str} {segs : List Seg1} (h : DeepContentOK c t0 segs) (P Q : Str)
+    (hP : ∀ x ∈ P, okCh x ∧ x ≠ '&') (hQ : ∀ x ∈ Q, okCh x ∧ x ≠ '&') :
+    (lineSafe (P ++ (escAll ESC t0 ++ rawF ESC (flatten1 segs)) ++ Q) = true ∧
+      '<' ∉ P ++ (escAll ESC t0 ++ rawF ESC (flatten1 segs)) ++ Q ∧
+      refsClosed (P ++ (escAll ESC t0 ++ rawF ESC (flatten1 segs)) ++ Q) = true) ∧
+    '\n' ∉ P ++ (escAll ESC t0 ++ rawF ESC (flatten1 segs)) ++ Q ∧
+    ∃ x ∈ P ++ (escAll ESC t0 ++ rawF ESC (flatten1 segs)) ++ Q, isSpace x = false := by
+  have hraw := rawOK_flat escOK_generated t0 (flatten1 segs) h.fline
+  obtain ⟨c0, tail, he, hcs, _⟩ := hraw.shape
+  have hc0 : c0 ∈ P ++ (escAll ESC t0 ++ rawF ESC (flatten1 segs)) ++ Q := by rw [he]; simp
+  have hch : ∀ x ∈ P ++ (escAll ESC t0 ++ rawF ESC (flatten1 segs)) ++ Q, okCh x := by
+    intro x hx
+    simp only [List.mem_append] at hx
+    rcases hx with (hx | hx) | hx
+    · exact (hP x hx).1
+    · exact deep_raw_chars h x (List.mem_append.2 hx)
+    · exact (hQ x hx).1
+  have hs := safe_of_okCh _ hch ⟨c0, hc0, by intro e; subst e; exact absurd hcs (by decide)⟩
+  exact ⟨⟨hs.1, hs.2, refsClosed_deepRaw h P Q (fun hm => (hP _ hm).2 rfl) (fun hm => (hQ _ hm).2 rfl)⟩,
+    fun hm => (hch _ hm).1 rfl, c0, hc0, hcs⟩
+
+/-- a paragraph with emphasis around words, escapes and code spans, indented by `i < 4` -/
+theorem deepPara_ok {c : List DocSpec.Inline} {t0 : Str} {segs : List Seg1} (h : DeepContentOK c t0 segs) (i : Nat)
+    (hi : i < 4) :
+    Piece2OK {} (l1Piece ESC [spaces i ++ (escAll ESC t0 ++ rawF ESC (flatten1 segs))] "p".toList t0 segs) := by
+  have hraw := rawOK_flat escOK_generated t0 (flatten1 segs) h.fline
+  obtain ⟨⟨hs1, hs2, hs3⟩, hnl, hvis⟩ := line_facts_deep h (spaces i) [] (okCh_spaces i) (by simp)
+  simp only [List.append_nil] at hs1 hs2 hs3 hnl hvis
+  apply l1Piece_ok _ _ _ _ (h.l1TxtOK _ (by decide)) (by simp)
+  · simp only [joinLines, join_singleton]
+    apply nel_line _ _ hnl
+    obtain ⟨x, hx, _⟩ := hvis
+    intro e; rw [e] at hx; simp at hx
+  · simp only [joinLines, join_singleton]
+    rw [l1Src_raw]; exact produces_para_raw 4 i hi (by omega) _ hraw
+  · intro l hl
+    have : l = spaces i ++ (escAll ESC t0 ++ rawF ESC (flatten1 segs)) := by simpa using hl
+    subst this; exact ⟨hs1, hs2, hs3⟩
+  · simpa [joinLines] using hvis
+
+
+/-- a Setext heading with emphasis around words, escapes and code spans -/
+theorem deepSetext_ok {c : List DocSpec.Inline} {t0 : Str} {segs : List Seg1} (h : DeepContentOK c t0 segs)
+    (i : Nat) (hi : i < 4) (lv k : Nat) (hlv : lv = 1 ∨ lv = 2) :
+    Piece2OK {} (l1Piece ESC [spaces i ++ (escAll ESC t0 ++ rawF ESC (flatten1 segs)),
+      List.replicate (k + 1) (if lv = 1 then '=' else '-')] ('h' :: natToDec lv) t0 segs) := by
+  have hraw := rawOK_flat escOK_generated t0 (flatten1 segs) h.fline
+  obtain ⟨⟨hs1, hs2, hs3⟩, hnl, hvis⟩ := line_facts_deep h (spaces i) [] (okCh_spaces i) (by simp)
+  simp only [List.append_nil] at hs1 hs2 hs3 hnl hvis
+  have hprod := produces_setext_raw 4 i hi _ hraw lv k hlv
+  generalize hu : (if lv = 1 then '=' else '-') = ch at *
+  have hch2 : ch = '=' ∨ ch = '-' := by rw [← hu]; split <;> simp
+  have hunl : '\n' ∉ List.replicate (k + 1) ch := by
+    intro hm; have := List.eq_of_mem_replicate hm
+    rcases hch2 with h' | h' <;> rw [h'] at this <;> exact absurd this (by decide)
+  have hjoin : joinLines [spaces i ++ (escAll ESC t0 ++ rawF ESC (flatten1 segs)), List.replicate (k + 1) ch] =
+      spaces i ++ (escAll ESC t0 ++ rawF ESC (flatten1 segs)) ++ '\n' :: List.replicate (k + 1) ch := by
+    simp [joinLines, join]
+  have hlne : spaces i ++ (escAll ESC t0 ++ rawF ESC (flatten1 segs)) ≠ [] := by
+    obtain ⟨x, hx, _⟩ := hvis
+    intro e; rw [e] at hx; simp at hx
+  apply l1Piece_ok _ _ _ _ (h.l1TxtOK _ (hTag_mem lv (by omega) (by omega))) (by simp)
+  · rw [hjoin]
+    exact nel_two_lines _ _ hlne (by simp [List.replicate_succ]) hnl hunl
+  · rw [hjoin, l1Src_raw]; exact hprod
+  · intro l hl
+    simp only [List.mem_cons, List.mem_nil_iff, or_false] at hl
+    rcases hl with rfl | rfl
+    · exact ⟨hs1, hs2, hs3⟩
+    · have hall : ∀ x ∈ List.replicate (k + 1) ch, okCh x ∧ x ≠ '&' := by
+        intro x hx; rw [List.eq_of_mem_replicate hx]
+        rcases hch2 with h' | h' <;> rw [h'] <;>
+          exact ⟨⟨by decide, by decide, by decide, by decide, by decide, by decide⟩, by decide⟩
+      have := safe_of_okCh _ (fun x hx => (hall x hx).1)
+        ⟨ch, by simp [List.replicate_succ], by rcases hch2 with h' | h' <;> rw [h'] <;> decide⟩
+      exact ⟨this.1, this.2, refsClosed_of_no_amp _ (fun hm => (hall _ hm).2 rfl)⟩
+  · obtain ⟨x, hx, hxs⟩ := hvis
+    exact ⟨x, by rw [hjoin]; exact List.mem_append_left _ hx, hxs⟩
+
+/-- an ATX heading with emphasis around words, escapes and code spans -/
+theorem deepAtx_ok {c : List DocSpec.Inline} {t0 : Str} {segs : List Seg1} (h : DeepContentOK c t0 segs)
+    (lv : Nat) (h1 : 1 ≤ lv) (h6 : lv ≤ 6) (Y : Str) (hY : Y = [] ∨ ∃ m, Y = ' ' :: List.replicate m '#') :
+    Piece2OK {} (l1Piece ESC [List.replicate lv '#' ++ ' ' :: ((escAll ESC t0 ++ rawF ESC (flatten1 segs)) ++ Y)]
+      ('h' :: natToDec lv) t0 segs) := by
+  have hraw := rawOK_flat escOK_generated t0 (flatten1 segs) h.fline
+  have hhash : okCh '#' ∧ ('#' : Char) ≠ '&' :=
+    ⟨⟨by decide, by decide, by decide, by decide, by decide, by decide⟩, by decide⟩
+  have hP : ∀ x ∈ List.replicate lv '#' ++ [' '], okCh x ∧ x ≠ '&' := by
+    intro x hx
+    rcases List.mem_append.1 hx with hx | hx
+    · rw [List.eq_of_mem_replicate hx]; exact hhash
+    · have : x = ' ' := by simpa using hx
+      rw [this]; exact okCh_space
+  have hQ : ∀ x ∈ Y, okCh x ∧ x ≠ '&' := by
+    intro x hx
+    rcases hY with rfl | ⟨m, rfl⟩
+    · simp at hx
+    · rcases List.mem_cons.1 hx with hx | hx
+      · rw [hx]; exact okCh_space
+      · rw [List.eq_of_mem_replicate hx]; exact hhash
+  obtain ⟨⟨hs1, hs2, hs3⟩, hnl, hvis⟩ := line_facts_deep h _ Y hP hQ
+  have hline : List.replicate lv '#' ++ [' '] ++ (escAll ESC t0 ++ rawF ESC (flatten1 segs)) ++ Y =
+      List.replicate lv '#' ++ ' ' :: ((escAll ESC t0 ++ rawF ESC (flatten1 segs)) ++ Y) := by simp [List.append_assoc]
+  rw [hline] at hs1 hs2 hs3 hnl hvis
+  apply l1Piece_ok _ _ _ _ (h.l1TxtOK _ (hTag_mem lv h1 h6)) (by simp)
+  · simp only [joinLines, join_singleton]
+    apply nel_line _ _ hnl
+    obtain ⟨x, hx, _⟩ := hvis
+    intro e; rw [e] at hx; simp at hx
+  · simp only [joinLines, join_singleton]
+    rw [l1Src_raw]; exact produces_atx_raw 4 (by omega) _ hraw lv h1 h6 Y hY
+  · intro l hl
+    have : l = List.replicate lv '#' ++ ' ' :: ((escAll ESC t0 ++ rawF ESC (flatten1 segs)) ++ Y) := by simpa using hl
+    subst this; exact ⟨hs1, hs2, hs3⟩
+  · simpa [joinLines] using hvis
+
+
+
+
+
+/-! #### every printed block of the sub-grammar -/
+
+theorem l1Piece_out (g : List Str) (tag t0 : Str) (segs : List Seg1) :
+    (l1Piece ESC g tag t0 segs).elem.out = l1Out tag t0 segs := rfl
+
+theorem printBlock_deep (b : DocSpec.Block) (hf : isDeepBlock b = true) (hw : wfBlock none b = true) (st : PSt) :
+    ∃ (p : Piece2) (st' : PSt), printBlock true b st = (p.b.g, st') ∧ st'.defs = st.defs ∧
+      Piece2OK {} p ∧ p.elem.out = specBlock b ∧ p.b.isCode = isCode b := by
+  cases b with
+  | rule => exact printBlock_span .rule rfl hw st
+  | code ls => exact printBlock_span (.code ls) hf hw st
+  | para c =>
+    simp only [isDeepBlock] at hf
+    simp only [wfBlock] at hw
+    obtain ⟨t0, segs, st', hpc, hd, hok⟩ := printContent_deep c true hf hw (draw st).2
+    refine ⟨l1Piece ESC [spaces ((draw st).1 % 4) ++ (escAll ESC t0 ++ rawF ESC (flatten1 segs))] "p".toList t0 segs,
+      st', ?_, by rw [hd, draw_defs], deepPara_ok hok _ (Nat.mod_lt _ (by omega)), ?_, rfl⟩
+    · rw [printBlock_para, hpc]; rfl
+    · rw [l1Piece_out, l1Out_eq hok, specBlock_para]
+      simp [S]
+  | atx l c =>
+    simp only [isDeepBlock] at hf
+    simp only [wfBlock, Bool.and_eq_true, decide_eq_true_eq] at hw
+    obtain ⟨t0, segs, st', hpc, hd, hok⟩ := printContent_deep c false hf hw.2 (draw st).2
+    have hY : atxClosing (draw st).1 l = [] ∨ ∃ m, atxClosing (draw st).1 l = ' ' :: List.replicate m '#' := by
+      unfold atxClosing
+      split
+      · exact Or.inl rfl
+      · split
+        · exact Or.inr ⟨1, rfl⟩
+        · exact Or.inr ⟨l, rfl⟩
+    refine ⟨l1Piece ESC [List.replicate l '#' ++ ' ' :: ((escAll ESC t0 ++ rawF ESC (flatten1 segs)) ++
+        atxClosing (draw st).1 l)] ('h' :: natToDec l) t0 segs,
+      st', ?_, by rw [hd, draw_defs], deepAtx_ok hok l hw.1.1 hw.1.2 _ hY, ?_, rfl⟩
+    · rw [printBlock_atx, hpc]
+      simp [atxLine, join, rep, List.append_assoc, l1Piece, chunkB]
+    · rw [l1Piece_out, l1Out_eq hok, specBlock_atx]
+      simp [S, List.append_assoc]
+  | setext l c =>
+    simp only [isDeepBlock] at hf
+    simp only [wfBlock, Bool.and_eq_true, Bool.or_eq_true, decide_eq_true_eq] at hw
+    obtain ⟨t0, segs, st', hpc, hd, hok⟩ := printContent_deep c false hf hw.2 (draw (draw st).2).2
+    refine ⟨l1Piece ESC [spaces ((draw st).1 % 4) ++ (escAll ESC t0 ++ rawF ESC (flatten1 segs)),
+          List.replicate ((draw (draw st).2).1 % 8 + 1) (if l = 1 then '=' else '-')] ('h' :: natToDec l) t0 segs,
+      st', ?_, by rw [hd]; simp [draw_defs], deepSetext_ok hok _ (Nat.mod_lt _ (by omega)) l _ hw.1, ?_, rfl⟩
+    · rw [printBlock_setext, hpc]; rfl
+    · rw [l1Piece_out, l1Out_eq hok, specBlock_setext]
+      simp [S, List.append_assoc]
+  | quote _ => simp [isDeepBlock] at hf
+  | ulist _ _ => simp [isDeepBlock] at hf
+  | olist _ _ => simp [isDeepBlock] at hf
+
+theorem printBlocks_deep (d : Doc) (hne : d ≠ []) (hf : ∀ b ∈ d, isDeepBlock b = true)
+    (hw : ∀ b ∈ d, wfBlock none b = true) (hnext : okNexts d = true) :
+    ∀ st : PSt, ∃ (ps : List Piece2) (st' : PSt), printBlocks true d st = (flatLines (ps.map (·.b.g)), st') ∧
+      st'.defs = st.defs ∧ ps ≠ [] ∧ (∀ p ∈ ps, Piece2OK {} p) ∧
+      joinOutS (ps.map (·.elem.out)) = specBlocks d ∧ noCodeAfterCode (ps.map (·.b)) ∧
+      (ps.head?.map (·.b.isCode) = d.head?.map isCode) := by
+  induction d with
+  | nil => exact absurd rfl hne
+  | cons b r ih =>
+    intro st
+    obtain ⟨p, st1, hp, hd1, hok, hout, hcode⟩ :=
+      printBlock_deep b (hf b List.mem_cons_self) (hw b List.mem_cons_self) st
+    cases r with
+    | nil =>
+      refine ⟨[p], st1, ?_, hd1, by simp, ?_, ?_, trivial, by simp [hcode]⟩
+      · rw [printBlocks_one, hp]; rfl
+      · intro q hq; have : q = p := by simpa using hq
+        subst this; exact hok
+      · rw [specBlocks_one, ← hout]; rfl
+    | cons b' r' =>
+      rw [okNexts_cons2, Bool.and_eq_true] at hnext
+      obtain ⟨ps, st2, hps, hd2, hpsne, hoks, houts, hadj, hhead⟩ := ih (by simp)
+        (fun x hx => hf x (List.mem_cons_of_mem _ hx)) (fun x hx => hw x (List.mem_cons_of_mem _ hx)) hnext.2 st1
+      obtain ⟨q, qs, rfl⟩ : ∃ q qs, ps = q :: qs := by
+        cases ps with
+        | nil => exact absurd rfl hpsne
+        | cons q qs => exact ⟨q, qs, rfl⟩
+      have hq : q.b.isCode = isCode b' := by simpa using hhead
+      refine ⟨p :: q :: qs, st2, ?_, by rw [hd2, hd1], by simp, ?_, ?_, ?_, by simp [hcode]⟩
+      · rw [printBlocks_cons2, hp]
+        simp only [hps]
+        rfl
+      · intro x hx
+        rcases List.mem_cons.1 hx with rfl | hx
+        · exact hok
+        · exact hoks x hx
+      · rw [specBlocks_cons2, ← houts, ← hout]; rfl
+      · refine ⟨?_, hadj⟩
+        intro hqc
+        rw [hq] at hqc
+        rw [hcode]
+        have h1 := hnext.1
+        simp only [okNext, hqc, Bool.and_true, Bool.and_eq_true, Bool.not_eq_true', Bool.or_eq_false_iff] at h1
+        exact h1.1.2.1
+
+/-- **C01 on documents with emphasis around words, escapes and code spans**: every spelling of a well-formed document of the
+    sub-grammar converts to what `spec` prescribes -/
+theorem convert_deepDoc (d : Doc) (sp : Spelling) (hwf : WF d = true) (hs : DocSpec.DeepDoc d = true) :
+    Pipeline.convert {} (print d sp) = .ok (spec d) := by
+  simp only [WF, Bool.and_eq_true, Bool.not_eq_true', List.isEmpty_eq_false_iff] at hwf
+  obtain ⟨⟨⟨hne, hnx⟩, hbl⟩, _⟩ := hwf
+  have hf : ∀ b ∈ d, isDeepBlock b = true := by
+    simpa [DocSpec.DeepDoc, List.all_eq_true] using hs
+  obtain ⟨ps, st', hps, hdefs, hpsne, hoks, houts, hadj, _⟩ :=
+    printBlocks_deep d hne hf (wfBlockList_mem hbl) hnx ⟨sp.choices, 1, []⟩
+  have hprint : print d sp = joinLines (flatLines (ps.map (·.b.g))) := by
+    simp only [print, hps]
+    have : st'.defs = [] := hdefs
+    simp [this, joinLines]
+  rw [hprint, spec, ← houts]
+  exact convert_pieces2 {} rfl rfl ps hpsne hoks hadj
+
 
 
 
